@@ -40,12 +40,18 @@ Proof. induction l as [|x r IH]; intros a b; cbn; [reflexivity|]. now rewrite IH
 Lemma firstn_firstn_le : forall A (l : list A) a b, a <= b -> firstn a (firstn b l) = firstn a l.
 Proof. intros A l a b H. rewrite firstn_firstn. f_equal. lia. Qed.
 
+Lemma skipn_skipn_add : forall A (l : list A) x y, skipn x (skipn y l) = skipn (y + x) l.
+Proof.
+  intros A l x y. revert l. induction y as [|y IH]; intros l; [reflexivity|]. destruct l as [|a r]; [now rewrite !skipn_nil|]. cbn. apply IH.
+Qed.
+
 Section SimN.
 Variable cf : cfg.
 Variable funs : list func.
+Variable jumps : bool.
 
-Notation vrel := (vrelN cf funs).
-Notation sto := (STON cf funs).
+Notation vrel := (vrelN cf funs jumps).
+Notation sto := (STON cf funs jumps).
 Notation UR := (ScopeRelN.UR).
 
 (* K grows by fresh machine cells *)
@@ -143,19 +149,20 @@ Proof.
     + now inversion Hr.
 Qed.
 
-Lemma resolve_cell : forall L U E x r U' E' enb envs c K CL HL base uvec Ufin Efin,
-  rvn cf L U E x = Some (r, U', E') -> assoc (enb ++ List.concat envs)%list x = Some c ->
-  LRBN K CL HL base L enb -> base + List.length L <= List.length CL -> ENVS Efin envs -> levs_up E' Efin ->
+Lemma resolve_cell : forall L Lb U E x r U' E' enb envs c K CL HL base uvec Ufin Efin,
+  rvn cf L U E x = Some (r, U', E') -> assoc (enb ++ List.concat envs)%list x = Some c -> flags_up L Lb ->
+  LRBN K CL HL base Lb enb -> base + List.length Lb <= List.length CL -> ENVS Efin envs -> levs_up E' Efin ->
   (exists ext, Ufin = (U' ++ ext)%list) -> UR K HL Efin envs Ufin uvec ->
   where_is K CL HL base uvec r c.
 Proof.
-  intros L U E x r U' E' enb envs c K CL HL base uvec Ufin Efin Hr Ha HL0 Hlen HE HF HU HUR.
+  intros L Lb U E x r U' E' enb envs c K CL HL base uvec Ufin Efin Hr Ha HFB HL0 Hlen HE HF HU HUR.
   pose proof (rvn_ok _ _ _ _ _ _ _ _ Hr) as [_ HEE].
   assert (HE0 : ENVS E envs) by (eapply ENVS_levs_up_rev; [eapply levs_up_trans; eauto|exact HE]).
   unfold rvn in Hr. rewrite assoc_app in Ha. destruct (assoc enb x) as [c0|] eqn:Eb.
   - inversion Ha; subst c0. destruct (LRBN_lookup _ _ _ _ _ _ _ _ HL0 Eb) as (s & E1 & E2 & E3 & E4).
+    rewrite (flags_up_resolve_local _ _ x HFB) in E1.
     rewrite E1 in Hr. inversion Hr; subst. constructor; auto. lia.
-  - rewrite (ENVN_lookup_none _ _ _ (LRBN_ENV _ _ _ _ _ _ HL0) Eb) in Hr.
+  - pose proof (ENVN_lookup_none _ _ _ (LRBN_ENV _ _ _ _ _ _ HL0) Eb) as En0. rewrite (flags_up_resolve_local _ _ x HFB) in En0. rewrite En0 in Hr.
     destruct (rup cf x U E) as [[[r0 U1] E1]|] eqn:Er; [|discriminate].
     destruct (rup_cell x E envs HE0 _ _ _ _ _ Er Ha) as (k & -> & HC). inversion Hr; subst r U1 E1.
     pose proof (rup_index _ _ _ _ _ _ _ Er) as Hk.
@@ -165,15 +172,15 @@ Proof.
     rewrite (UPC_fun _ _ _ _ _ _ HC' A). constructor; auto.
 Qed.
 
-Lemma resolve_global : forall L U E x r U' E' enb envs K CL HL base Efin,
-  rvn cf L U E x = Some (r, U', E') -> assoc (enb ++ List.concat envs)%list x = None ->
-  LRBN K CL HL base L enb -> ENVS Efin envs -> levs_up E' Efin -> r = VGlobal.
+Lemma resolve_global : forall L Lb U E x r U' E' enb envs K CL HL base Efin,
+  rvn cf L U E x = Some (r, U', E') -> assoc (enb ++ List.concat envs)%list x = None -> flags_up L Lb ->
+  LRBN K CL HL base Lb enb -> ENVS Efin envs -> levs_up E' Efin -> r = VGlobal.
 Proof.
-  intros L U E x r U' E' enb envs K CL HL base Efin Hr Ha HL0 HE HF.
+  intros L Lb U E x r U' E' enb envs K CL HL base Efin Hr Ha HFB HL0 HE HF.
   pose proof (rvn_ok _ _ _ _ _ _ _ _ Hr) as [_ HEE].
   assert (HE0 : ENVS E envs) by (eapply ENVS_levs_up_rev; [eapply levs_up_trans; eauto|exact HE]).
   unfold rvn in Hr. rewrite assoc_app in Ha. destruct (assoc enb x) as [c0|] eqn:Eb; [discriminate|].
-  rewrite (ENVN_lookup_none _ _ _ (LRBN_ENV _ _ _ _ _ _ HL0) Eb) in Hr.
+  pose proof (ENVN_lookup_none _ _ _ (LRBN_ENV _ _ _ _ _ _ HL0) Eb) as En0. rewrite (flags_up_resolve_local _ _ x HFB) in En0. rewrite En0 in Hr.
   destruct (rup cf x U E) as [[[r0 U1] E1]|] eqn:Er; [|discriminate].
   rewrite (rup_global x E envs HE0 _ _ _ _ Er Ha) in Hr. now inversion Hr.
 Qed.
@@ -225,6 +232,14 @@ Proof.
   - lia.
   - eapply UR_mono; eauto.
   - destruct HK as [e ->]. intros x c Hin. rewrite app_length. pose proof (H5 _ _ Hin). lia.
+Qed.
+
+Lemma CTX_flags : forall K CL HL base L L' enb Efin envs Ufin uvec,
+  CTX K CL HL base L enb Efin envs Ufin uvec -> flags_up L L' -> CTX K CL HL base L' enb Efin envs Ufin uvec.
+Proof.
+  intros K CL HL base L L' enb Efin envs Ufin uvec [H1 H2 H3 H4 H5] HF. constructor; auto.
+  - eapply LRBN_flags; eauto.
+  - rewrite (flags_up_length _ _ HF). exact H2.
 Qed.
 
 (* cells that are no variables and existed before are left alone *)
@@ -281,14 +296,14 @@ Lemma sto_push : forall st K HL m m' G O w,
   sto st K HL (cv m') (cn m') G O /\ ~ In (cn m) K /\ FRAMEC m m' K.
 Proof.
   intros st K HL m m' G O w H E1 E2.
-  assert (Hn : ~ In (cn m) K) by (intro Hin; pose proof (stn_lt _ _ _ _ _ _ _ _ _ H _ Hin); lia).
+  assert (Hn : ~ In (cn m) K) by (intro Hin; pose proof (stn_lt _ _ _ _ _ _ _ _ _ _ H _ Hin); lia).
   split; [|split; [exact Hn|]].
   - rewrite E1, E2. apply STON_temp with (cnx := cn m); auto.
   - intros j Hj _. rewrite E1. apply upd_other. lia.
 Qed.
 
 Lemma sto_K_lt : forall st K HL m G O k, sto st K HL (cv m) (cn m) G O -> In k K -> k < cn m.
-Proof. intros st K HL m G O k H. apply (stn_lt _ _ _ _ _ _ _ _ _ H). Qed.
+Proof. intros st K HL m G O k H. apply (stn_lt _ _ _ _ _ _ _ _ _ _ H). Qed.
 
 Lemma notin_HL_fresh : forall m fn uvec pc base frs CL HL G O c, MS2 m fn uvec pc base frs CL HL G O -> cn m <= c -> ~ In c HL.
 Proof.
@@ -324,8 +339,8 @@ Qed.
 Definition E_goal (fuel : nat) : Prop := forall e enb envs st st' v,
   eval_expr fuel e (enb ++ List.concat envs)%list st = (st', ROk v) -> expr2 e = true ->
   forall L U E ce U' E', nexpr cf L e U E = Some (ce, U', E') ->
-  forall Ufin Efin uvec K CL HL base, (exists ext, Ufin = (U' ++ ext)%list) -> levs_up E' Efin ->
-  CTX K CL HL base L enb Efin envs Ufin uvec ->
+  forall Lb Ufin Efin uvec K CL HL base, flags_up L Lb -> (exists ext, Ufin = (U' ++ ext)%list) -> levs_up E' Efin ->
+  CTX K CL HL base Lb enb Efin envs Ufin uvec ->
   forall m fn frs G O pre post, code_of funs fn = (pre ++ ce ++ post)%list ->
   MS2 m fn uvec (code_size pre) base frs CL HL G O -> sto st K HL (cv m) (cn m) G O ->
   exists n m' K' HL' cnew G' O', steps cf funs n m m' /\
@@ -370,16 +385,65 @@ Qed.
 Lemma EXT2_len : forall d L en L' en', EXT2 d L en L' en' -> List.length L <= List.length L'.
 Proof. intros d L en L' en' (N & Ne & L0 & -> & F & _ & _ & D). rewrite app_length, (flags_up_length _ _ F). lia. Qed.
 
-(* statements, in any frame: `infun` = inside a function body (a caller frame exists), `top` = depth 0 of the script *)
-Definition RES (fuel : nat) (infun : bool) (lo : nat) (d : nat) (L : list local) (enb : env) (envs : list env)
+(* the flags against which the frame relation is kept: the static is_captured flags OR-ed with what was already captured
+   at run time when the construct was entered (in a loop the run-time captures of an earlier iteration are ahead of the
+   compiler's flags at the start of the body; for a local declared since, the two coincide) *)
+Fixpoint orf (L M : list local) : list local :=
+  match L, M with
+  | l :: L', m :: M' => mkLocal (l_name m) (l_depth m) (l_capt l || l_capt m) :: orf L' M'
+  | _, _ => M
+  end.
+
+(* after a statement that took the static locals from L to L': the new locals with their static flags, the old ones
+   with the raised flags *)
+Definition mrg (L L' M : list local) : list local :=
+  (firstn (List.length L' - List.length L) L' ++ orf (skipn (List.length L' - List.length L) L') M)%list.
+
+(* break / continue: the locals (and their environment entries) that survive are those not deeper than the loop *)
+Fixpoint cutL (dl : nat) (L : list local) : list local :=
+  match L with
+  | [] => []
+  | l :: r => match l_depth l with Some dd => if dl <? dd then cutL dl r else L | None => L end
+  end.
+
+Fixpoint cutE (dl : nat) (L : list local) (en : env) : env :=
+  match L with
+  | [] => en
+  | l :: r => match l_depth l with
+              | Some dd => if dl <? dd then cutE dl r (match l_name l with Some _ => tl en | None => en end) else en
+              | None => en
+              end
+  end.
+
+(* for the locals deeper than the innermost loop (declared in the current iteration) the flags against which the frame
+   relation is kept are exactly the static ones: break / continue choose Pop / CloseUpvalue from those *)
+Definition TIGHT (dl : nat) (L Lm : list local) : Prop :=
+  firstn (List.length (scope_end_ops L dl)) Lm = firstn (List.length (scope_end_ops L dl)) L.
+
+Definition goodl (lc : option lctx) (c : ctl) : Prop := good c \/ (lc <> None /\ (c = CBreak \/ c = CCont)).
+
+(* the statement lies inside the body of the loop lc *)
+Definition LCOK (lc : option lctx) (d : nat) (L Lm : list local) (pcs pce : nat) : Prop :=
+  forall l, lc = Some l -> lc_depth l < d /\ lc_start l <= pcs /\ pce <= lc_exit l /\ TIGHT (lc_depth l) L Lm.
+
+(* statements, in any frame: `infun` = inside a function body (a caller frame exists), `top` = depth 0 of the script.
+   The frame relation LRBN is kept against a list Lm whose is_captured flags are those of the static locals OR-ed with what
+   was captured when the construct was entered (orf / mrg above). *)
+Definition RES (infun : bool) (lo : nat) (d : nat) (L : list local) (enb : env) (envs : list env)
     (K CL HL : list nat) (base : nat) (m : cmach) (fn : nat) (uvec : list nat) (pc' : nat) (frs : list frame)
-    (st' : sst) (en' : env) (ctl : ctl) (L' : list local) : Prop :=
+    (st' : sst) (en' : env) (ctl : ctl) (L' Lb' : list local) (lc : option lctx) : Prop :=
   exists n m' K' HL' G' O', steps cf funs n m m' /\ sto st' K' HL' (cv m') (cn m') G' O' /\ KEXT K K' (cn m) (cn m') /\
     HEXT HL HL' lo /\ FRAMEC m m' K /\ cn m <= cn m' /\
     match ctl with
+    | CBreak => exists l, lc = Some l /\
+                  MS2 m' fn uvec (lc_exit l) base frs (firstn (base + List.length (cutL (lc_depth l) L)) CL) HL' G' O' /\
+                  LRBN K' (firstn (base + List.length (cutL (lc_depth l) L)) CL) HL' base (cutL (lc_depth l) Lb') (cutE (lc_depth l) L enb)
+    | CCont => exists l, lc = Some l /\
+                  MS2 m' fn uvec (lc_start l) base frs (firstn (base + List.length (cutL (lc_depth l) L)) CL) HL' G' O' /\
+                  LRBN K' (firstn (base + List.length (cutL (lc_depth l) L)) CL) HL' base (cutL (lc_depth l) Lb') (cutE (lc_depth l) L enb)
     | CNorm => exists CL' enb', en' = (enb' ++ List.concat envs)%list /\
                  MS2 m' fn uvec pc' base frs CL' HL' G' O' /\
-                 LRBN K' CL' HL' base L' enb' /\ List.length CL' = base + List.length L' /\
+                 LRBN K' CL' HL' base Lb' enb' /\ List.length CL' = base + List.length L' /\
                  firstn (base + List.length L) CL' = firstn (base + List.length L) CL /\ FLO lo base CL' /\
                  EXT2 d L enb L' enb' /\ (d = 0 -> enb' = enb)
     | CRet v => exists fn0 ups0 pc0 base0 frs' cres, frs = mkFrame fn0 ups0 pc0 base0 :: frs' /\
@@ -388,30 +452,110 @@ Definition RES (fuel : nat) (infun : bool) (lo : nat) (d : nat) (L : list local)
     | _ => False
     end.
 
-Definition S_goal (fuel : nat) : Prop := forall s infun top enb envs st st' en' ctl,
-  exec_stmt fuel s (enb ++ List.concat envs)%list top st = (st', en', ctl) -> good ctl -> stmt5 infun top s = true ->
-  forall L d U E fs code L' U' E' fs', nstmt cf s L d U E fs = Some (code, L', U', E', fs') ->
+Definition S_goal (fuel : nat) : Prop := forall s infun top inloop enb envs st st' en' ctl,
+  exec_stmt fuel s (enb ++ List.concat envs)%list top st = (st', en', ctl) -> stmt6 jumps infun top inloop s = true ->
+  forall L d U E fs pos lc code L' U' E' fs', nstmt cf s L d U E fs pos lc = Some (code, L', U', E', fs') -> goodl lc ctl ->
   top = (d =? 0) -> depth_le d L -> (d = 0 -> enb = [] /\ envs = []) -> stack_ok U E ->
   (exists ext, funs = (fs' ++ ext)%list) ->
-  forall Ufin Efin uvec K CL HL base, (exists ext, Ufin = (U' ++ ext)%list) -> levs_up E' Efin ->
-  CTX K CL HL base L enb Efin envs Ufin uvec -> List.length CL = base + List.length L ->
-  forall m fn frs G O pre post lo, code_of funs fn = (pre ++ code ++ post)%list ->
+  forall Lm Ufin Efin uvec K CL HL base, flags_up L Lm -> (exists ext, Ufin = (U' ++ ext)%list) -> levs_up E' Efin ->
+  CTX K CL HL base Lm enb Efin envs Ufin uvec -> List.length CL = base + List.length L ->
+  forall m fn frs G O pre post lo, code_of funs fn = (pre ++ code ++ post)%list -> pos = code_size pre ->
+  LCOK lc d L Lm (code_size pre) (code_size pre + code_size code) ->
   (infun = true -> frs <> []) -> lo <= cn m -> FLO lo base CL ->
   MS2 m fn uvec (code_size pre) base frs CL HL G O -> sto st K HL (cv m) (cn m) G O ->
-  RES fuel infun lo d L enb envs K CL HL base m fn uvec (code_size pre + code_size code) frs st' en' ctl L'.
+  RES infun lo d L enb envs K CL HL base m fn uvec (code_size pre + code_size code) frs st' en' ctl L' (mrg L L' Lm) lc.
 
-Definition L_goal (fuel : nat) : Prop := forall ss infun top enb envs st st' en' ctl,
-  exec_list fuel ss (enb ++ List.concat envs)%list top st = (st', en', ctl) -> good ctl -> forallb (stmt5 infun top) ss = true ->
-  forall L d U E fs code L' U' E' fs', nlist cf ss d L U E fs = Some (code, L', U', E', fs') ->
+Definition L_goal (fuel : nat) : Prop := forall ss infun top inloop enb envs st st' en' ctl,
+  exec_list fuel ss (enb ++ List.concat envs)%list top st = (st', en', ctl) -> forallb (stmt6 jumps infun top inloop) ss = true ->
+  forall L d U E fs pos lc code L' U' E' fs', nlist cf ss d L U E fs pos lc = Some (code, L', U', E', fs') -> goodl lc ctl ->
   top = (d =? 0) -> depth_le d L -> (d = 0 -> enb = [] /\ envs = []) -> stack_ok U E ->
   (exists ext, funs = (fs' ++ ext)%list) ->
-  forall Ufin Efin uvec K CL HL base, (exists ext, Ufin = (U' ++ ext)%list) -> levs_up E' Efin ->
-  CTX K CL HL base L enb Efin envs Ufin uvec -> List.length CL = base + List.length L ->
-  forall m fn frs G O pre post lo, code_of funs fn = (pre ++ code ++ post)%list ->
+  forall Lm Ufin Efin uvec K CL HL base, flags_up L Lm -> (exists ext, Ufin = (U' ++ ext)%list) -> levs_up E' Efin ->
+  CTX K CL HL base Lm enb Efin envs Ufin uvec -> List.length CL = base + List.length L ->
+  forall m fn frs G O pre post lo, code_of funs fn = (pre ++ code ++ post)%list -> pos = code_size pre ->
+  LCOK lc d L Lm (code_size pre) (code_size pre + code_size code) ->
   (infun = true -> frs <> []) -> lo <= cn m -> FLO lo base CL ->
   MS2 m fn uvec (code_size pre) base frs CL HL G O -> sto st K HL (cv m) (cn m) G O ->
-  RES fuel infun lo d L enb envs K CL HL base m fn uvec (code_size pre + code_size code) frs st' en' ctl L'.
+  RES infun lo d L enb envs K CL HL base m fn uvec (code_size pre + code_size code) frs st' en' ctl L' (mrg L L' Lm) lc.
 
+(* ---- merged flag lists ---- *)
+Lemma orf_up : forall L M, flags_up L M -> orf L M = M.
+Proof.
+  intros L M H. induction H as [|l m L M (E1 & E2 & E3) H IH]; [reflexivity|]. cbn [orf]. rewrite IH. destruct m as [n d b]. cbn in *.
+  f_equal. f_equal. destruct (l_capt l); [now rewrite E3|reflexivity].
+Qed.
+
+Lemma flags_up_orf_r : forall L M, List.length L = List.length M -> flags_up M (orf L M).
+Proof.
+  induction L as [|l L IH]; intros [|m M] Hl; try discriminate; cbn [orf]; [constructor|].
+  constructor; [cbn; repeat split; auto; intros ->; apply orb_true_r|]. apply IH. cbn in Hl. lia.
+Qed.
+
+Lemma flags_up_orf_l : forall L M, flags_up L M -> forall L1, flags_up L L1 -> flags_up L1 (orf L1 M).
+Proof.
+  intros L M H. induction H as [|l m L M (E1 & E2 & E3) H IH]; intros L1 H1; inversion H1 as [|? l1 ? L1' (F1 & F2 & F3) H1']; subst; cbn [orf]; constructor.
+  - cbn. repeat split; [congruence|congruence|intros ->; reflexivity].
+  - now apply IH.
+Qed.
+
+Lemma orf_orf : forall L1 L2 M, flags_up L1 L2 -> orf L2 (orf L1 M) = orf L2 M.
+Proof.
+  intros L1 L2 M H. revert M. induction H as [|l1 l2 L1 L2 (E1 & E2 & E3) H IH]; intros M; [destruct M; reflexivity|].
+  destruct M as [|m M]; [reflexivity|]. cbn [orf l_name l_depth l_capt]. rewrite IH. f_equal. f_equal.
+  destruct (l_capt l1); [rewrite (E3 eq_refl); reflexivity|reflexivity].
+Qed.
+
+Lemma orf_mono : forall L1 L2 M, flags_up L1 L2 -> flags_up (orf L1 M) (orf L2 M).
+Proof.
+  intros L1 L2 M H. revert M. induction H as [|l1 l2 L1 L2 (E1 & E2 & E3) H IH]; intros M; [destruct M; apply flags_up_refl|].
+  destruct M as [|m M]; [constructor|]. cbn [orf]. constructor; [|apply IH].
+  cbn. repeat split; auto. intros Hc. apply orb_true_iff in Hc as [Hc|Hc]; [rewrite (E3 Hc); reflexivity|rewrite Hc; apply orb_true_r].
+Qed.
+
+Lemma orf_length : forall L M, List.length (orf L M) = List.length M.
+Proof. induction L as [|l L IH]; intros [|m M]; cbn; auto. Qed.
+
+Lemma mrg_lext : forall L N L0 M, List.length L0 = List.length L -> mrg L (N ++ L0) M = (N ++ orf L0 M)%list.
+Proof.
+  intros L N L0 M Hl. unfold mrg. rewrite app_length, Hl. replace (List.length N + List.length L - List.length L) with (List.length N) by lia.
+  rewrite firstn_app, Nat.sub_diag, firstn_all, skipn_app_len. cbn. now rewrite app_nil_r.
+Qed.
+
+Lemma mrg_cons : forall L l L0 M, List.length L0 = List.length L -> mrg L (l :: L0) M = l :: orf L0 M.
+Proof. intros L l L0 M Hl. exact (mrg_lext L [l] L0 M Hl). Qed.
+
+Lemma mrg_same_len : forall L L' M, List.length L' = List.length L -> mrg L L' M = orf L' M.
+Proof. intros L L' M Hl. unfold mrg. rewrite Hl, Nat.sub_diag. reflexivity. Qed.
+
+Lemma mrg_same : forall L M, flags_up L M -> mrg L L M = M.
+Proof. intros L M H. rewrite mrg_same_len by reflexivity. now apply orf_up. Qed.
+
+Lemma mrg_flags : forall d L L' M, lext d L L' -> flags_up L M -> flags_up L' (mrg L L' M).
+Proof.
+  intros d L L' M (N & L0 & -> & F & _) H. rewrite mrg_lext by (apply (flags_up_length _ _ F)).
+  apply flags_up_app; [apply flags_up_refl|]. eapply flags_up_orf_l; eauto.
+Qed.
+
+Lemma mrg_old : forall d L L' M, lext d L L' -> flags_up L M -> flags_up M (skipn (List.length L' - List.length L) (mrg L L' M)).
+Proof.
+  intros d L L' M (N & L0 & -> & F & _) H. rewrite mrg_lext by (apply (flags_up_length _ _ F)).
+  rewrite app_length, (flags_up_length _ _ F). replace (List.length N + List.length L - List.length L) with (List.length N) by lia.
+  rewrite skipn_app_len. apply flags_up_orf_r. rewrite (flags_up_length _ _ F), <- (flags_up_length _ _ H). reflexivity.
+Qed.
+
+Lemma mrg_trans : forall d L L1 L2 M, lext d L L1 -> lext d L1 L2 -> flags_up L M -> mrg L1 L2 (mrg L L1 M) = mrg L L2 M.
+Proof.
+  intros d L L1 L2 M (N1 & L01 & -> & F1 & _) (N2 & L02 & -> & F2 & _) H.
+  destruct (flags_up_app_inv _ _ _ F2) as (N1' & L01' & -> & FN & FL).
+  pose proof (flags_up_length _ _ F1) as H1. pose proof (flags_up_length _ _ FN) as H2. pose proof (flags_up_length _ _ FL) as H3.
+  rewrite (mrg_lext L N1 L01 M H1).
+  rewrite (mrg_lext (N1 ++ L01) N2 (N1' ++ L01')) by (rewrite !app_length; lia).
+  rewrite app_assoc, (mrg_lext L (N2 ++ N1') L01' M) by lia. rewrite <- app_assoc. f_equal.
+  (* orf (N1' ++ L01') (N1 ++ orf L01 M) = N1' ++ orf L01' M *)
+  clear -FN FL. revert N1' FN. induction N1 as [|a N1 IH]; intros N1' FN; inversion FN as [|? b ? N1'' (E1 & E2 & E3) FN']; subst; cbn [app orf].
+  - now apply orf_orf.
+  - rewrite IH by exact FN'. f_equal. destruct b as [nb db bb]. cbn in *. subst. f_equal. destruct (l_capt a) eqn:Ea; [rewrite (E3 eq_refl); reflexivity|now rewrite orb_false_r].
+Qed.
 
 (* ------------------------------------------------------------------------------------------ *)
 (* expressions *)
@@ -499,8 +643,8 @@ Qed.
 Lemma args_sim : forall fu, E_goal fu -> forall args enb envs st st' vs,
   eargs fu args (enb ++ List.concat envs)%list st = (st', ROk vs) -> forallb expr2 args = true ->
   forall L U E cargs U' E', nargs cf L args U E = Some (cargs, U', E') ->
-  forall Ufin Efin uvec K CL HL base, (exists ext, Ufin = (U' ++ ext)%list) -> levs_up E' Efin ->
-  CTX K CL HL base L enb Efin envs Ufin uvec ->
+  forall Lb Ufin Efin uvec K CL HL base, flags_up L Lb -> (exists ext, Ufin = (U' ++ ext)%list) -> levs_up E' Efin ->
+  CTX K CL HL base Lb enb Efin envs Ufin uvec ->
   forall m fn frs G O pre post, code_of funs fn = (pre ++ cargs ++ post)%list ->
   MS2 m fn uvec (code_size pre) base frs CL HL G O -> sto st K HL (cv m) (cn m) G O ->
   exists n m' K' HL' cs G' O', steps cf funs n m m' /\
@@ -510,7 +654,7 @@ Lemma args_sim : forall fu, E_goal fu -> forall args enb envs st st' vs,
     (forall c, In c cs -> cn m <= c < cn m' /\ ~ In c K' /\ ~ In c HL') /\ FRAMEC m m' K /\ cn m <= cn m' /\
     List.length vs = List.length args.
 Proof.
-  intros fu IHE args. induction args as [|a r IH]; intros enb envs st st' vs He Hf L U E cargs U' E' Hc Ufin Efin uvec K CL HL base HU HF HC
+  intros fu IHE args. induction args as [|a r IH]; intros enb envs st st' vs He Hf L U E cargs U' E' Hc Lb Ufin Efin uvec K CL HL base HFB HU HF HC
                                                        m fn frs G O pre post Hcode HM HS.
   - cbn in He, Hc. inversion He; inversion Hc; subst. exists 0, m, K, HL, [], G, O. cbn [code_size]. rewrite Nat.add_0_r, app_nil_r.
     split; [reflexivity|]. split; [exact HM|]. split; [exact HS|]. split; [apply KEXT_refl|]. split; [apply HEXT_refl|]. split; [constructor|].
@@ -523,16 +667,16 @@ Proof.
     destruct (nargs cf L r U1 E1) as [[[cr U2] E2]|] eqn:Ecr; [|discriminate]. inversion Hc; subst cargs U' E'. clear Hc.
     destruct (nargs_ok cf r Hfr _ _ _ _ _ _ Ecr) as [[ext2 ->] HF2].
     destruct HU as [ext ->].
-    destruct (IHE a enb envs st st1 v Ea Hfa L U E ca U1 E1 Eca ((U1 ++ ext2) ++ ext)%list Efin uvec K CL HL base
+    destruct (IHE a enb envs st st1 v Ea Hfa L U E ca U1 E1 Eca Lb ((U1 ++ ext2) ++ ext)%list Efin uvec K CL HL base HFB
                 ltac:(exists (ext2 ++ ext)%list; now rewrite app_assoc) ltac:(eapply levs_up_trans; eauto) HC
                 m fn frs G O pre (cr ++ post)%list)
       as (n1 & m1 & K1 & HL1 & c1 & G1 & O1 & S1 & M1 & ST1 & KX1 & HX1 & R1 & B1 & N1 & NH1 & F1).
     { rewrite Hcode. now rewrite <- app_assoc. }
     { exact HM. }
     { exact HS. }
-    assert (HC1 : CTX K1 (CL ++ [c1]) HL1 base L enb Efin envs ((U1 ++ ext2) ++ ext)%list uvec) by (eapply CTX_after; eauto).
-    destruct (IH enb envs st1 st2 vs' Er Hfr L U1 E1 cr (U1 ++ ext2)%list E2 Ecr ((U1 ++ ext2) ++ ext)%list Efin uvec K1 (CL ++ [c1])%list HL1 base
-                ltac:(eauto) HF HC1 m1 fn frs G1 O1 (pre ++ ca)%list post)
+    assert (HC1 : CTX K1 (CL ++ [c1]) HL1 base Lb enb Efin envs ((U1 ++ ext2) ++ ext)%list uvec) by (eapply CTX_after; eauto).
+    destruct (IH enb envs st1 st2 vs' Er Hfr L U1 E1 cr (U1 ++ ext2)%list E2 Ecr Lb ((U1 ++ ext2) ++ ext)%list Efin uvec K1 (CL ++ [c1])%list HL1 base
+                HFB ltac:(eauto) HF HC1 m1 fn frs G1 O1 (pre ++ ca)%list post)
       as (n2 & m2 & K2 & HL2 & cs & G2 & O2 & S2 & M2 & ST2 & KX2 & HX2 & R2 & B2 & F2 & Hcn2 & Hl2).
     { rewrite Hcode. now rewrite <- !app_assoc. }
     { rewrite code_size_app. exact M1. }
@@ -571,7 +715,7 @@ Proof.
     cbn [bparams] in Hbp. destruct (dup_in_scope L p 1); [discriminate|]. destruct (List.length L =? c_locals_max cf); [discriminate|].
     cbn [bind_params] in Hbd. unfold new_cell in Hbd.
     destruct (Hfresh c (or_introl eq_refl)) as (Hc1 & Hc2 & Hc3). inversion Hnd as [|? ? Hnc Hnd']; subst.
-    pose proof (stn_len _ _ _ _ _ _ _ _ _ HS) as HlenK.
+    pose proof (stn_len _ _ _ _ _ _ _ _ _ _ HS) as HlenK.
     assert (HK1 : exists e, (K ++ [c])%list = (K ++ e)%list) by eauto.
     assert (HH0 : exists e, HL = (HL ++ e)%list) by (exists []; now rewrite app_nil_r).
     assert (HS1 : sto (fst (new_cell st v)) (K ++ [c]) HL cvf cnx G O).
@@ -597,7 +741,7 @@ Qed.
 
 Lemma E_step : forall fu, E_goal fu -> L_goal fu -> E_goal (S fu).
 Proof.
-  intros fu IHE IHB e enb envs st st' v He Hf L U E ce U' E' Hc Ufin Efin uvec K CL HL base HU HF HC m fn frs G O pre post Hcode HM HS.
+  intros fu IHE IHB e enb envs st st' v He Hf L U E ce U' E' Hc Lb Ufin Efin uvec K CL HL base HFB HU HF HC m fn frs G O pre post Hcode HM HS.
   destruct e as [n|x|a b|f args| |vv k args]; cbn in Hf; try discriminate.
   - (* ELit *)
     cbn in He, Hc. inversion He; inversion Hc; subst.
@@ -613,19 +757,19 @@ Proof.
     assert (HnH : ~ In (cn m) HL) by (apply (notin_HL_fresh _ _ _ _ _ _ _ _ _ _ (cn m) HM); lia).
     unfold read_var in He. destruct (assoc (enb ++ List.concat envs)%list x) as [c|] eqn:Ea.
     + inversion He; subst st' v. clear He.
-      pose proof (resolve_cell _ _ _ _ _ _ _ _ _ _ _ _ _ _ _ _ _ Er Ea (cx_lrb _ _ _ _ _ _ _ _ _ _ HC) (cx_len _ _ _ _ _ _ _ _ _ _ HC)
+      pose proof (resolve_cell _ _ _ _ _ _ _ _ _ _ _ _ _ _ _ _ _ _ Er Ea HFB (cx_lrb _ _ _ _ _ _ _ _ _ _ HC) (cx_len _ _ _ _ _ _ _ _ _ _ HC)
                     (cx_envs _ _ _ _ _ _ _ _ _ _ HC) HF HU (cx_ur _ _ _ _ _ _ _ _ _ _ HC)) as Hw.
       destruct (exec_get _ _ _ _ _ _ _ x _ _ _ _ _ _ Hw HM Hfe) as (m' & A & B & C & D).
       destruct (sto_push _ _ _ _ _ _ _ _ HS C D) as (S1 & S2 & S3).
       assert (Hck : c < List.length K) by (destruct Hw; assumption).
       exists 1, m', K, HL, (cn m), G, O. split; [now apply steps_one|]. split; [cbn [code_size]; rewrite Nat.add_0_r; exact B|].
       split; [exact S1|]. split; [apply KEXT_refl|]. split; [apply HEXT_refl|].
-      split. { rewrite C, upd_same. apply (stn_val _ _ _ _ _ _ _ _ _ HS c Hck). }
+      split. { rewrite C, upd_same. apply (stn_val _ _ _ _ _ _ _ _ _ _ HS c Hck). }
       split; [lia|]. split; [exact S2|]. split; [exact HnH|exact S3].
     + destruct (assoc (s_globals st) x) as [gv|] eqn:Eg; [|discriminate]. inversion He; subst st' v. clear He.
-      pose proof (resolve_global _ _ _ _ _ _ _ _ _ _ _ _ _ _ Er Ea (cx_lrb _ _ _ _ _ _ _ _ _ _ HC) (cx_envs _ _ _ _ _ _ _ _ _ _ HC) HF) as ->.
+      pose proof (resolve_global _ _ _ _ _ _ _ _ _ _ _ _ _ _ _ Er Ea HFB (cx_lrb _ _ _ _ _ _ _ _ _ _ HC) (cx_envs _ _ _ _ _ _ _ _ _ _ HC) HF) as ->.
       cbn [get_op] in *.
-      destruct (GRN_assoc _ _ _ _ _ _ _ _ (stn_g _ _ _ _ _ _ _ _ _ HS) Eg) as (w & Eg' & Rw).
+      destruct (GRN_assoc _ _ _ _ _ _ _ _ _ (stn_g _ _ _ _ _ _ _ _ _ _ HS) Eg) as (w & Eg' & Rw).
       destruct (step2_getglobal cf funs _ _ _ _ _ _ _ _ _ _ _ _ HM Hfe Eg') as (m' & A & B & C & D).
       destruct (sto_push _ _ _ _ _ _ _ _ HS C D) as (S1 & S2 & S3).
       exists 1, m', K, HL, (cn m), G, O. split; [now apply steps_one|]. split; [cbn [code_size isize]; rewrite Nat.add_0_r; exact B|].
@@ -642,22 +786,22 @@ Proof.
     destruct (nexpr cf L b U1 E1) as [[[cb U2] E2]|] eqn:Ecb; [|discriminate]. inversion Hc; subst ce U' E'. clear Hc.
     destruct (nexpr_ok cf b Hfb _ _ _ _ _ _ Ecb) as [[ext2 ->] HF2].
     destruct HU as [ext ->].
-    destruct (IHE a enb envs st st1 (SVInt x) Ea Hfa L U E ca U1 E1 Eca ((U1 ++ ext2) ++ ext)%list Efin uvec K CL HL base
+    destruct (IHE a enb envs st st1 (SVInt x) Ea Hfa L U E ca U1 E1 Eca Lb ((U1 ++ ext2) ++ ext)%list Efin uvec K CL HL base HFB
                 ltac:(exists (ext2 ++ ext)%list; now rewrite app_assoc) ltac:(eapply levs_up_trans; eauto) HC
                 m fn frs G O pre ((cb ++ [IAdd]) ++ post)%list)
       as (n1 & m1 & K1 & HL1 & c1 & G1 & O1 & S1 & M1 & ST1 & KX1 & HX1 & R1 & B1 & N1 & NH1 & F1).
     { rewrite Hcode. now rewrite <- !app_assoc. }
     { exact HM. }
     { exact HS. }
-    inversion R1 as [z Hz1 Hz2| |]; subst z.
-    assert (HC1 : CTX K1 (CL ++ [c1]) HL1 base L enb Efin envs ((U1 ++ ext2) ++ ext)%list uvec) by (eapply CTX_after; eauto).
-    destruct (IHE b enb envs st1 st2 (SVInt y) Eb Hfb L U1 E1 cb (U1 ++ ext2)%list E2 Ecb ((U1 ++ ext2) ++ ext)%list Efin uvec K1 (CL ++ [c1])%list HL1 base
-                ltac:(eauto) HF HC1 m1 fn frs G1 O1 (pre ++ ca)%list ([IAdd] ++ post)%list)
+    inversion R1 as [z Hz1 Hz2| | |]; subst z.
+    assert (HC1 : CTX K1 (CL ++ [c1]) HL1 base Lb enb Efin envs ((U1 ++ ext2) ++ ext)%list uvec) by (eapply CTX_after; eauto).
+    destruct (IHE b enb envs st1 st2 (SVInt y) Eb Hfb L U1 E1 cb (U1 ++ ext2)%list E2 Ecb Lb ((U1 ++ ext2) ++ ext)%list Efin uvec K1 (CL ++ [c1])%list HL1 base
+                HFB ltac:(eauto) HF HC1 m1 fn frs G1 O1 (pre ++ ca)%list ([IAdd] ++ post)%list)
       as (n2 & m2 & K2 & HL2 & c2 & G2 & O2 & S2 & M2 & ST2 & KX2 & HX2 & R2 & B2 & N2 & NH2 & F2).
     { rewrite Hcode. now rewrite <- !app_assoc. }
     { rewrite code_size_app. exact M1. }
     { exact ST1. }
-    inversion R2 as [z Hz3 Hz4| |]; subst z.
+    inversion R2 as [z Hz3 Hz4| | |]; subst z.
     assert (Hfe : fetch (code_of funs fn) (code_size (pre ++ ca) + code_size cb) = Some IAdd).
     { eapply fetch_mid with (c2 := []) (post := post). rewrite Hcode. now rewrite <- !app_assoc. }
     rewrite <- app_assoc in M2. cbn [app] in M2.
@@ -703,7 +847,7 @@ Proof.
     (* the callee value is pushed: the EVar case at the smaller fuel *)
     assert (Ev : eval_expr (S fu') (EVar f) (enb ++ List.concat envs)%list st = (st, ROk (SVClo ps body cenv'))) by (cbn; now rewrite Erd).
     assert (Ecv : nexpr cf L (EVar f) U E = Some ([get_op r f], U0, E0)) by (cbn; now rewrite Er).
-    destruct (IHE (EVar f) enb envs st st (SVClo ps body cenv') Ev eq_refl L U E [get_op r f] U0 E0 Ecv Ufin Efin uvec K CL HL base
+    destruct (IHE (EVar f) enb envs st st (SVClo ps body cenv') Ev eq_refl L U E [get_op r f] U0 E0 Ecv Lb Ufin Efin uvec K CL HL base HFB
                 ltac:(exists (ext3 ++ ext)%list; unfold Ufin; now rewrite <- !app_assoc) ltac:(eapply levs_up_trans; eauto)
                 HC m fn frs G O pre ((cargs ++ [ICall (List.length args)]) ++ post)%list)
       as (n1 & m1 & K1 & HL1 & c1 & G1 & O1 & S1 & M1 & ST1 & KX1 & HX1 & R1 & B1 & N1 & NH1 & F1).
@@ -711,16 +855,16 @@ Proof.
     { exact HM. }
     { exact HS. }
     (* the arguments *)
-    assert (HC1 : CTX K1 (CL ++ [c1]) HL1 base L enb Efin envs Ufin uvec) by (eapply CTX_after; eauto).
-    destruct (args_sim (S fu') IHE args enb envs st st1 vs Eargs Hf L U0 E0 cargs _ E3 Eba Ufin Efin uvec K1 (CL ++ [c1])%list HL1 base
-                ltac:(exists ext; reflexivity) HF HC1 m1 fn frs G1 O1 (pre ++ [get_op r f])%list ([ICall (List.length args)] ++ post)%list)
+    assert (HC1 : CTX K1 (CL ++ [c1]) HL1 base Lb enb Efin envs Ufin uvec) by (eapply CTX_after; eauto).
+    destruct (args_sim (S fu') IHE args enb envs st st1 vs Eargs Hf L U0 E0 cargs _ E3 Eba Lb Ufin Efin uvec K1 (CL ++ [c1])%list HL1 base
+                HFB ltac:(exists ext; reflexivity) HF HC1 m1 fn frs G1 O1 (pre ++ [get_op r f])%list ([ICall (List.length args)] ++ post)%list)
       as (n2 & m2 & K2 & HL2 & cs & G2 & O2 & S2 & M2 & ST2 & KX2 & HX2 & R2 & B2 & F2 & Hcn2 & Hlvs).
     { rewrite Hcode. cbn. now rewrite <- !app_assoc. }
     { rewrite code_size_app. exact M1. }
     { exact ST1. }
     assert (Hcn1 : cn m <= cn m1) by lia.
     pose proof (Forall2_len _ _ _ _ _ R2) as Hlcs.
-    inversion R1 as [| |ps1 body1 fnc Uv Lp Ein fs0 cb Lb1 Ub Eout fs1 Efc envc Hfrag Ebp Ebl HEin HEout Hfn Hfuns HENVc HURc Hcells Hz1 Hz2]; subst.
+    inversion R1 as [| | |ps1 body1 fnc Uv Lp Ein fs0 cb Lb1 Ub Eout fs1 Efc envc Hfrag Ebp Ebl HEin HEout Hfn Hfuns HENVc HURc Hcells Hz1 Hz2]; subst.
     assert (Hc1v : cv m2 c1 = MClo fnc Uv) by (rewrite F2; [congruence|lia|exact N1]).
     assert (Har : f_arity (nth fnc funs dfunc) = List.length args) by (rewrite (nth_error_nth_d _ _ _ Hfn); cbn; lia).
     assert (Hfe : fetch (code_of funs fn) (code_size (pre ++ [get_op r f]) + code_size cargs) = Some (ICall (List.length args))).
@@ -761,12 +905,12 @@ Proof.
     assert (HFLO : FLO (cn m) (List.length CL) (CL ++ c1 :: cs)).
     { intros i Hi. rewrite app_nth2 by lia. apply Hcsge. apply nth_In. rewrite app_length in Hi. lia. }
     assert (Hsok : stack_ok [] Ein) by (split; [destruct Ein; [exact I|constructor]|exact HEin]).
-    destruct (IHB body true false enb0 envc st2 st3 en3 ctl Ex Hgood Hfrag Lp 1 [] Ein fs0 cb Lb1 Ub Eout fs1 Ebl eq_refl Hd0
-                ltac:(discriminate) Hsok Hfuns Ub Efc Uv (K2 ++ cs)%list (CL ++ c1 :: cs)%list HL2 (List.length CL)
-                ltac:(exists []; now rewrite app_nil_r) HEout HCb
+    destruct (IHB body true false false enb0 envc st2 st3 en3 ctl Ex Hfrag Lp 1 [] Ein fs0 0 None cb Lb1 Ub Eout fs1 Ebl (or_introl Hgood) eq_refl Hd0
+                ltac:(discriminate) Hsok Hfuns Lp Ub Efc Uv (K2 ++ cs)%list (CL ++ c1 :: cs)%list HL2 (List.length CL)
+                (flags_up_refl Lp) ltac:(exists []; now rewrite app_nil_r) HEout HCb
                 ltac:(rewrite HlenLb0, app_length; cbn [List.length]; lia)
                 m3 fnc (mkFrame fn uvec (code_size (pre ++ [get_op r f]) + code_size cargs + 2) base :: frs) G2 O2 (@nil instr) [INil; IReturn] (cn m)
-                ltac:(rewrite Hcode_c; reflexivity) ltac:(discriminate) ltac:(lia) HFLO B3 ST4)
+                ltac:(rewrite Hcode_c; reflexivity) eq_refl ltac:(intros l0 El0; discriminate) ltac:(discriminate) ltac:(lia) HFLO B3 ST4)
       as (n4 & m4 & K4 & HL4 & G4 & O4 & S4 & ST5 & KX4 & HX4 & F4 & Hcn4 & Hres).
     assert (Hfirst : firstn (List.length CL) (CL ++ c1 :: cs) = CL).
     { rewrite firstn_app, Nat.sub_diag, firstn_all. cbn. now rewrite app_nil_r. }
@@ -891,11 +1035,21 @@ Qed.
 
 Definition swapd (U : ups_t) : list (bool * nat) := map (fun u : nat * bool => (snd u, fst u)) U.
 
-Lemma mk_closure_n : forall K1 CL HL base L1 enb1 U E fs ps b Lp cb Lb' Ub lv E' fs1 Ufin Efin envs uvec m fn pc frs G O lo,
-  LRBN K1 (CL ++ [cn m]) HL base L1 enb1 -> base + List.length L1 <= List.length (CL ++ [cn m]) ->
-  forallb (stmt5 true false) b = true ->
+Lemma flags_up_rev_nth : forall L L' s l, flags_up L L' -> nth_error (rev L) s = Some l ->
+  exists l', nth_error (rev L') s = Some l' /\ l_name l' = l_name l /\ l_depth l' = l_depth l /\ (l_capt l = true -> l_capt l' = true).
+Proof.
+  intros L L' s l HF Hn. destruct (Forall2_nth_error_loc _ _ _ _ _ _ _ (Forall2_rev_loc _ _ _ _ _ HF) Hn) as (l' & Hn' & (E1 & E2 & E3)).
+  exists l'. repeat split; auto.
+Qed.
+
+(* L1 = the static locals of the running function when the closure is created (its own local included for a local
+   `fn`), Lb1 = the list bounding their flags from above, in which the frame relation is kept *)
+Lemma mk_closure_n : forall K1 CL HL base L1 Lb1 enb1 U E fs ps b Lp cb Lb' Ub lv E' fs1 Ufin Efin envs uvec m fn pc frs G O lo,
+  LRBN K1 (CL ++ [cn m]) HL base Lb1 enb1 -> base + List.length L1 <= List.length (CL ++ [cn m]) ->
+  forallb (stmt6 jumps true false false) b = true ->
   bparams cf ps [mkLocal None (Some 0) false] = Some Lp ->
-  nlist cf b 1 Lp [] (mkLev L1 U :: E) fs = Some (cb, Lb', Ub, lv :: E', fs1) ->
+  nlist cf b 1 Lp [] (mkLev L1 U :: E) fs 0 None = Some (cb, Lb', Ub, lv :: E', fs1) ->
+  flags_up (lv_locals lv) Lb1 ->
   stack_ok U E -> levs_up E' Efin -> (exists ext, Ufin = (lv_ups lv ++ ext)%list) ->
   ENVS Efin envs -> UR K1 HL Efin envs Ufin uvec -> (forall x c, In (x, c) (List.concat envs) -> c < List.length K1) ->
   nth_error funs (List.length fs1) = Some (mkFunc (cb ++ [INil; IReturn]) (List.length ps) (List.length Ub)) ->
@@ -908,22 +1062,24 @@ Lemma mk_closure_n : forall K1 CL HL base L1 enb1 U E fs ps b Lp cb Lb' Ub lv E'
     HEXT HL HL' lo /\
     (forall h, In h HL' -> In h HL \/ exists s, s < List.length L1 /\ h = nth (base + s) (CL ++ [cn m]) 0) /\
     vrel K1 HL' (SVClo ps b (enb1 ++ List.concat envs)%list) (MClo (List.length fs1) Uv) /\
-    LRBN K1 (CL ++ [cn m]) HL' base (lv_locals lv) enb1.
+    LRBN K1 (CL ++ [cn m]) HL' base Lb1 enb1.
 Proof.
-  intros K1 CL HL base L1 enb1 U E fs ps b Lp cb Lb' Ub lv E' fs1 Ufin Efin envs uvec m fn pc frs G O lo
-         HLR Hlen Hb Ebp Ebl Hsok HF HU HENV HUR Hcells Hfn Hfuns HM Hf HFLO.
+  intros K1 CL HL base L1 Lb1 enb1 U E fs ps b Lp cb Lb' Ub lv E' fs1 Ufin Efin envs uvec m fn pc frs G O lo
+         HLR Hlen Hb Ebp Ebl HFB Hsok HF HU HENV HUR Hcells Hfn Hfuns HM Hf HFLO.
   set (CLp := (CL ++ [cn m])%list) in *.
   pose proof (m2_s _ _ _ _ _ _ _ _ _ _ HM) as SK.
   assert (HnCL : ~ In (cn m) CL) by (intro Hin; pose proof (s2_cl_lt _ _ _ SK _ Hin); unfold cn in *; lia).
   assert (HndCLp : NoDup CLp) by (apply NoDup_snocN; [exact (s2_cl_nd _ _ _ SK)|exact HnCL]).
-  pose proof (forallb_stmt5_stmt5u _ _ _ Hb) as Hbu.
+  pose proof (forallb_stmt6_stmt6u _ _ _ _ _ Hb) as Hbu.
   destruct (bparams_depth cf ps Lp Ebp) as [HdLp _].
-  destruct (nlist_ok cf b Hbu _ _ _ _ _ _ _ _ _ _ Ebl HdLp) as ((_ & HFl) & _ & _).
+  destruct (nlist_ok cf b Hbu _ _ _ _ _ _ _ _ _ _ _ _ Ebl HdLp) as ((_ & HFl) & _ & _).
   inversion HFl as [|? ? ? ? [Hflags _] _]; subst. cbn [lv_locals] in Hflags.
   assert (Hso : stack_ok Ub (lv :: E')).
   { eapply (nlist_stack_ok cf b Hbu); [exact Ebl|]. split; [constructor|exact Hsok]. }
   destruct Hso as [HUok _]. cbn in HUok.
   pose proof (flags_up_length _ _ Hflags) as HlenLv.
+  pose proof (flags_up_length _ _ HFB) as HlenLb.
+  pose proof (ENVN_flags_rev _ _ _ HFB (LRBN_ENV _ _ _ _ _ _ HLR)) as HENVlv.
   set (descs := swapd Ub) in *.
   assert (Hdn : forall j i b0, nth_error Ub j = Some (i, b0) -> nth_error descs j = Some (b0, i)).
   { intros j i b0 Hj. unfold descs, swapd. rewrite nth_error_map, Hj. reflexivity. }
@@ -942,20 +1098,20 @@ Proof.
     unfold descs, swapd in Hi. apply in_map_iff in Hi as ([i' b0] & Eq & Hi). cbn in Eq. inversion Eq; subst b0 i'.
     pose proof (proj1 (Forall_forall _ _) HUok _ Hi) as Hok. unfold up_ok in Hok. cbn [fst snd] in Hok. destruct Hok as (lc & Hn & Hc & _).
     exists i, lc. auto. }
-  assert (HLR' : LRBN K1 CLp HL' base (lv_locals lv) enb1).
-  { apply LRBN_rehl with (HL := HL); [eapply LRBN_flags; eauto|].
+  assert (HLR' : LRBN K1 CLp HL' base Lb1 enb1).
+  { apply LRBN_rehl with (HL := HL); [exact HLR|].
     intros s0 l Hs Hin. destruct (Hnew _ Hin) as [H1|(i & lc & Hn & Hc & Ei)]; [now left|right].
-    assert (Hs' : s0 < List.length (lv_locals lv)) by (rewrite <- rev_length; apply nth_error_Some; congruence).
+    assert (Hs' : s0 < List.length Lb1) by (rewrite <- rev_length; apply nth_error_Some; congruence).
     assert (Hi' : i < List.length (lv_locals lv)) by (rewrite <- rev_length; apply nth_error_Some; congruence).
     assert (base + s0 = base + i). { eapply NoDup_nth with (l := CLp) (d := 0); eauto; lia. }
-    assert (s0 = i) by lia. subst s0. rewrite Hs in Hn. inversion Hn; subst. exact Hc. }
+    assert (s0 = i) by lia. subst s0.
+    destruct (flags_up_rev_nth _ _ _ _ HFB Hn) as (l' & Hn' & _ & _ & Hc'). rewrite Hs in Hn'. inversion Hn'; subst. auto. }
   exists m', HL', Uv. split; [exact A|]. split; [rewrite <- HdescLen; exact B|]. split; [exact C|]. split; [exact D|].
   split.
   { destruct Hext as [ext ->]. exists ext. split; [reflexivity|]. intros k Hk.
     assert (Hin : In k (HL ++ ext)) by (apply in_or_app; now right).
     destruct (Hin' _ Hin) as [H1|(i & Hi & ->)].
-    - exfalso. pose proof Hnd' as Hnd2. apply NoDup_remove_2 with (l := HL) (l' := []) in Hnd2 || idtac.
-      clear Hnd2. revert Hnd' Hk H1. clear. intros Hnd Hk H1. induction HL as [|a r IH]; [destruct H1|].
+    - exfalso. revert Hnd' Hk H1. clear. intros Hnd Hk H1. induction HL as [|a r IH]; [destruct H1|].
       cbn in Hnd. inversion Hnd; subst. destruct H1 as [->|H1]; [apply H2; apply in_or_app; now right|auto].
     - apply HFLO. pose proof (proj1 (Forall_forall _ _) Hdesc (true, i) Hi eq_refl) as Hlt. cbn in Hlt. lia. }
   split.
@@ -964,16 +1120,16 @@ Proof.
   split; [|exact HLR'].
   change (enb1 ++ List.concat envs)%list with (List.concat (enb1 :: envs)).
   destruct HU as [extU HU].
-  apply (VN_clo cf funs K1 HL' ps b (List.length fs1) Uv Lp (mkLev L1 U :: E) fs cb Lb' Ub (lv :: E') fs1 (mkLev (lv_locals lv) Ufin :: Efin) (enb1 :: envs)); auto.
+  apply (VN_clo cf funs jumps K1 HL' ps b (List.length fs1) Uv Lp (mkLev L1 U :: E) fs cb Lb' Ub (lv :: E') fs1 (mkLev (lv_locals lv) Ufin :: Efin) (enb1 :: envs)); auto.
   - constructor; [|exact HF]. split; [apply flags_up_refl|]. cbn. eauto.
-  - constructor; [|exact HENV]. cbn. exact (LRBN_ENV _ _ _ _ _ _ HLR').
+  - constructor; [|exact HENV]. cbn. exact HENVlv.
   - (* UR *)
     intros j Hj. destruct (nth_error Ub j) as [[i b0]|] eqn:EU; [|apply nth_error_None in EU; lia].
     pose proof (proj1 (Forall_forall _ _) HUok _ (nth_error_In _ _ EU)) as Hok. unfold up_ok in Hok. cbn [fst snd] in Hok.
     pose proof (Hidx j b0 i (Hdn _ _ _ EU)) as Hix. destruct b0.
     + destruct Hok as (lc & Hn & Hc & Hd & Hm). destruct Hix as [Hix1 Hix2].
-      destruct (at_slot_named _ _ _ _ (LRBN_ENV _ _ _ _ _ _ HLR') Hn Hm) as (x & c & Has).
-      destruct (LRBN_at _ _ _ _ _ _ _ _ _ HLR' Has) as [E1 E2].
+      destruct (at_slot_named _ _ _ _ HENVlv Hn Hm) as (x & c & Has).
+      destruct (LRBN_at _ _ _ _ _ _ _ _ _ HLR' (at_slot_flags _ _ _ _ _ _ HFB Has)) as [E1 E2].
       exists c. split; [eapply UPC_loc; [exact EU|exact Has]|]. split; [exact E2|]. split; [exact Hix2|]. rewrite Hix1. exact E1.
     + assert (Hi : i < List.length Ufin) by (rewrite HU, app_length; lia).
       destruct (HUR i Hi) as (c & A1 & A2 & A3 & A4). exists c.
@@ -982,26 +1138,26 @@ Proof.
   - intros x c Hin. rewrite concat_cons_env in Hin. apply in_app_or in Hin as [Hin|Hin]; [eapply LRBN_cells; eauto|eauto].
 Qed.
 
-
 Lemma nfunc_inv : forall ps b L1 U E fs ci L1' U' E' fs',
   nfunc cf ps b L1 U E fs = Some (ci, L1', U', E', fs') ->
   exists Lp cb Lb' Ub lv fsb, bparams cf ps [mkLocal None (Some 0) false] = Some Lp /\
-    nlist cf b 1 Lp [] (mkLev L1 U :: E) fs = Some (cb, Lb', Ub, lv :: E', fsb) /\
+    nlist cf b 1 Lp [] (mkLev L1 U :: E) fs 0 None = Some (cb, Lb', Ub, lv :: E', fsb) /\
     ci = clo_instr (List.length fsb) Ub /\ L1' = lv_locals lv /\ U' = lv_ups lv /\
     fs' = (fsb ++ [mkFunc (cb ++ [INil; IReturn]) (List.length ps) (List.length Ub)])%list.
 Proof.
   intros ps b L1 U E fs ci L1' U' E' fs' H. unfold nfunc in H.
   destruct (bparams cf ps _) as [Lp|] eqn:Ep; [|discriminate].
-  destruct (nlist cf b 1 Lp [] (mkLev L1 U :: E) fs) as [[[[[cb Lb'] Ub] Eo] fsb]|] eqn:El; [|discriminate].
+  destruct (nlist cf b 1 Lp [] (mkLev L1 U :: E) fs 0 None) as [[[[[cb Lb'] Ub] Eo] fsb]|] eqn:El; [|discriminate].
   cbn [nclose] in H. destruct Eo as [|lv E0]; [discriminate|]. inversion H; subst.
   exists Lp, cb, Lb', Ub, lv, fsb. repeat split; auto.
 Qed.
 
-Lemma closure_here : forall K1 CL HL base L1 enb1 U E fs ps b ci L1' U' E' fs' Ufin Efin envs uvec m fn frs G O pre post lo,
-  nfunc cf ps b L1 U E fs = Some (ci, L1', U', E', fs') -> forallb (stmt5 true false) b = true -> stack_ok U E ->
+Lemma closure_here : forall K1 CL HL base L1 Lb1 enb1 U E fs ps b ci L1' U' E' fs' Ufin Efin envs uvec m fn frs G O pre post lo,
+  nfunc cf ps b L1 U E fs = Some (ci, L1', U', E', fs') -> forallb (stmt6 jumps true false false) b = true -> stack_ok U E ->
   (exists ext, funs = (fs' ++ ext)%list) -> (exists ext, Ufin = (U' ++ ext)%list) -> levs_up E' Efin ->
   ENVS Efin envs -> UR K1 HL Efin envs Ufin uvec -> (forall x c, In (x, c) (List.concat envs) -> c < List.length K1) ->
-  LRBN K1 (CL ++ [cn m]) HL base L1 enb1 -> base + List.length L1 <= List.length (CL ++ [cn m]) ->
+  flags_up L1' Lb1 ->
+  LRBN K1 (CL ++ [cn m]) HL base Lb1 enb1 -> base + List.length L1 <= List.length (CL ++ [cn m]) ->
   MS2 m fn uvec (code_size pre) base frs CL HL G O -> code_of funs fn = (pre ++ [ci] ++ post)%list ->
   FLO lo base (CL ++ [cn m]) ->
   exists m' HL' fnc Uv, mstep cf funs m = MRun m' /\
@@ -1010,19 +1166,19 @@ Lemma closure_here : forall K1 CL HL base L1 enb1 U E fs ps b ci L1' U' E' fs' U
     HEXT HL HL' lo /\
     (forall h, In h HL' -> In h HL \/ exists s, s < List.length L1 /\ h = nth (base + s) (CL ++ [cn m]) 0) /\
     vrel K1 HL' (SVClo ps b (enb1 ++ List.concat envs)%list) (MClo fnc Uv) /\
-    LRBN K1 (CL ++ [cn m]) HL' base L1' enb1 /\ flags_up L1 L1'.
+    LRBN K1 (CL ++ [cn m]) HL' base Lb1 enb1 /\ flags_up L1 L1'.
 Proof.
-  intros K1 CL HL base L1 enb1 U E fs ps b ci L1' U' E' fs' Ufin Efin envs uvec m fn frs G O pre post lo
-         Hnf Hb Hsok Hfuns HU HF HENV HUR Hcells HLR Hlen HM Hcode HFLO.
-  destruct (nfunc_ok cf ps b (forallb_stmt5_stmt5u _ _ _ Hb) _ _ _ _ _ _ _ _ _ Hnf) as (_ & _ & Hflags).
+  intros K1 CL HL base L1 Lb1 enb1 U E fs ps b ci L1' U' E' fs' Ufin Efin envs uvec m fn frs G O pre post lo
+         Hnf Hb Hsok Hfuns HU HF HENV HUR Hcells HFB HLR Hlen HM Hcode HFLO.
+  destruct (nfunc_ok cf ps b (forallb_stmt6_stmt6u _ _ _ _ _ Hb) _ _ _ _ _ _ _ _ _ Hnf) as (_ & _ & Hflags).
   destruct (nfunc_inv _ _ _ _ _ _ _ _ _ _ _ Hnf) as (Lp & cb & Lb' & Ub & lv & fsb & Ebp & Ebl & -> & -> & -> & ->).
   assert (Hfn : nth_error funs (List.length fsb) = Some (mkFunc (cb ++ [INil; IReturn]) (List.length ps) (List.length Ub))).
   { destruct Hfuns as [ext ->]. rewrite <- app_assoc. rewrite nth_error_app2 by lia. now rewrite Nat.sub_diag. }
   assert (Hfuns' : exists ext, funs = (fsb ++ ext)%list).
   { destruct Hfuns as [ext ->]. rewrite <- app_assoc. eauto. }
   assert (Hfe : fetch (code_of funs fn) (code_size pre) = Some (clo_instr (List.length fsb) Ub)) by (rewrite Hcode; apply fetch_app).
-  destruct (mk_closure_n K1 CL HL base L1 enb1 U E fs ps b Lp cb Lb' Ub lv E' fsb Ufin Efin envs uvec m fn (code_size pre) frs G O lo
-              HLR Hlen Hb Ebp Ebl Hsok HF HU HENV HUR Hcells Hfn Hfuns' HM Hfe HFLO)
+  destruct (mk_closure_n K1 CL HL base L1 Lb1 enb1 U E fs ps b Lp cb Lb' Ub lv E' fsb Ufin Efin envs uvec m fn (code_size pre) frs G O lo
+              HLR Hlen Hb Ebp Ebl HFB Hsok HF HU HENV HUR Hcells Hfn Hfuns' HM Hfe HFLO)
     as (m' & HL' & Uv & A & B & C & D & HX & Hmem & Rv & HLR').
   exists m', HL', (List.length fsb), Uv. split; [exact A|]. split.
   { replace (code_size pre + code_size [clo_instr (List.length fsb) Ub]) with (code_size pre + 3 + 2 * List.length Ub); [exact B|].
@@ -1058,24 +1214,587 @@ Qed.
 
 
 (* ------------------------------------------------------------------------------------------ *)
+(* blocks *)
+
+Lemma scope_end_ops_tail : forall N A B d, Forall (fun l => l_depth l = Some (S d)) N -> depth_le d A -> depth_le d B ->
+  scope_end_ops (N ++ A) d = scope_end_ops (N ++ B) d.
+Proof.
+  induction N as [|l N IH]; intros A B d HN HA HB.
+  - cbn [app]. now rewrite !scope_end_nil.
+  - inversion HN as [|? ? Hl HN']; subst. cbn [app scope_end_ops]. rewrite Hl. destruct (d <? S d); [|reflexivity].
+    f_equal. now apply IH.
+Qed.
+
+(* ---- cutting the locals at the depth of a loop ---- *)
+Lemma cutL_skipn : forall dl L, cutL dl L = skipn (List.length (scope_end_ops L dl)) L.
+Proof.
+  intros dl. induction L as [|l r IH]; [reflexivity|]. cbn [cutL scope_end_ops].
+  destruct (l_depth l) as [dd|]; [|reflexivity]. destruct (dl <? dd); [cbn [List.length skipn]; exact IH|reflexivity].
+Qed.
+
+Definition deeper (dl : nat) (l : local) : Prop := match l_depth l with Some dd => dl < dd | None => False end.
+
+Lemma cutL_app_deeper : forall dl N X, Forall (deeper dl) N -> cutL dl (N ++ X)%list = cutL dl X.
+Proof.
+  intros dl N X H. induction H as [|l N Hl H IH]; [reflexivity|]. cbn [app cutL]. unfold deeper in Hl.
+  destruct (l_depth l) as [dd|]; [|contradiction]. apply Nat.ltb_lt in Hl. now rewrite Hl.
+Qed.
+
+Lemma cutE_app_deeper : forall dl N Ne X en, Forall (fun l => deeper dl l /\ l_name l <> None) N -> List.length N = List.length Ne ->
+  cutE dl (N ++ X)%list (Ne ++ en)%list = cutE dl X en.
+Proof.
+  intros dl N. induction N as [|l N IH]; intros Ne X en H Hl.
+  - destruct Ne; [reflexivity|discriminate].
+  - destruct Ne as [|e Ne]; [discriminate|]. inversion H as [|? ? [Hd Hn] H']; subst. cbn [app cutE]. unfold deeper in Hd.
+    destruct (l_depth l) as [dd|]; [|contradiction]. apply Nat.ltb_lt in Hd. rewrite Hd.
+    destruct (l_name l); [|congruence]. cbn [tl]. apply IH; [exact H'|cbn in Hl; lia].
+Qed.
+
+Lemma cutL_flags : forall dl A B, flags_up A B -> flags_up (cutL dl A) (cutL dl B).
+Proof.
+  intros dl A B H. induction H as [|a b A B (E1 & E2 & E3) H IH]; [constructor|]. cbn [cutL]. rewrite <- E2.
+  assert (Hab : flags_up (a :: A) (b :: B)) by (constructor; [repeat split; assumption|exact H]).
+  destruct (l_depth a) as [dd|]; [|exact Hab]. destruct (dl <? dd); [exact IH|exact Hab].
+Qed.
+
+Lemma cutE_flags : forall dl A B en, flags_up A B -> cutE dl A en = cutE dl B en.
+Proof.
+  intros dl A B en H. revert en. induction H as [|a b A B (E1 & E2 & E3) H IH]; intros en; [reflexivity|]. cbn [cutE]. rewrite <- E2, <- E1.
+  destruct (l_depth a) as [dd|]; [|reflexivity]. destruct (dl <? dd); [apply IH|reflexivity].
+Qed.
+
+Lemma Forall_deeper_d : forall dl d N, dl < d -> Forall (fun l => l_depth l = Some d) N -> Forall (deeper dl) N.
+Proof. intros dl d N Hd. apply Forall_impl. intros l E. unfold deeper. now rewrite E. Qed.
+
+Lemma scope_end_ops_deeper_len : forall dl N X, Forall (deeper dl) N ->
+  List.length (scope_end_ops (N ++ X)%list dl) = List.length N + List.length (scope_end_ops X dl).
+Proof.
+  intros dl N X H. induction H as [|l N Hl H IH]; [reflexivity|]. cbn [app scope_end_ops]. unfold deeper in Hl.
+  destruct (l_depth l) as [dd|]; [|contradiction]. apply Nat.ltb_lt in Hl. rewrite Hl. cbn [List.length]. now rewrite IH.
+Qed.
+
+Lemma firstn_orf_tight : forall k L L0 Lm, flags_up L L0 -> flags_up L Lm -> firstn k Lm = firstn k L -> firstn k (orf L0 Lm) = firstn k L0.
+Proof.
+  induction k as [|k IH]; intros L L0 Lm H0 Hm Ht; [reflexivity|].
+  inversion H0 as [|l l0 L' L0' (A1 & A2 & A3) H0']; subst; [inversion Hm; subst; reflexivity|].
+  inversion Hm as [|? m ? Lm' (B1 & B2 & B3) Hm']; subst. cbn [firstn] in Ht. inversion Ht; subst. cbn [orf firstn]. f_equal.
+  - destruct l0 as [n0 d0 b0]. cbn in *. subst. f_equal. destruct (l_capt l) eqn:El; [rewrite (A3 eq_refl); reflexivity|now rewrite orb_false_r].
+  - eapply IH; eauto.
+Qed.
+
+Lemma TIGHT_mrg : forall dl d L L' Lm, TIGHT dl L Lm -> lext d L L' -> dl < d -> flags_up L Lm -> TIGHT dl L' (mrg L L' Lm).
+Proof.
+  intros dl d L L' Lm Ht (N & L0 & -> & F & D) Hd Hm. unfold TIGHT in *.
+  rewrite (mrg_lext L N L0 Lm (flags_up_length _ _ F)).
+  rewrite (scope_end_ops_deeper_len dl N L0 (Forall_deeper_d dl d N Hd D)), (flags_up_scope_end_len _ _ dl F).
+  rewrite !firstn_app. replace (List.length N + List.length (scope_end_ops L dl) - List.length N) with (List.length (scope_end_ops L dl)) by lia.
+  rewrite !firstn_all2 by lia. f_equal. eapply firstn_orf_tight; eauto.
+Qed.
+
+Lemma TIGHT_orf : forall dl L L1 Lm, TIGHT dl L Lm -> flags_up L L1 -> flags_up L Lm -> TIGHT dl L1 (orf L1 Lm).
+Proof.
+  intros dl L L1 Lm Ht F Hm. unfold TIGHT in *. rewrite (flags_up_scope_end_len _ _ dl F). eapply firstn_orf_tight; eauto.
+Qed.
+
+Lemma cutL_length_flags : forall dl A B, flags_up A B -> List.length (cutL dl B) = List.length (cutL dl A).
+Proof. intros dl A B H. apply flags_up_length. now apply cutL_flags. Qed.
+
+Lemma app_inv_len : forall A (a1 a2 b1 b2 : list A), (a1 ++ b1 = a2 ++ b2)%list -> List.length b1 = List.length b2 -> a1 = a2 /\ b1 = b2.
+Proof.
+  intros A a1 a2 b1 b2 H Hl. assert (Hl2 : List.length a1 = List.length a2).
+  { apply (f_equal (@List.length A)) in H. rewrite !app_length in H. lia. }
+  revert a2 H Hl2. induction a1 as [|x r IH]; intros [|y r2] H Hl2; try discriminate; [auto|].
+  cbn in H. inversion H; subst. destruct (IH r2 H2 ltac:(cbn in Hl2; lia)) as [-> ->]. auto.
+Qed.
+
+Lemma block_run : forall fu, L_goal fu -> forall b infun inloop enb envs st st1 en1 ctl,
+  exec_list fu b (enb ++ List.concat envs)%list false st = (st1, en1, ctl) -> forallb (stmt6 jumps infun false inloop) b = true ->
+  forall L d U E fs pos lc code L' U' E' fs', nblk cf b d L U E fs pos lc = Some (code, L', U', E', fs') -> goodl lc ctl ->
+  depth_le d L -> stack_ok U E -> (exists ext, funs = (fs' ++ ext)%list) ->
+  forall Lm Ufin Efin uvec K CL HL base, flags_up L Lm -> (exists ext, Ufin = (U' ++ ext)%list) -> levs_up E' Efin ->
+  CTX K CL HL base Lm enb Efin envs Ufin uvec -> List.length CL = base + List.length L ->
+  forall m fn frs G O pre post lo, code_of funs fn = (pre ++ code ++ post)%list -> pos = code_size pre ->
+  LCOK lc (S d) L Lm (code_size pre) (code_size pre + code_size code) ->
+  (infun = true -> frs <> []) -> lo <= cn m -> FLO lo base CL ->
+  MS2 m fn uvec (code_size pre) base frs CL HL G O -> sto st K HL (cv m) (cn m) G O ->
+  RES infun lo d L enb envs K CL HL base m fn uvec (code_size pre + code_size code) frs st1 (enb ++ List.concat envs)%list ctl L' (mrg L L' Lm) lc.
+Proof.
+  intros fu IHL b infun inloop enb envs st st1 en1 ctl El Hf L d U E fs pos lc code L' U' E' fs' Hc Hg Hdl Hsok Hfuns
+         Lm Ufin Efin uvec K CL HL base HFB HU HF HC HlenCL m fn frs G O pre post lo Hcode Hpos Hlc Hfrs Hlo HFLO HM HS.
+  unfold nblk in Hc. destruct (nlist cf b (S d) L U E fs pos lc) as [[[[[cb L1] U1] E1] fs1]|] eqn:Cl; [|discriminate].
+  cbv zeta in Hc.
+  destruct (nlist_ok cf b (forallb_stmt6_stmt6u _ _ _ _ _ Hf) _ _ _ _ _ _ _ _ _ _ _ _ Cl (depth_le_S _ _ Hdl)) as (_ & _ & (N & L0 & EL1 & HFl & HD)).
+  subst L1. pose proof (flags_up_depth_le _ _ _ HFl Hdl) as Hd0'. pose proof (flags_up_length _ _ HFl) as HlenL0.
+  rewrite (scope_end_len N L0 d Hd0' HD), skipn_app_len in Hc. inversion Hc; subst code L' U' E' fs'. clear Hc.
+  set (Lb' := orf L0 Lm).
+  assert (HFB' : flags_up L0 Lb') by (eapply flags_up_orf_l; eauto).
+  pose proof (flags_up_depth_le _ _ _ HFB' Hd0') as HdLb.
+  assert (Emrg1 : mrg L (N ++ L0) Lm = (N ++ Lb')%list) by (apply mrg_lext; exact HlenL0).
+  assert (Emrg0 : mrg L L0 Lm = Lb') by (apply mrg_same_len; exact HlenL0).
+  rewrite Emrg0.
+  unfold RES.
+  assert (Hlc' : LCOK lc (S d) L Lm (code_size pre) (code_size pre + code_size cb)).
+  { intros l El0. destruct (Hlc l El0) as (A1 & A2 & A3 & A4). rewrite code_size_app in A3. repeat split; auto; lia. }
+  destruct (IHL b infun false inloop enb envs st st1 en1 ctl El Hf L (S d) U E fs pos lc cb (N ++ L0)%list U1 E1 fs1 Cl Hg eq_refl (depth_le_S _ _ Hdl)
+              ltac:(discriminate) Hsok Hfuns Lm Ufin Efin uvec K CL HL base HFB HU HF HC HlenCL
+              m fn frs G O pre (scope_end_ops (N ++ L0) d ++ post)%list lo)
+    as (n1 & m1 & K1 & HL1 & G1 & O1 & S1 & ST1 & KX1 & HX1 & F1 & Hcn1 & Hres); auto.
+  { rewrite Hcode. now rewrite <- app_assoc. }
+  rewrite Emrg1 in Hres.
+  assert (Hjmp : forall l, lc = Some l -> cutL (lc_depth l) (N ++ Lb') = cutL (lc_depth l) Lb').
+  { intros l El0. destruct (Hlc l El0) as (A1 & _). apply cutL_app_deeper. apply (Forall_deeper_d _ (S d)); [exact A1|exact HD]. }
+  destruct ctl as [| | |w| | |]; try (destruct Hg as [[Hg|[? Hg]]|[_ [Hg|Hg]]]; discriminate).
+  - destruct Hres as (CL1 & enb1 & -> & M1 & LR1 & Len1 & Hfirst1 & HFLO1 & (N2 & Ne & L02 & EN2 & HFl2 & -> & HNlen & HN) & _).
+    destruct (app_inv_len _ _ _ _ _ EN2 ltac:(rewrite HlenL0, (flags_up_length _ _ HFl2); reflexivity)) as [<- <-].
+    assert (HN' : Forall (fun l => l_depth l = Some (S d) /\ l_name l <> None) N) by exact HN.
+    assert (HNn : Forall (fun l => l_name l <> None) N) by (revert HN; apply Forall_impl; intros l [_ A]; exact A).
+    assert (Len1' : List.length CL1 = base + List.length (N ++ Lb')).
+    { rewrite Len1, !app_length, (flags_up_length _ _ HFB'). reflexivity. }
+    destruct (scope_end_run N K1 CL1 HL1 base Lb' Ne enb d m1 fn uvec frs (pre ++ cb)%list post G1 O1 LR1 HNlen Len1' HN' HdLb)
+      as (m2 & S2 & M2 & C2 & D2).
+    { rewrite (scope_end_ops_tail N Lb' L0 d HD HdLb Hd0'). rewrite Hcode. now rewrite <- !app_assoc. }
+    { rewrite code_size_app. exact M1. }
+    rewrite (scope_end_ops_tail N Lb' L0 d HD HdLb Hd0') in M2.
+    pose proof (flags_up_length _ _ HFB') as HlenLb.
+    exists (n1 + List.length N), m2, K1, HL1, G1, O1.
+    split; [eapply steps_trans; eauto|]. split; [rewrite C2, D2; exact ST1|]. split; [rewrite D2; exact KX1|].
+    split; [exact HX1|].
+    split; [intros j Hj Hn; rewrite C2; apply F1; auto|]. split; [lia|].
+    exists (firstn (base + List.length Lb') CL1), enb. split; [reflexivity|]. split.
+    { rewrite !code_size_app in *. rewrite Nat.add_assoc. exact M2. }
+    split.
+    { apply LRBN_drop in LR1; auto. apply LRBN_CL with (CL := CL1); [exact LR1|].
+      intros i Hi. now apply nth_firstn_lt. }
+    split. { rewrite firstn_length, Len1, app_length. lia. }
+    split. { rewrite HlenLb, HlenL0. rewrite firstn_firstn_le by lia. exact Hfirst1. }
+    split; [now apply FLO_firstn|]. split; [now apply EXT2_flags|auto].
+  - (* break: the scope-end ops of the break itself popped the block's locals *)
+    exists n1, m1, K1, HL1, G1, O1. split; [exact S1|]. split; [exact ST1|]. split; [exact KX1|]. split; [exact HX1|]. split; [exact F1|].
+    split; [lia|]. destruct Hres as (l & El0 & Q1 & Q2). exists l. split; [exact El0|]. split; [exact Q1|]. rewrite (Hjmp l El0) in Q2. exact Q2.
+  - exists n1, m1, K1, HL1, G1, O1. split; [exact S1|]. split; [exact ST1|]. split; [exact KX1|]. split; [exact HX1|]. split; [exact F1|].
+    split; [lia|]. destruct Hres as (l & El0 & Q1 & Q2). exists l. split; [exact El0|]. split; [exact Q1|]. rewrite (Hjmp l El0) in Q2. exact Q2.
+  - exists n1, m1, K1, HL1, G1, O1. split; [exact S1|]. split; [exact ST1|]. split; [exact KX1|]. split; [exact HX1|]. split; [exact F1|].
+    split; [lia|exact Hres].
+Qed.
+
+(* ------------------------------------------------------------------------------------------ *)
+(* loops *)
+
+(* the iterations of `for i in 0..n { b }` in the reference evaluator (the local fix of exec_stmt, named) *)
+Fixpoint loop_iter (fu : nat) (b : list stmt) (en' : env) (c : nat) (todo k : nat) (st : sst) : sst * ctl :=
+  match todo with
+  | 0 => (ScopeLang.set_cell st c SVStop, CNorm)
+  | S todo' =>
+      match exec_list fu b en' false (ScopeLang.set_cell st c (SVInt (Z.of_nat k))) with
+      | (st2, _, CNorm) => loop_iter fu b en' c todo' (S k) st2
+      | (st2, _, CCont) => loop_iter fu b en' c todo' (S k) st2
+      | (st2, _, CBreak) => (st2, CNorm)
+      | (st2, _, c') => (st2, c')
+      end
+  end.
+
+Lemma exec_loop_eq : forall fu i n b en top st,
+  exec_stmt (S fu) (SLoop i n b) en top st =
+  let (st1, c) := new_cell st SVNil in
+  let (st3, c') := loop_iter fu b ((i, c) :: en) c n 0 st1 in (st3, en, c').
+Proof.
+  intros fu i n b en top st. cbn [exec_stmt]. destruct (new_cell st SVNil) as [st1 c].
+  assert (X : forall todo k st0,
+    (fix go (todo : nat) (k : nat) (st : sst) {struct todo} : sst * ctl :=
+       match todo with
+       | 0 => (ScopeLang.set_cell st c SVStop, CNorm)
+       | S todo' =>
+           match exec_list fu b ((i, c) :: en) false (ScopeLang.set_cell st c (SVInt (Z.of_nat k))) with
+           | (st2, _, CNorm) => go todo' (S k) st2
+           | (st2, _, CCont) => go todo' (S k) st2
+           | (st2, _, CBreak) => (st2, CNorm)
+           | (st2, _, c') => (st2, c')
+           end
+       end) todo k st0 = loop_iter fu b ((i, c) :: en) c todo k st0).
+  { induction todo as [|t IH]; intros k st0; [reflexivity|]. cbn [loop_iter].
+    destruct (exec_list fu b ((i, c) :: en) false (ScopeLang.set_cell st0 c (SVInt (Z.of_nat k)))) as [[s2 e2] [| | | | | |]]; try reflexivity; apply IH. }
+  rewrite X. reflexivity.
+Qed.
+
+(* one scope-end op: the newest local of the frame is popped (or its upvalue closed) *)
+Lemma scope_pop1 : forall K CL0 c HL base l L en m fn uvec pc frs G O,
+  LRBN K (CL0 ++ [c]) HL base (l :: L) en -> List.length CL0 = base + List.length L ->
+  fetch (code_of funs fn) pc = Some (if l_capt l then ICloseUpvalue else IPop) ->
+  MS2 m fn uvec pc base frs (CL0 ++ [c])%list HL G O ->
+  exists m', mstep cf funs m = MRun m' /\ MS2 m' fn uvec (pc + 1) base frs CL0 HL G O /\ cv m' = cv m /\ cn m' = cn m /\
+             LRBN K CL0 HL base L (match l_name l with Some _ => tl en | None => en end).
+Proof.
+  intros K CL0 c HL base l L en m fn uvec pc frs G O HLR Hlen Hf HM.
+  assert (Hflag : In c HL -> l_capt l = true).
+  { inversion HLR as [|? ? ? ? H0 Hfl|? ? ? ? ? ? H0 Hc0 Hn0 Hfl]; subst; cbn [l_capt].
+    - rewrite <- Hlen, nth_middle in Hfl. exact Hfl.
+    - rewrite <- Hlen, nth_middle in Hn0. subst c. exact Hfl. }
+  assert (Hstep : exists m1, mstep cf funs m = MRun m1 /\ MS2 m1 fn uvec (pc + 1) base frs CL0 HL G O /\ cv m1 = cv m /\ cn m1 = cn m).
+  { destruct (l_capt l).
+    - destruct (step2_closeup cf funs _ _ _ _ _ _ _ _ _ _ _ HM Hf) as (m1 & A & B & C & D). eauto.
+    - assert (Hn : ~ In c HL) by (intro Hin; specialize (Hflag Hin); discriminate).
+      destruct (step2_pop cf funs _ _ _ _ _ _ _ _ _ _ _ HM Hf Hn) as (m1 & A & B & C & D). eauto. }
+  destruct Hstep as (m1 & A & B & C & D). exists m1. repeat (split; [assumption|]).
+  inversion HLR as [|? ? ? ? H0 Hfl|? ? ? ? ? ? H0 Hc0 Hn0 Hfl]; subst; cbn [l_name tl].
+  - apply LRBN_CL with (CL := (CL0 ++ [c])%list); [exact H0|]. intros i Hi. symmetry. apply app_nth1. lia.
+  - apply LRBN_CL with (CL := (CL0 ++ [c])%list); [exact H0|]. intros i Hi. symmetry. apply app_nth1. lia.
+Qed.
+
+(* the scope-end ops of break / continue: the locals deeper than the loop are popped; the ops were chosen from the static
+   flags, which for these locals are the flags of the frame relation (TIGHT) *)
+Lemma scope_cut_run : forall dl L K CL HL base Lm en m fn uvec frs pre post G O,
+  LRBN K CL HL base Lm en -> flags_up L Lm -> TIGHT dl L Lm -> List.length CL = base + List.length L ->
+  code_of funs fn = (pre ++ scope_end_ops L dl ++ post)%list ->
+  MS2 m fn uvec (code_size pre) base frs CL HL G O ->
+  exists m', steps cf funs (List.length (scope_end_ops L dl)) m m' /\
+    MS2 m' fn uvec (code_size pre + code_size (scope_end_ops L dl)) base frs (firstn (base + List.length (cutL dl L)) CL) HL G O /\
+    cv m' = cv m /\ cn m' = cn m /\
+    LRBN K (firstn (base + List.length (cutL dl L)) CL) HL base (cutL dl Lm) (cutE dl L en).
+Proof.
+  intros dl. induction L as [|l L IH]; intros K CL HL base Lm en m fn uvec frs pre post G O HLR HF HT Hlen Hcode HM.
+  - inversion HF; subst. cbn [scope_end_ops cutL cutE List.length code_size] in *. exists m. rewrite !Nat.add_0_r in *.
+    assert (Ef : firstn base CL = CL) by (rewrite <- Hlen; apply firstn_all). rewrite Ef.
+    split; [reflexivity|]. auto.
+  - inversion HF as [|? lm ? Lm' (E1 & E2 & E3) HF']; subst.
+    cbn [scope_end_ops cutL cutE] in *. rewrite <- E2.
+    destruct (l_depth l) as [dd|] eqn:Ed.
+    + destruct (dl <? dd) eqn:Elt.
+      * (* popped *)
+        unfold TIGHT in HT. cbn [scope_end_ops] in HT. rewrite Ed, Elt in HT. cbn [List.length firstn] in HT. inversion HT as [[Hlm HT']]. subst lm.
+        assert (Hcl : CL <> []) by (intro; subst; cbn in Hlen; lia).
+        destruct (exists_last Hcl) as (CL0 & c & ->). rewrite app_length in Hlen. cbn in Hlen.
+        assert (HlenCL0 : List.length CL0 = base + List.length Lm') by (rewrite (flags_up_length _ _ HF'); lia).
+        set (op := if l_capt l then ICloseUpvalue else IPop) in *.
+        assert (Hfe : fetch (code_of funs fn) (code_size pre) = Some op) by (rewrite Hcode; apply fetch_app).
+        destruct (scope_pop1 K CL0 c HL base l Lm' en m fn uvec (code_size pre) frs G O HLR HlenCL0 Hfe HM) as (m1 & A1 & B1 & C1 & D1 & LR1).
+        destruct (IH K CL0 HL base Lm' _ m1 fn uvec frs (pre ++ [op])%list post G O LR1 HF' HT' ltac:(rewrite HlenCL0, (flags_up_length _ _ HF'); reflexivity))
+          as (m2 & S2 & M2 & C2 & D2 & LR2).
+        { rewrite Hcode. now rewrite <- app_assoc. }
+        { rewrite code_size_app. cbn [code_size]. replace (isize op) with 1 by (unfold op; destruct (l_capt l); reflexivity).
+          replace (code_size pre + (1 + 0)) with (code_size pre + 1) by lia. exact B1. }
+        assert (Hfn : firstn (base + List.length (cutL dl L)) (CL0 ++ [c]) = firstn (base + List.length (cutL dl L)) CL0).
+        { apply firstn_app_le. rewrite HlenCL0, (flags_up_length _ _ HF'). rewrite cutL_skipn, skipn_length. lia. }
+        exists m2. cbn [List.length]. split; [exists m1; split; [exact A1|exact S2]|]. rewrite Hfn.
+        split.
+        { rewrite code_size_app in M2. cbn [code_size] in M2 |- *. replace (isize op) with 1 in * by (unfold op; destruct (l_capt l); reflexivity).
+          replace (code_size pre + (1 + code_size (scope_end_ops L dl))) with (code_size pre + (1 + 0) + code_size (scope_end_ops L dl)) by lia. exact M2. }
+        split; [congruence|]. split; [congruence|]. exact LR2.
+      * (* the first local that stays *)
+        cbn [List.length code_size]. exists m. rewrite Nat.add_0_r.
+        assert (Ef : firstn (base + S (List.length L)) CL = CL) by (cbn [List.length] in Hlen; rewrite <- Hlen; apply firstn_all). rewrite Ef.
+        split; [reflexivity|]. auto.
+    + cbn [List.length code_size]. exists m. rewrite Nat.add_0_r.
+      assert (Ef : firstn (base + S (List.length L)) CL = CL) by (cbn [List.length] in Hlen; rewrite <- Hlen; apply firstn_all). rewrite Ef.
+      split; [reflexivity|]. auto.
+Qed.
+
+Lemma N_nat_Z : forall n, Z.of_N (N.of_nat n) = Z.of_nat n.
+Proof. intros n. now rewrite nat_N_Z. Qed.
+
+Lemma loop_iter_res : forall fu b en' c todo k st st3 c3, loop_iter fu b en' c todo k st = (st3, c3) -> c3 <> CBreak /\ c3 <> CCont.
+Proof.
+  intros fu b en' c. induction todo as [|t IH]; intros k st st3 c3 H; cbn [loop_iter] in H.
+  - inversion H; subst. split; discriminate.
+  - destruct (exec_list fu b en' false (ScopeLang.set_cell st c (SVInt (Z.of_nat k)))) as [[st2 en2] c1].
+    destruct c1; try (inversion H; subst; split; discriminate); eapply IH; eauto.
+Qed.
+
+Lemma flags_up_cons_inv : forall a A b B, flags_up (a :: A) (b :: B) ->
+  (l_name a = l_name b /\ l_depth a = l_depth b /\ (l_capt a = true -> l_capt b = true)) /\ flags_up A B.
+Proof. intros a A b B H. inversion H; subst. auto. Qed.
+
+Lemma app2_assoc : forall A (l : list A) a b, (l ++ [a; b] = (l ++ [a]) ++ [b])%list.
+Proof. intros. now rewrite <- app_assoc. Qed.
+
+Lemma LRBN_loop_inv : forall K CL0 ci ch HL base dh bh i di bi Lb enb c,
+  LRBN K (CL0 ++ [ci; ch]) HL base (mkLocal None dh bh :: mkLocal (Some i) (Some di) bi :: Lb) ((i, c) :: enb) ->
+  List.length CL0 = base + List.length Lb -> c < List.length K /\ ci = kc K c.
+Proof.
+  intros K CL0 ci ch HL base dh bh i di bi Lb enb c H Hl. inversion H as [|? ? ? ? H1 _|]; subst.
+  inversion H1 as [| |? ? ? ? ? ? H0 Hck Hci Hfi]; subst. split; [exact Hck|].
+  rewrite <- Hl in Hci. change [ci; ch] with ([ci] ++ [ch])%list in Hci. rewrite app_assoc, app_nth1, nth_middle in Hci by (rewrite app_length; cbn; lia).
+  exact Hci.
+Qed.
+
+(* the iterations, with the machine at the loop start (IterNext); ci = cell of the loop variable, ch = cell of the
+   hidden iterator *)
+Lemma loop_run : forall fu, L_goal fu ->
+  forall b infun i n d L U E fs U' E' fs' cblock lh li L0 Lb' Ufin Efin uvec envs enb c base fn frs pre1 X Y post2 start exit lo b0,
+  forallb (stmt6 jumps infun false true) b = true ->
+  nblk cf b (S d) (mkLocal None (Some (S d)) false :: mkLocal (Some i) (Some (S d)) false :: L) U E fs
+       (start + code_size (loop_head (List.length L) X)) (Some (mkLctx start (S d) exit)) = Some (cblock, lh :: li :: L0, U', E', fs') ->
+  depth_le d L -> stack_ok U E -> (exists ext, funs = (fs' ++ ext)%list) ->
+  flags_up L0 Lb' -> (exists ext, Ufin = (U' ++ ext)%list) -> levs_up E' Efin ->
+  code_of funs fn = (pre1 ++ loop_head (List.length L) X ++ cblock ++ [ILoop Y; IPop] ++ post2)%list -> start = code_size pre1 ->
+  X = 1 + code_size cblock + 3 -> Y = code_size (loop_head (List.length L) X) + code_size cblock + 3 ->
+  exit = code_size (pre1 ++ loop_head (List.length L) X ++ cblock ++ [ILoop Y; IPop]) ->
+  (infun = true -> frs <> []) ->
+  forall todo k st st3 ctl,
+  loop_iter fu b ((i, c) :: enb ++ List.concat envs)%list c todo k st = (st3, ctl) -> good ctl -> k + todo = n ->
+  forall K CL0 ci ch HL m G O,
+    MS2 m fn uvec start base frs (CL0 ++ [ci; ch])%list HL G O -> cv m ch = MIterV (Z.of_nat k) (Z.of_nat n) ->
+    sto st K HL (cv m) (cn m) G O ->
+    CTX K (CL0 ++ [ci; ch]) HL base (lh :: li :: Lb') ((i, c) :: enb) Efin envs Ufin uvec ->
+    List.length CL0 = base + List.length L -> lo <= cn m -> FLO lo base (CL0 ++ [ci; ch]) ->
+    b0 <= ci -> b0 <= ch -> ~ In ch K ->
+    exists n' m' K' HL' G' O', steps cf funs n' m m' /\ sto st3 K' HL' (cv m') (cn m') G' O' /\ KEXT K K' (cn m) (cn m') /\
+      HEXT HL HL' lo /\ (forall j, j < b0 -> ~ In j K -> cv m' j = cv m j) /\ cn m <= cn m' /\
+      match ctl with
+      | CNorm => MS2 m' fn uvec exit base frs (CL0 ++ [ci; ch])%list HL' G' O' /\
+                 LRBN K' (CL0 ++ [ci; ch]) HL' base (lh :: li :: Lb') ((i, c) :: enb)
+      | CRet v => exists fn0 ups0 pc0 base0 frs' cres, frs = mkFrame fn0 ups0 pc0 base0 :: frs' /\
+                    MS2 m' fn0 ups0 pc0 base0 frs' (firstn base CL0 ++ [cres])%list HL' G' O' /\
+                    vrel K' HL' v (cv m' cres) /\ cn m <= cres < cn m' /\ ~ In cres K' /\ ~ In cres HL'
+      | _ => False
+      end.
+Proof.
+  intros fu IHL b infun i n d L U E fs U' E' fs' cblock lh li L0 Lb' Ufin Efin uvec envs enb c base fn frs pre1 X Y post2 start exit lo b0
+         Hf Hblk Hdl Hsok Hfuns HFB' HU HF Hcode Hstart HX HY Hexit Hfrs.
+  set (lv := List.length L) in *.
+  set (Lh := mkLocal None (Some (S d)) false :: mkLocal (Some i) (Some (S d)) false :: L) in *.
+  pose proof (forallb_stmt6_stmt6u _ _ _ _ _ Hf) as Hfu.
+  destruct (nblk_ok cf b Hfu _ _ _ _ _ _ _ _ _ _ _ _ Hblk (loop_locals_depth d i L Hdl)) as (_ & _ & HFlh).
+  destruct (flags_up_cons_inv _ _ _ _ HFlh) as ((Ah1 & Ah2 & _) & HFl1). destruct (flags_up_cons_inv _ _ _ _ HFl1) as ((Ai1 & Ai2 & _) & HFl0).
+  cbn in Ah1, Ah2, Ai1, Ai2.
+  assert (Elh : lh = mkLocal None (Some (S d)) (l_capt lh)) by (destruct lh as [nh dh bh]; cbn in *; congruence).
+  assert (Eli : li = mkLocal (Some i) (Some (S d)) (l_capt li)) by (destruct li as [ni di bi]; cbn in *; congruence).
+  pose proof (flags_up_length _ _ HFl0) as HlenL0. pose proof (flags_up_length _ _ HFB') as HlenLb.
+  assert (HFBl : flags_up (lh :: li :: L0) (lh :: li :: Lb')).
+  { constructor; [repeat split; auto|]. constructor; [repeat split; auto|exact HFB']. }
+  (* code positions *)
+  assert (Hhsz : code_size (loop_head lv X) = 7) by reflexivity.
+  assert (Hf_in : fetch (code_of funs fn) start = Some IIterNext).
+  { rewrite Hcode, Hstart. apply fetch_app. }
+  assert (Hf_sl : fetch (code_of funs fn) (start + 1) = Some (ISetLocal lv)).
+  { rewrite Hstart. replace (code_size pre1 + 1) with (code_size pre1 + code_size [IIterNext]) by reflexivity.
+    eapply fetch_mid with (c2 := [IJumpIfStopIter X; IPop]) (post := (cblock ++ [ILoop Y; IPop] ++ post2)%list). rewrite Hcode. reflexivity. }
+  assert (Hf_js : fetch (code_of funs fn) (start + 1 + 2) = Some (IJumpIfStopIter X)).
+  { rewrite Hstart. replace (code_size pre1 + 1 + 2) with (code_size pre1 + code_size [IIterNext; ISetLocal lv]) by (cbn; lia).
+    eapply fetch_mid with (c2 := [IPop]) (post := (cblock ++ [ILoop Y; IPop] ++ post2)%list). rewrite Hcode. reflexivity. }
+  assert (Hf_p1 : fetch (code_of funs fn) (start + 1 + 2 + 3) = Some IPop).
+  { rewrite Hstart. replace (code_size pre1 + 1 + 2 + 3) with (code_size pre1 + code_size [IIterNext; ISetLocal lv; IJumpIfStopIter X]) by (cbn; lia).
+    eapply fetch_mid with (c2 := []) (post := (cblock ++ [ILoop Y; IPop] ++ post2)%list). rewrite Hcode. reflexivity. }
+  assert (Hf_lp : fetch (code_of funs fn) (start + 7 + code_size cblock) = Some (ILoop Y)).
+  { rewrite Hstart. replace (code_size pre1 + 7 + code_size cblock) with (code_size pre1 + code_size (loop_head lv X ++ cblock)) by (rewrite code_size_app, Hhsz; lia).
+    eapply fetch_mid with (c2 := [IPop]) (post := post2). rewrite Hcode. now rewrite <- !app_assoc. }
+  assert (Hf_p2 : fetch (code_of funs fn) (start + 7 + code_size cblock + 3) = Some IPop).
+  { rewrite Hstart. replace (code_size pre1 + 7 + code_size cblock + 3) with (code_size pre1 + code_size (loop_head lv X ++ cblock ++ [ILoop Y])).
+    - eapply fetch_mid with (c2 := []) (post := post2). rewrite Hcode. now rewrite <- !app_assoc.
+    - rewrite !code_size_app, Hhsz. cbn [code_size isize]. lia. }
+  assert (Hexit' : exit = start + 7 + code_size cblock + 3 + 1).
+  { rewrite Hexit, Hstart, !code_size_app, Hhsz. cbn [code_size isize]. lia. }
+  induction todo as [|todo IH]; intros k st st3 ctl Hit Hg Hkn K CL0 ci ch HL m G O HM Hit0 HS HC HlenCL0 Hlo HFLO Hb0i Hb0h HchK.
+  - (* exhausted *)
+    cbn [loop_iter] in Hit. inversion Hit; subst st3 ctl. clear Hit Hg.
+    assert (k = n) by lia. subst k.
+    pose proof (cx_lrb _ _ _ _ _ _ _ _ _ _ HC) as HLR.
+    pose proof HLR as HLRx. rewrite Elh, Eli in HLRx.
+    destruct (LRBN_loop_inv _ _ _ _ _ _ _ _ _ _ _ _ _ _ HLRx ltac:(rewrite HlenLb, HlenL0; exact HlenCL0)) as [Hck Hci]. clear HLRx.
+    rewrite app2_assoc in HM.
+    destruct (step2_iternext_done cf funs _ _ _ _ _ _ _ _ _ _ _ _ _ HM Hf_in Hit0 (Z.ltb_irrefl _)) as (m1 & A1 & B1 & C1 & D1).
+    assert (B1' : MS2 m1 fn uvec (start + 1) base frs ((CL0 ++ [ci; ch]) ++ [cn m]) HL G O).
+    { rewrite app2_assoc, <- app_assoc. exact B1. }
+    destruct (step2_setlocal cf funs _ _ _ _ _ _ _ _ _ _ _ lv B1' Hf_sl ltac:(rewrite app_length; cbn [List.length]; lia)) as (m2 & A2 & B2 & C2 & D2).
+    assert (Hnth : nth (base + lv) (CL0 ++ [ci; ch]) 0 = ci).
+    { rewrite <- HlenCL0. change [ci; ch] with ([ci] ++ [ch])%list. rewrite app_assoc, app_nth1, nth_middle; [reflexivity|rewrite app_length; cbn; lia]. }
+    rewrite Hnth in C2.
+    pose proof (m2_s _ _ _ _ _ _ _ _ _ _ HM) as SK.
+    assert (Hci_lt : ci < cn m).
+    { assert (Hin : In ci ((CL0 ++ [ci]) ++ [ch])) by (apply in_or_app; left; apply in_or_app; right; now left).
+      pose proof (s2_cl_lt _ _ _ SK _ Hin). unfold cn. exact H. }
+    assert (Hch_lt : ch < cn m).
+    { assert (Hin : In ch ((CL0 ++ [ci]) ++ [ch])) by (apply in_or_app; right; now left).
+      pose proof (s2_cl_lt _ _ _ SK _ Hin). unfold cn. exact H. }
+    assert (Htop : cv m2 (cn m) = MStop) by (rewrite C2, upd_other by lia; rewrite C1; apply upd_same).
+    destruct (step2_jumpifstop_yes cf funs _ _ _ _ _ _ _ _ _ _ _ _ B2 Hf_js Htop) as (m3 & A3 & B3 & C3 & D3).
+    assert (HnH : ~ In (cn m) HL) by (apply (notin_HL_fresh _ _ _ _ _ _ _ _ _ _ (cn m) HM); lia).
+    replace (start + 1 + 2 + 3 + X) with (start + 7 + code_size cblock + 3) in B3 by (rewrite HX; lia).
+    destruct (step2_pop cf funs _ _ _ _ _ _ _ _ _ _ _ B3 Hf_p2 HnH) as (m4 & A4 & B4 & C4 & D4).
+    assert (Ecv : cv m4 = upd (upd (cv m) (cn m) MStop) ci MStop).
+    { rewrite C4, C3, C2, C1, upd_same. reflexivity. }
+    assert (Ecn : cn m4 = S (cn m)) by (rewrite D4, D3, D2, D1; reflexivity).
+    assert (HnK : ~ In (cn m) K) by (intro Hin; pose proof (sto_K_lt _ _ _ _ _ _ _ HS Hin); lia).
+    exists 4, m4, K, HL, G, O.
+    split. { exists m1. split; [exact A1|]. exists m2. split; [exact A2|]. exists m3. split; [exact A3|]. now apply steps_one. }
+    split. { rewrite Ecv, Ecn. rewrite Hci. apply STON_write; [|exact Hck|constructor].
+             apply STON_temp with (cnx := cn m); [exact HS|exact HnK|lia]. }
+    split. { exists []. rewrite app_nil_r. split; [reflexivity|intros k0 []]. }
+    split; [apply HEXT_refl|].
+    split. { intros j Hj Hn. rewrite Ecv, !upd_other by lia. reflexivity. }
+    split; [lia|].
+    split; [rewrite Hexit'; exact B4|exact HLR].
+  - (* one more iteration *)
+    cbn [loop_iter] in Hit.
+    destruct (exec_list fu b ((i, c) :: enb ++ List.concat envs)%list false (ScopeLang.set_cell st c (SVInt (Z.of_nat k)))) as [[st2 en2] c1] eqn:Eb.
+    assert (Hg1 : goodl (Some (mkLctx start (S d) exit)) c1 /\
+                  ((c1 = CNorm \/ c1 = CCont) -> loop_iter fu b ((i, c) :: enb ++ List.concat envs)%list c todo (S k) st2 = (st3, ctl)) /\
+                  (c1 = CBreak -> st3 = st2 /\ ctl = CNorm) /\
+                  (forall v, c1 = CRet v -> st3 = st2 /\ ctl = CRet v)).
+    { destruct c1.
+      - split; [left; now left|]. split; [auto|]. split; intros; discriminate.
+      - inversion Hit; subst. split; [right; split; [discriminate|now left]|]. split; [intros [|]; discriminate|]. split; [auto|intros; discriminate].
+      - split; [right; split; [discriminate|now right]|]. split; [auto|]. split; intros; discriminate.
+      - inversion Hit; subst. split; [left; right; eauto|]. split; [intros [|]; discriminate|]. split; [intros; discriminate|]. intros v0 E0. inversion E0; subst. auto.
+      - inversion Hit; subst. destruct Hg as [Hg|[? Hg]]; discriminate.
+      - inversion Hit; subst. destruct Hg as [Hg|[? Hg]]; discriminate.
+      - inversion Hit; subst. destruct Hg as [Hg|[? Hg]]; discriminate. }
+    destruct Hg1 as (Hg1 & Hnorm & Hbrk & Hret).
+    assert (Hkn' : k < n) by lia.
+    pose proof (cx_lrb _ _ _ _ _ _ _ _ _ _ HC) as HLR.
+    pose proof HLR as HLRx. rewrite Elh, Eli in HLRx.
+    destruct (LRBN_loop_inv _ _ _ _ _ _ _ _ _ _ _ _ _ _ HLRx ltac:(rewrite HlenLb, HlenL0; exact HlenCL0)) as [Hck Hci]. clear HLRx.
+    pose proof HM as HM0. rewrite app2_assoc in HM.
+    assert (Hlt : (Z.of_nat k <? Z.of_nat n)%Z = true) by (apply Z.ltb_lt; lia).
+    destruct (step2_iternext_more cf funs _ _ _ _ _ _ _ _ _ _ _ _ _ HM Hf_in Hit0 Hlt) as (m1 & A1 & B1 & C1 & D1).
+    assert (B1' : MS2 m1 fn uvec (start + 1) base frs ((CL0 ++ [ci; ch]) ++ [cn m]) HL G O).
+    { rewrite app2_assoc, <- app_assoc. exact B1. }
+    destruct (step2_setlocal cf funs _ _ _ _ _ _ _ _ _ _ _ lv B1' Hf_sl ltac:(rewrite app_length; cbn [List.length]; lia)) as (m2 & A2 & B2 & C2 & D2).
+    assert (Hnth : nth (base + lv) (CL0 ++ [ci; ch]) 0 = ci).
+    { rewrite <- HlenCL0. change [ci; ch] with ([ci] ++ [ch])%list. rewrite app_assoc, app_nth1, nth_middle; [reflexivity|rewrite app_length; cbn; lia]. }
+    rewrite Hnth in C2.
+    pose proof (m2_s _ _ _ _ _ _ _ _ _ _ HM) as SK.
+    assert (Hci_lt : ci < cn m).
+    { assert (Hin : In ci ((CL0 ++ [ci]) ++ [ch])) by (apply in_or_app; left; apply in_or_app; right; now left).
+      pose proof (s2_cl_lt _ _ _ SK _ Hin). unfold cn. exact H. }
+    assert (Hch_lt : ch < cn m).
+    { assert (Hin : In ch ((CL0 ++ [ci]) ++ [ch])) by (apply in_or_app; right; now left).
+      pose proof (s2_cl_lt _ _ _ SK _ Hin). unfold cn. exact H. }
+    assert (Hcich : ci <> ch).
+    { pose proof (s2_cl_nd _ _ _ SK) as Hnd. intro; subst ch. apply NoDup_remove_2 in Hnd. apply Hnd. rewrite app_nil_r. apply in_or_app. right. now left. }
+    assert (Htop : cv m2 (cn m) = MInt (Z.of_nat k)) by (rewrite C2, upd_other by lia; rewrite C1; apply upd_same).
+    destruct (step2_jumpifstop_no cf funs _ _ _ _ _ _ _ _ _ _ _ _ _ B2 Hf_js Htop) as (m3 & A3 & B3 & C3 & D3).
+    assert (HnH : ~ In (cn m) HL) by (apply (notin_HL_fresh _ _ _ _ _ _ _ _ _ _ (cn m) HM); lia).
+    destruct (step2_pop cf funs _ _ _ _ _ _ _ _ _ _ _ B3 Hf_p1 HnH) as (m4 & A4 & B4 & C4 & D4).
+    assert (Ecv : cv m4 = upd (upd (upd (cv m) ch (MIterV (Z.of_nat k + 1) (Z.of_nat n))) (cn m) (MInt (Z.of_nat k))) ci (MInt (Z.of_nat k))).
+    { rewrite C4, C3, C2, C1, upd_same. reflexivity. }
+    assert (Ecn : cn m4 = S (cn m)) by (rewrite D4, D3, D2, D1; reflexivity).
+    assert (HnK : ~ In (cn m) K) by (intro Hin; pose proof (sto_K_lt _ _ _ _ _ _ _ HS Hin); lia).
+    assert (ST4 : sto (ScopeLang.set_cell st c (SVInt (Z.of_nat k))) K HL (cv m4) (cn m4) G O).
+    { rewrite Ecv, Ecn. rewrite Hci. apply STON_write; [|exact Hck|constructor].
+      apply STON_temp with (cnx := cn m); [|exact HnK|lia]. apply STON_temp with (cnx := cn m); [exact HS|exact HchK|lia]. }
+    assert (HM4 : MS2 m4 fn uvec (code_size (pre1 ++ loop_head lv X)) base frs (CL0 ++ [ci; ch]) HL G O).
+    { rewrite code_size_app, Hhsz, <- Hstart. replace (start + 7) with (start + 1 + 2 + 3 + 1) by lia. exact B4. }
+    (* the body *)
+    assert (Hlc6 : LCOK (Some (mkLctx start (S d) exit)) (S (S d)) Lh (lh :: li :: Lb') (code_size (pre1 ++ loop_head lv X)) (code_size (pre1 ++ loop_head lv X) + code_size cblock)).
+    { intros l0 El0. inversion El0; subst l0. cbn [lc_depth lc_start lc_exit]. split; [lia|]. split; [rewrite code_size_app; lia|].
+      split; [rewrite code_size_app, Hhsz, <- Hstart; lia|]. unfold TIGHT, Lh. cbn [scope_end_ops l_depth]. rewrite Nat.ltb_irrefl. reflexivity. }
+    destruct (block_run fu IHL b infun true ((i, c) :: enb) envs _ st2 en2 c1 Eb Hf Lh (S d) U E fs _ _ cblock (lh :: li :: L0) U' E' fs' Hblk Hg1
+                (loop_locals_depth d i L Hdl) Hsok Hfuns (lh :: li :: Lb') Ufin Efin uvec K (CL0 ++ [ci; ch])%list HL base
+                (flags_up_trans _ _ _ HFlh HFBl) HU HF HC
+                ltac:(rewrite app_length; unfold Lh; cbn [List.length]; lia)
+                m4 fn frs G O (pre1 ++ loop_head lv X)%list ([ILoop Y; IPop] ++ post2)%list lo)
+      as (n6 & m6 & K6 & HL6 & G6 & O6 & S6 & ST6 & KX6 & HX6 & F6 & Hcn6 & Hres6); auto.
+    { rewrite Hcode. now rewrite <- !app_assoc. }
+    { rewrite code_size_app, Hhsz, Hstart. reflexivity. }
+    { lia. }
+    rewrite (mrg_same_len Lh (lh :: li :: L0) (lh :: li :: Lb')) in Hres6 by (unfold Lh; cbn [List.length]; lia).
+    rewrite (orf_up _ _ HFBl) in Hres6.
+    assert (Hst04 : steps cf funs 4 m m4).
+    { exists m1. split; [exact A1|]. exists m2. split; [exact A2|]. exists m3. split; [exact A3|]. now apply steps_one. }
+    assert (Hfr04 : forall j, j < b0 -> cv m4 j = cv m j) by (intros j Hj; rewrite Ecv, !upd_other by lia; reflexivity).
+    assert (HKX06 : KEXT K K6 (cn m) (cn m6)) by (eapply KEXT_widen; [exact KX6|lia|lia]).
+    assert (Hfr06 : forall j, j < b0 -> ~ In j K -> cv m6 j = cv m j).
+    { intros j Hj Hn. rewrite F6; [apply Hfr04; exact Hj|lia|exact Hn]. }
+    (* facts used by all the ways the body can end *)
+    assert (HcutLh : cutL (S d) Lh = Lh) by (unfold Lh; cbn [cutL l_depth]; now rewrite Nat.ltb_irrefl).
+    assert (HcutM : cutL (S d) (lh :: li :: Lb') = lh :: li :: Lb') by (rewrite Elh; cbn [cutL l_depth]; now rewrite Nat.ltb_irrefl).
+    assert (HcutE : cutE (S d) Lh ((i, c) :: enb) = (i, c) :: enb) by (unfold Lh; cbn [cutE l_depth]; now rewrite Nat.ltb_irrefl).
+    assert (HfirstAll : firstn (base + List.length Lh) (CL0 ++ [ci; ch]) = (CL0 ++ [ci; ch])%list).
+    { replace (base + List.length Lh) with (List.length (CL0 ++ [ci; ch])) by (rewrite app_length; unfold Lh; cbn [List.length]; lia). apply firstn_all. }
+    assert (HchK6 : ~ In ch K6).
+    { intro Hin. destruct (KEXT_in _ _ _ _ _ KX6 Hin) as [Hi|Hi]; [contradiction|lia]. }
+    assert (Hit6 : cv m6 ch = MIterV (Z.of_nat (S k)) (Z.of_nat n)).
+    { rewrite F6; [|lia|exact HchK]. rewrite Ecv, upd_other by (intro; apply Hcich; auto). rewrite upd_other by lia. rewrite upd_same.
+      now rewrite Nat2Z.inj_succ. }
+    (* going round: from the machine at the loop start with the frame as it was *)
+    assert (Hround : forall m7 n7, steps cf funs n7 m6 m7 -> MS2 m7 fn uvec start base frs (CL0 ++ [ci; ch]) HL6 G6 O6 -> cv m7 = cv m6 -> cn m7 = cn m6 ->
+              LRBN K6 (CL0 ++ [ci; ch]) HL6 base (lh :: li :: Lb') ((i, c) :: enb) ->
+              loop_iter fu b ((i, c) :: enb ++ List.concat envs)%list c todo (S k) st2 = (st3, ctl) ->
+              exists n' m' K' HL' G' O', steps cf funs n' m m' /\ sto st3 K' HL' (cv m') (cn m') G' O' /\ KEXT K K' (cn m) (cn m') /\
+                HEXT HL HL' lo /\ (forall j, j < b0 -> ~ In j K -> cv m' j = cv m j) /\ cn m <= cn m' /\
+                match ctl with
+                | CNorm => MS2 m' fn uvec exit base frs (CL0 ++ [ci; ch])%list HL' G' O' /\
+                           LRBN K' (CL0 ++ [ci; ch]) HL' base (lh :: li :: Lb') ((i, c) :: enb)
+                | CRet v => exists fn0 ups0 pc0 base0 frs' cres, frs = mkFrame fn0 ups0 pc0 base0 :: frs' /\
+                              MS2 m' fn0 ups0 pc0 base0 frs' (firstn base CL0 ++ [cres])%list HL' G' O' /\
+                              vrel K' HL' v (cv m' cres) /\ cn m <= cres < cn m' /\ ~ In cres K' /\ ~ In cres HL'
+                | _ => False
+                end).
+    { intros m7 n7 S7 B7 C7 D7 LR6 Hit'.
+      assert (HC6 : CTX K6 (CL0 ++ [ci; ch]) HL6 base (lh :: li :: Lb') ((i, c) :: enb) Efin envs Ufin uvec).
+      { eapply CTX_next; [exact HC|exact LR6|rewrite app_length; cbn [List.length]; lia|eapply KEXT_ext; eauto|eapply HEXT_ext; eauto]. }
+      destruct (IH (S k) st2 st3 ctl Hit' Hg ltac:(lia) K6 CL0 ci ch HL6 m7 G6 O6 B7 ltac:(rewrite C7; exact Hit6) ltac:(rewrite C7, D7; exact ST6) HC6 HlenCL0
+                  ltac:(rewrite D7; lia) HFLO Hb0i Hb0h HchK6)
+        as (n8 & m8 & K8 & HL8 & G8 & O8 & S8 & ST8 & KX8 & HX8 & F8 & Hcn8 & Hres8).
+      exists (4 + (n6 + n7) + n8), m8, K8, HL8, G8, O8.
+      split. { apply (steps_trans cf funs (4 + (n6 + n7)) n8 m m7 m8); [|exact S8]. apply (steps_trans cf funs 4 (n6 + n7) m m4 m7 Hst04).
+               exact (steps_trans cf funs n6 n7 m4 m6 m7 S6 S7). }
+      split; [exact ST8|].
+      split. { apply (KEXT_trans K K6 K8 (cn m) (cn m7) (cn m8)); [rewrite D7; exact HKX06|exact KX8|rewrite D7; lia|lia]. }
+      split; [eapply HEXT_trans; eauto|].
+      split. { intros j Hj Hn. rewrite F8; [rewrite C7; apply Hfr06; auto|exact Hj|].
+               intro Hin. destruct (KEXT_in _ _ _ _ _ KX6 Hin) as [Hi|Hi]; [contradiction|lia]. }
+      split; [rewrite D7 in Hcn8; lia|].
+      destruct ctl as [| | |w| | |]; try contradiction.
+      * exact Hres8.
+      * destruct Hres8 as (fn0 & ups0 & pc0 & base0 & frs' & cres & Q0 & Q1 & Q2 & Q3 & Q4 & Q5).
+        exists fn0, ups0, pc0, base0, frs', cres. repeat (split; [assumption|]). split; [rewrite D7 in Q3; lia|]. split; assumption. }
+    destruct c1 as [| | |w| | |]; try (destruct Hg1 as [[Hg1|[? Hg1]]|[_ [Hg1|Hg1]]]; discriminate).
+    + (* the body ended normally: Loop back *)
+      destruct Hres6 as (CL6 & enb6 & Een6 & M6 & LR6 & Len6 & Hfirst6 & HFLO6 & X6 & _).
+      assert (ECL6 : CL6 = (CL0 ++ [ci; ch])%list).
+      { assert (Hl : List.length CL6 = List.length (CL0 ++ [ci; ch])) by (rewrite Len6, app_length; cbn [List.length]; lia).
+        rewrite <- (firstn_all CL6), <- (firstn_all (CL0 ++ [ci; ch])), Hl.
+        replace (List.length (CL0 ++ [ci; ch])) with (base + List.length Lh) by (rewrite app_length; unfold Lh; cbn [List.length]; lia). exact Hfirst6. }
+      subst CL6.
+      assert (Eenb6 : enb6 = (i, c) :: enb).
+      { destruct X6 as (N6 & Ne6 & L06 & EN6 & HFl6 & -> & HNlen6 & HN6). destruct N6 as [|l6 N6].
+        - destruct Ne6; [reflexivity|discriminate].
+        - exfalso. apply (f_equal (@List.length local)) in EN6. rewrite app_length, (flags_up_length _ _ HFl6) in EN6. cbn in EN6. lia. }
+      subst enb6.
+      rewrite code_size_app, Hhsz, <- Hstart in M6.
+      destruct (step2_loop cf funs _ _ _ _ _ _ _ _ _ _ _ M6 Hf_lp) as (m7 & A7 & B7 & C7 & D7).
+      replace (start + 7 + code_size cblock + 3 - Y) with start in B7 by (rewrite HY, Hhsz; lia).
+      exact (Hround m7 1 (steps_one cf funs m6 m7 A7) B7 C7 D7 LR6 (Hnorm (or_introl eq_refl))).
+    + (* break: the machine is at the exit, the frame as at the loop start *)
+      destruct (Hbrk eq_refl) as [-> ->].
+      destruct Hres6 as (l0 & El0 & Q1 & Q2). inversion El0; subst l0. cbn [lc_exit lc_depth] in Q1, Q2.
+      rewrite HcutLh, HfirstAll in Q1, Q2. rewrite HcutM, HcutE in Q2.
+      exists (4 + n6), m6, K6, HL6, G6, O6.
+      split; [eapply steps_trans; eauto|]. split; [exact ST6|]. split; [exact HKX06|]. split; [exact HX6|]. split; [exact Hfr06|]. split; [lia|].
+      split; [exact Q1|exact Q2].
+    + (* continue: the machine is at the loop start *)
+      destruct Hres6 as (l0 & El0 & Q1 & Q2). inversion El0; subst l0. cbn [lc_start lc_depth] in Q1, Q2.
+      rewrite HcutLh, HfirstAll in Q1, Q2. rewrite HcutM, HcutE in Q2.
+      exact (Hround m6 0 (eq_refl : steps cf funs 0 m6 m6) Q1 eq_refl eq_refl Q2 (Hnorm (or_intror eq_refl))).
+    + (* return from inside the loop *)
+      destruct (Hret w eq_refl) as [-> ->].
+      destruct Hres6 as (fn0 & ups0 & pc0 & base0 & frs' & cres & Q0 & Q1 & Q2 & Q3 & Q4 & Q5).
+      exists (4 + n6), m6, K6, HL6, G6, O6.
+      split; [eapply steps_trans; eauto|]. split; [exact ST6|]. split; [exact HKX06|]. split; [exact HX6|]. split; [exact Hfr06|]. split; [lia|].
+      exists fn0, ups0, pc0, base0, frs', cres. split; [exact Q0|]. split.
+      { replace (firstn base CL0) with (firstn base (CL0 ++ [ci; ch])); [exact Q1|]. apply firstn_app_le. lia. }
+      split; [exact Q2|]. split; [lia|]. split; assumption.
+Qed.
+
+(* ------------------------------------------------------------------------------------------ *)
 (* statements *)
 
 Lemma S_step : forall fu, E_goal fu -> L_goal fu -> S_goal (S fu).
 Proof.
-  intros fu IHE IHL s infun top enb envs st st' en' ctl He Hg Hf L d U E fs code L' U' E' fs' Hc Ht Hdl Hd0 Hsok Hfuns
-         Ufin Efin uvec K CL HL base HU HF HC HlenCL m fn frs G O pre post lo Hcode Hfrs Hlo HFLO HM HS.
-  pose proof (cx_lrb _ _ _ _ _ _ _ _ _ _ HC) as HLRB.
-  pose proof (cx_len _ _ _ _ _ _ _ _ _ _ HC) as HlenC.
+  intros fu IHE IHL s infun top inloop enb envs st st' en' ctl He Hf L d U E fs pos lc code L' U' E' fs' Hc Hg Ht Hdl Hd0 Hsok Hfuns
+         Lm Ufin Efin uvec K CL HL base HFB HU HF HC HlenCL m fn frs G O pre post lo Hcode Hpos Hlc Hfrs Hlo HFLO HM HS.
   unfold RES.
-  destruct s; cbn [stmt5] in Hf; try discriminate.
+  destruct s; cbn [stmt6] in Hf; try discriminate.
   - (* SDecl *)
     cbn [exec_stmt] in He. destruct (eval_expr fu e (enb ++ List.concat envs)%list st) as [st1 rr] eqn:Ee.
-    destruct rr as [v| | |]; try (inversion He; subst; destruct Hg as [Hg|[? Hg]]; discriminate).
+    destruct rr as [v| | |]; try (inversion He; subst; destruct Hg as [[Hg|[? Hg]]|[_ [Hg|Hg]]]; discriminate).
     cbn [nstmt] in Hc. unfold declare in He. rewrite Ht in He. destruct (d =? 0) eqn:Ed.
     + (* a global *)
       destruct (nexpr cf L e U E) as [[[ce U1] E1]|] eqn:Ec; [|discriminate]. inversion Hc; subst code L' U' E' fs'. clear Hc.
-      inversion He; subst st' en' ctl. clear He Hg.
-      destruct (IHE e enb envs st st1 v Ee Hf L U E ce U1 E1 Ec Ufin Efin uvec K CL HL base HU HF HC m fn frs G O pre ([IDefineGlobal x] ++ post)%list)
+      inversion He; subst st' en' ctl. clear He Hg. rewrite ?(mrg_same L Lm HFB).
+      pose proof (cx_lrb _ _ _ _ _ _ _ _ _ _ HC) as HLRB. pose proof (cx_len _ _ _ _ _ _ _ _ _ _ HC) as HlenC.
+      destruct (IHE e enb envs st st1 v Ee Hf L U E ce U1 E1 Ec Lm Ufin Efin uvec K CL HL base HFB HU HF HC m fn frs G O pre ([IDefineGlobal x] ++ post)%list)
         as (n1 & m1 & K1 & HL1 & c1 & G1 & O1 & S1 & M1 & ST1 & KX1 & HX1 & R1 & B1 & N1 & NH1 & F1).
       { rewrite Hcode. now rewrite <- app_assoc. }
       { exact HM. }
@@ -1099,13 +1818,16 @@ Proof.
       destruct (nexpr cf (mkLocal (Some x) None false :: L) e U E) as [[[ce U1] E1]|] eqn:Ec; [|discriminate].
       inversion Hc; subst code L' U' E' fs'. clear Hc. apply (nexpr_uninit cf x e Hf) in Ec.
       unfold new_cell in He. inversion He; subst st' en' ctl. clear He Hg.
-      destruct (IHE e enb envs st st1 v Ee Hf L U E ce U1 E1 Ec Ufin Efin uvec K CL HL base HU HF HC m fn frs G O pre post Hcode HM HS)
+      rewrite (mrg_cons L _ L Lm eq_refl), (orf_up _ _ HFB).
+      pose proof (cx_lrb _ _ _ _ _ _ _ _ _ _ HC) as HLRB. pose proof (cx_len _ _ _ _ _ _ _ _ _ _ HC) as HlenC.
+      pose proof (flags_up_length _ _ HFB) as HlenLb0.
+      destruct (IHE e enb envs st st1 v Ee Hf L U E ce U1 E1 Ec Lm Ufin Efin uvec K CL HL base HFB HU HF HC m fn frs G O pre post Hcode HM HS)
         as (n1 & m1 & K1 & HL1 & c1 & G1 & O1 & S1 & M1 & ST1 & KX1 & HX1 & R1 & B1 & N1 & NH1 & F1).
-      pose proof (stn_len _ _ _ _ _ _ _ _ _ ST1) as HlenK.
+      pose proof (stn_len _ _ _ _ _ _ _ _ _ _ ST1) as HlenK.
       exists n1, m1, (K1 ++ [c1])%list, HL1, G1, O1.
       split; [exact S1|].
-      split. { apply (STON_new cf funs st1 K1 HL1 (cv m1) (cn m1) G1 O1 c1 v ST1 N1 ltac:(lia)).
-               apply (vrelN_mono cf funs K1 HL1 (K1 ++ [c1])%list HL1 _ _ R1); [eauto|exists []; now rewrite app_nil_r]. }
+      split. { apply (STON_new cf funs jumps st1 K1 HL1 (cv m1) (cn m1) G1 O1 c1 v ST1 N1 ltac:(lia)).
+               apply (vrelN_mono cf funs jumps K1 HL1 (K1 ++ [c1])%list HL1 _ _ R1); [eauto|exists []; now rewrite app_nil_r]. }
       split. { destruct KX1 as (e1 & -> & He1). exists (e1 ++ [c1])%list. rewrite <- app_assoc. split; [reflexivity|].
                intros k Hin. apply in_app_or in Hin as [Hin|[<-|[]]]; [apply He1 in Hin; lia|lia]. }
       split; [eapply HEXT_widen; eauto|]. split; [exact F1|]. split; [lia|].
@@ -1114,7 +1836,7 @@ Proof.
       { constructor.
         - apply LRBN_K with (K := K1); [|eauto]. eapply LRBN_after; eauto.
         - rewrite app_length. cbn. lia.
-        - rewrite <- HlenCL, nth_middle. unfold kc. rewrite <- HlenK, nth_middle. reflexivity.
+        - rewrite HlenLb0, <- HlenCL, nth_middle. unfold kc. rewrite <- HlenK, nth_middle. reflexivity.
         - unfold kc. rewrite <- HlenK, nth_middle. intro Hin. contradiction. }
       split; [rewrite app_length; cbn [List.length]; lia|]. split; [apply firstn_app_le; lia|].
       split; [apply FLO_snoc; [exact HFLO|lia]|].
@@ -1123,26 +1845,28 @@ Proof.
       intro Hd00. subst d. discriminate.
   - (* SAssign *)
     cbn [exec_stmt] in He. destruct (eval_expr fu e (enb ++ List.concat envs)%list st) as [st1 rr] eqn:Ee.
-    destruct rr as [v| | |]; try (inversion He; subst; destruct Hg as [Hg|[? Hg]]; discriminate).
-    destruct (write_var st1 (enb ++ List.concat envs)%list x v) as [st2|] eqn:Ew; [|inversion He; subst; destruct Hg as [Hg|[? Hg]]; discriminate].
+    destruct rr as [v| | |]; try (inversion He; subst; destruct Hg as [[Hg|[? Hg]]|[_ [Hg|Hg]]]; discriminate).
+    destruct (write_var st1 (enb ++ List.concat envs)%list x v) as [st2|] eqn:Ew; [|inversion He; subst; destruct Hg as [[Hg|[? Hg]]|[_ [Hg|Hg]]]; discriminate].
     inversion He; subst st' en' ctl. clear He Hg.
     cbn [nstmt] in Hc. destruct (rvn cf L U E x) as [[[r U0] E0]|] eqn:Er; [|discriminate].
     destruct (nexpr cf L e U0 E0) as [[[ce U1] E1]|] eqn:Ec; [|discriminate]. inversion Hc; subst code L' U' E' fs'. clear Hc.
+    rewrite ?(mrg_same L Lm HFB).
+      pose proof (cx_lrb _ _ _ _ _ _ _ _ _ _ HC) as HLRB. pose proof (cx_len _ _ _ _ _ _ _ _ _ _ HC) as HlenC.
     destruct (nexpr_ok cf e Hf _ _ _ _ _ _ Ec) as [[ext1 ->] HF1].
     destruct HU as [ext ->].
-    destruct (IHE e enb envs st st1 v Ee Hf L U0 E0 ce (U0 ++ ext1)%list E1 Ec ((U0 ++ ext1) ++ ext)%list Efin uvec K CL HL base
-                ltac:(eauto) HF HC m fn frs G O pre ([set_op r x; IPop] ++ post)%list)
+    destruct (IHE e enb envs st st1 v Ee Hf L U0 E0 ce (U0 ++ ext1)%list E1 Ec Lm ((U0 ++ ext1) ++ ext)%list Efin uvec K CL HL base
+                HFB ltac:(eauto) HF HC m fn frs G O pre ([set_op r x; IPop] ++ post)%list)
       as (n1 & m1 & K1 & HL1 & c1 & G1 & O1 & S1 & M1 & ST1 & KX1 & HX1 & R1 & B1 & N1 & NH1 & F1).
     { rewrite Hcode. now rewrite <- !app_assoc. }
     { exact HM. }
     { exact HS. }
     assert (Hfe : fetch (code_of funs fn) (code_size pre + code_size ce) = Some (set_op r x)).
     { eapply fetch_mid with (c2 := [IPop]) (post := post). exact Hcode. }
-    assert (HLR1 : LRBN K1 CL HL1 base L enb) by (rewrite <- (app_nil_r CL); eapply LRBN_after; eauto).
+    assert (HLR1 : LRBN K1 CL HL1 base Lm enb) by (rewrite <- (app_nil_r CL); eapply LRBN_after; eauto).
     unfold write_var in Ew. destruct (assoc (enb ++ List.concat envs)%list x) as [c|] eqn:Ea.
     + inversion Ew; subst st2. clear Ew.
       assert (Hw : where_is K CL HL base uvec r c).
-      { eapply resolve_cell with (enb := enb) (envs := envs) (Ufin := ((U0 ++ ext1) ++ ext)%list) (Efin := Efin); eauto.
+      { eapply resolve_cell with (Lb := Lm) (enb := enb) (envs := envs) (Ufin := ((U0 ++ ext1) ++ ext)%list) (Efin := Efin); eauto.
         - apply (cx_envs _ _ _ _ _ _ _ _ _ _ HC).
         - eapply levs_up_trans; eauto.
         - exists (ext1 ++ ext)%list. now rewrite <- !app_assoc.
@@ -1171,11 +1895,11 @@ Proof.
       split; [exact HLR1|]. split; [exact HlenCL|]. split; [reflexivity|]. split; [exact HFLO|]. split; [apply EXT2_flags, flags_up_refl|auto].
     + destruct (assoc (s_globals st1) x) as [w|] eqn:Eg; [|discriminate]. inversion Ew; subst st2. clear Ew.
       assert (r = VGlobal).
-      { eapply resolve_global with (enb := enb) (envs := envs) (Efin := Efin); eauto.
+      { eapply resolve_global with (Lb := Lm) (enb := enb) (envs := envs) (Efin := Efin); eauto.
         - apply (cx_envs _ _ _ _ _ _ _ _ _ _ HC).
         - eapply levs_up_trans; eauto. }
       subst r. cbn [set_op] in *.
-      destruct (GRN_assoc _ _ _ _ _ _ _ _ (stn_g _ _ _ _ _ _ _ _ _ ST1) Eg) as (w' & Eg' & _).
+      destruct (GRN_assoc _ _ _ _ _ _ _ _ _ (stn_g _ _ _ _ _ _ _ _ _ _ ST1) Eg) as (w' & Eg' & _).
       destruct (step2_setglobal cf funs _ _ _ _ _ _ _ _ _ _ _ _ _ M1 Hfe Eg') as (m2 & A2 & B2 & C2 & D2).
       assert (Hfe2 : fetch (code_of funs fn) (code_size pre + code_size ce + 3) = Some IPop).
       { replace (code_size pre + code_size ce + 3) with (code_size pre + code_size (ce ++ [ISetGlobal x])).
@@ -1195,14 +1919,15 @@ Proof.
       split; [exact HLR1|]. split; [exact HlenCL|]. split; [reflexivity|]. split; [exact HFLO|]. split; [apply EXT2_flags, flags_up_refl|auto].
   - (* SPrint *)
     cbn [exec_stmt] in He. destruct (eval_expr fu e (enb ++ List.concat envs)%list st) as [st1 rr] eqn:Ee.
-    destruct rr as [v| | |]; try (inversion He; subst; destruct Hg as [Hg|[? Hg]]; discriminate).
+    destruct rr as [v| | |]; try (inversion He; subst; destruct Hg as [[Hg|[? Hg]]|[_ [Hg|Hg]]]; discriminate).
     inversion He; subst st' en' ctl. clear He Hg.
     cbn [nstmt] in Hc. destruct (nexpr cf L e U E) as [[[ce U1] E1]|] eqn:Ec; [|discriminate].
-    inversion Hc; subst code L' U' E' fs'. clear Hc.
+    inversion Hc; subst code L' U' E' fs'. clear Hc. rewrite ?(mrg_same L Lm HFB).
+      pose proof (cx_lrb _ _ _ _ _ _ _ _ _ _ HC) as HLRB. pose proof (cx_len _ _ _ _ _ _ _ _ _ _ HC) as HlenC.
     assert (Hf0 : fetch (code_of funs fn) (code_size pre) = Some (IGetGlobal GPrint)) by (rewrite Hcode; apply fetch_app).
     destruct (step2_getprint cf funs _ _ _ _ _ _ _ _ _ _ HM Hf0) as (m0 & A0 & B0 & C0 & D0).
     destruct (sto_push _ _ _ _ _ _ _ _ HS C0 D0) as (S01 & S02 & S03).
-    destruct (IHE e enb envs st st1 v Ee Hf L U E ce U1 E1 Ec Ufin Efin uvec K (CL ++ [cn m])%list HL base HU HF (CTX_app _ _ _ _ _ _ _ _ _ _ _ HC)
+    destruct (IHE e enb envs st st1 v Ee Hf L U E ce U1 E1 Ec Lm Ufin Efin uvec K (CL ++ [cn m])%list HL base HFB HU HF (CTX_app _ _ _ _ _ _ _ _ _ _ _ HC)
                 m0 fn frs G O (pre ++ [IGetGlobal GPrint])%list ([ICall 1; IPop] ++ post)%list)
       as (n1 & m1 & K1 & HL1 & c1 & G1 & O1 & S1 & M1 & ST1 & KX1 & HX1 & R1 & B1 & N1 & NH1 & F1).
     { rewrite Hcode. cbn. now rewrite <- !app_assoc. }
@@ -1227,7 +1952,7 @@ Proof.
     split. { rewrite C3, D3, C2, D2.
              assert (ST1' : sto st1 K1 HL1 (upd (cv m1) (cn m) MNil) (cn m1) G1 O1) by (apply STON_temp with (cnx := cn m1); auto).
              destruct ST1' as [T1 T2 T3 T4 T5 T6]. constructor; cbn [s_cells s_globals s_out]; auto.
-             rewrite (vrelN_show _ _ _ _ _ _ R1). now rewrite T6. }
+             rewrite (vrelN_show _ _ _ _ _ _ _ R1). now rewrite T6. }
     split. { apply (KEXT_widen K K1 (cn m0) (cn m1)); auto; lia. }
     split; [eapply HEXT_widen; eauto; lia|].
     split. { intros j Hj Hn. rewrite C3, C2. rewrite upd_other by lia. rewrite F1; [rewrite C0; apply upd_other; lia|lia|exact Hn]. }
@@ -1236,17 +1961,18 @@ Proof.
     { replace (code_size pre + code_size (IGetGlobal GPrint :: ce ++ [ICall 1; IPop]))
         with (code_size (pre ++ [IGetGlobal GPrint]) + code_size ce + 2 + 1); [exact B3|].
       rewrite code_size_app. cbn [code_size isize]. rewrite code_size_app. cbn [code_size isize]. lia. }
-    split. { rewrite <- (app_nil_r CL). eapply (LRBN_after K CL HL base L enb st m fn uvec _ frs G O K1 HL1 (cn m1) []); eauto.
+    split. { rewrite <- (app_nil_r CL). eapply (LRBN_after K CL HL base Lm enb st m fn uvec _ frs G O K1 HL1 (cn m1) []); eauto.
              - apply (KEXT_widen K K1 (cn m0) (cn m1)); auto; lia.
              - eapply HEXT_widen; eauto; lia. }
     split; [exact HlenCL|]. split; [reflexivity|]. split; [exact HFLO|]. split; [apply EXT2_flags, flags_up_refl|auto].
   - (* SExpr *)
     cbn [exec_stmt] in He. destruct (eval_expr fu e (enb ++ List.concat envs)%list st) as [st1 rr] eqn:Ee.
-    destruct rr as [v| | |]; try (inversion He; subst; destruct Hg as [Hg|[? Hg]]; discriminate).
+    destruct rr as [v| | |]; try (inversion He; subst; destruct Hg as [[Hg|[? Hg]]|[_ [Hg|Hg]]]; discriminate).
     inversion He; subst st' en' ctl. clear He Hg.
     cbn [nstmt] in Hc. destruct (nexpr cf L e U E) as [[[ce U1] E1]|] eqn:Ec; [|discriminate].
-    inversion Hc; subst code L' U' E' fs'. clear Hc.
-    destruct (IHE e enb envs st st1 v Ee Hf L U E ce U1 E1 Ec Ufin Efin uvec K CL HL base HU HF HC m fn frs G O pre ([IPop] ++ post)%list)
+    inversion Hc; subst code L' U' E' fs'. clear Hc. rewrite ?(mrg_same L Lm HFB).
+      pose proof (cx_lrb _ _ _ _ _ _ _ _ _ _ HC) as HLRB. pose proof (cx_len _ _ _ _ _ _ _ _ _ _ HC) as HlenC.
+    destruct (IHE e enb envs st st1 v Ee Hf L U E ce U1 E1 Ec Lm Ufin Efin uvec K CL HL base HFB HU HF HC m fn frs G O pre ([IPop] ++ post)%list)
       as (n1 & m1 & K1 & HL1 & c1 & G1 & O1 & S1 & M1 & ST1 & KX1 & HX1 & R1 & B1 & N1 & NH1 & F1).
     { rewrite Hcode. now rewrite <- !app_assoc. }
     { exact HM. }
@@ -1268,38 +1994,11 @@ Proof.
   - (* SBlock *)
     cbn [exec_stmt] in He. destruct (exec_list fu b (enb ++ List.concat envs)%list false st) as [[st1 en1] c1] eqn:El.
     inversion He; subst st' en' c1. clear He.
-    rewrite nstmt_block in Hc. destruct (nlist cf b (S d) L U E fs) as [[[[[cb L1] U1] E1] fs1]|] eqn:Cl; [|discriminate].
-    cbv zeta in Hc. inversion Hc; subst code L' U' E' fs'. clear Hc.
-    destruct (IHL b infun false enb envs st st1 en1 ctl El Hg Hf L (S d) U E fs cb L1 U1 E1 fs1 Cl eq_refl (depth_le_S _ _ Hdl)
-                ltac:(discriminate) Hsok Hfuns Ufin Efin uvec K CL HL base HU HF HC HlenCL
-                m fn frs G O pre (scope_end_ops L1 d ++ post)%list lo)
-      as (n1 & m1 & K1 & HL1 & G1 & O1 & S1 & ST1 & KX1 & HX1 & F1 & Hcn1 & Hres); auto.
-    { rewrite Hcode. now rewrite <- app_assoc. }
-    destruct ctl as [| | |w| | |]; try contradiction.
-    + destruct Hres as (CL1 & enb1 & -> & M1 & LR1 & Len1 & Hfirst1 & HFLO1 & (N & Ne & L0 & -> & HFl & -> & HNlen & HN) & _).
-      assert (HN' : Forall (fun l => l_depth l = Some (S d)) N) by (revert HN; apply Forall_impl; intros l [A _]; exact A).
-      assert (HNn : Forall (fun l => l_name l <> None) N) by (revert HN; apply Forall_impl; intros l [_ A]; exact A).
-      pose proof (flags_up_depth_le _ _ _ HFl Hdl) as Hd0'.
-      pose proof (flags_up_length _ _ HFl) as HlenL0.
-      rewrite (scope_end_len N L0 d Hd0' HN'), skipn_app_len.
-      destruct (scope_end_run N K1 CL1 HL1 base L0 Ne enb d m1 fn uvec frs (pre ++ cb)%list post G1 O1 LR1 HNlen Len1 HN Hd0')
-        as (m2 & S2 & M2 & C2 & D2).
-      { rewrite Hcode. now rewrite <- !app_assoc. }
-      { rewrite code_size_app. exact M1. }
-      exists (n1 + List.length N), m2, K1, HL1, G1, O1.
-      split; [eapply steps_trans; eauto|]. split; [rewrite C2, D2; exact ST1|]. split; [rewrite D2; exact KX1|].
-      split; [exact HX1|].
-      split; [intros j Hj Hn; rewrite C2; apply F1; auto|]. split; [lia|].
-      exists (firstn (base + List.length L0) CL1), enb. split; [reflexivity|]. split.
-      { rewrite !code_size_app in *. rewrite Nat.add_assoc. exact M2. }
-      split.
-      { apply LRBN_drop in LR1; auto. apply LRBN_CL with (CL := CL1); [exact LR1|].
-        intros i Hi. now apply nth_firstn_lt. }
-      split. { rewrite firstn_length, Len1, app_length. lia. }
-      split. { rewrite HlenL0. rewrite firstn_firstn_le by lia. rewrite <- HlenL0 at 2. rewrite HlenL0. exact Hfirst1. }
-      split; [now apply FLO_firstn|]. split; [now apply EXT2_flags|auto].
-    + exists n1, m1, K1, HL1, G1, O1. split; [exact S1|]. split; [exact ST1|]. split; [exact KX1|]. split; [exact HX1|]. split; [exact F1|].
-      split; [lia|exact Hres].
+    rewrite nstmt_block in Hc.
+    assert (Hlc' : LCOK lc (S d) L Lm (code_size pre) (code_size pre + code_size code)).
+    { intros l El0. destruct (Hlc l El0) as (A1 & A2 & A3 & A4). repeat split; auto. }
+    exact (block_run fu IHL b infun inloop enb envs st st1 en1 ctl El Hf L d U E fs pos lc code L' U' E' fs' Hc Hg Hdl Hsok Hfuns
+             Lm Ufin Efin uvec K CL HL base HFB HU HF HC HlenCL m fn frs G O pre post lo Hcode Hpos Hlc' Hfrs Hlo HFLO HM HS).
   - (* SFun *)
     cbn [exec_stmt] in He. rewrite Ht in He.
     rewrite nstmt_fun in Hc. destruct (d =? 0) eqn:Ed.
@@ -1307,9 +2006,17 @@ Proof.
       apply Nat.eqb_eq in Ed. destruct (Hd0 Ed) as [-> ->].
       destruct (nfunc cf ps b L U E fs) as [[[[[ci L1] U1] E1] fs1]|] eqn:Ef; [|discriminate]. inversion Hc; subst code L' U' E' fs'. clear Hc.
       inversion He; subst st' en' ctl. clear He Hg.
-      assert (HLRp : LRBN K (CL ++ [cn m]) HL base L []) by (apply LRBN_CL with (CL := CL); [exact HLRB|intros i Hi; apply app_nth1; lia]).
-      destruct (closure_here K CL HL base L [] U E fs ps b ci L1 U1 E1 fs1 Ufin Efin [] uvec m fn frs G O pre ([IDefineGlobal f] ++ post)%list lo
-                  Ef Hf Hsok Hfuns HU HF (cx_envs _ _ _ _ _ _ _ _ _ _ HC) (cx_ur _ _ _ _ _ _ _ _ _ _ HC) (cx_cells _ _ _ _ _ _ _ _ _ _ HC) HLRp
+      destruct (nfunc_ok cf ps b (forallb_stmt6_stmt6u _ _ _ _ _ Hf) _ _ _ _ _ _ _ _ _ Ef) as (_ & _ & HFl0).
+      pose proof (flags_up_length _ _ HFl0) as HlenL1.
+      rewrite (mrg_same_len L L1 Lm HlenL1). set (Lb' := orf L1 Lm).
+      assert (HFB' : flags_up L1 Lb') by (eapply flags_up_orf_l; eauto).
+      assert (HFBm : flags_up Lm Lb') by (apply flags_up_orf_r; rewrite HlenL1, <- (flags_up_length _ _ HFB); reflexivity).
+      apply (fun H => CTX_flags _ _ _ _ _ _ _ _ _ _ _ H HFBm) in HC.
+      pose proof (cx_lrb _ _ _ _ _ _ _ _ _ _ HC) as HLRB. pose proof (cx_len _ _ _ _ _ _ _ _ _ _ HC) as HlenC.
+      pose proof (flags_up_length _ _ HFB') as HlenLb.
+      assert (HLRp : LRBN K (CL ++ [cn m]) HL base Lb' []) by (apply LRBN_CL with (CL := CL); [exact HLRB|intros i Hi; apply app_nth1; lia]).
+      destruct (closure_here K CL HL base L Lb' [] U E fs ps b ci L1 U1 E1 fs1 Ufin Efin [] uvec m fn frs G O pre ([IDefineGlobal f] ++ post)%list lo
+                  Ef Hf Hsok Hfuns HU HF (cx_envs _ _ _ _ _ _ _ _ _ _ HC) (cx_ur _ _ _ _ _ _ _ _ _ _ HC) (cx_cells _ _ _ _ _ _ _ _ _ _ HC) HFB' HLRp
                   ltac:(rewrite app_length; lia) HM Hcode ltac:(apply FLO_snoc; [exact HFLO|lia]))
         as (m1 & HL1 & fnc & Uv & A1 & B1 & C1 & D1 & HX1 & Hmem & Rv & LR1 & HFl).
       pose proof (m2_s _ _ _ _ _ _ _ _ _ _ HM) as SK.
@@ -1334,7 +2041,6 @@ Proof.
       split; [lia|].
       exists CL, []. split; [reflexivity|]. split.
       { replace (code_size pre + code_size [ci; IDefineGlobal f]) with (code_size pre + code_size [ci] + 3); [exact B2|]. cbn [code_size isize]. lia. }
-      pose proof (flags_up_length _ _ HFl) as HlenL1.
       split. { apply LRBN_CL with (CL := (CL ++ [cn m])%list); [exact LR1|]. intros i Hi. symmetry. apply app_nth1. lia. }
       split; [lia|]. split; [reflexivity|]. split; [exact HFLO|]. split; [now apply EXT2_flags|auto].
     + (* a local function: may call and capture itself *)
@@ -1342,26 +2048,38 @@ Proof.
       destruct (nfunc cf ps b (mkLocal (Some f) (Some d) false :: L) U E fs) as [[[[[ci L1] U1] E1] fs1]|] eqn:Ef; [|discriminate].
       inversion Hc; subst code L' U' E' fs'. clear Hc.
       unfold new_cell in He. cbn [fst snd] in He. inversion He; subst st' en' ctl. clear He Hg.
+      destruct (nfunc_ok cf ps b (forallb_stmt6_stmt6u _ _ _ _ _ Hf) _ _ _ _ _ _ _ _ _ Ef) as (_ & _ & HFl0).
+      inversion HFl0 as [|l00 l0' ? L0 (En0 & Ed0' & _) HFl']; subst. cbn in En0, Ed0'.
+      destruct l0' as [nb db bb]. cbn in En0, Ed0'. subst nb db.
+      pose proof (flags_up_length _ _ HFl') as HlenL0.
+      rewrite (mrg_cons L _ L0 Lm HlenL0). set (Lb0 := orf L0 Lm).
+      assert (HFB0 : flags_up L0 Lb0) by (eapply flags_up_orf_l; eauto).
+      assert (HFBm : flags_up Lm Lb0) by (apply flags_up_orf_r; rewrite HlenL0, <- (flags_up_length _ _ HFB); reflexivity).
+      assert (HFB' : flags_up (mkLocal (Some f) (Some d) bb :: L0) (mkLocal (Some f) (Some d) bb :: Lb0)).
+      { constructor; [repeat split; auto|exact HFB0]. }
+      pose proof (flags_up_length _ _ HFB0) as HlenLb0.
+      apply (fun H => CTX_flags _ _ _ _ _ _ _ _ _ _ _ H HFBm) in HC.
+      pose proof (cx_lrb _ _ _ _ _ _ _ _ _ _ HC) as HLRB. pose proof (cx_len _ _ _ _ _ _ _ _ _ _ HC) as HlenC.
       pose proof (m2_s _ _ _ _ _ _ _ _ _ _ HM) as SK.
-      pose proof (stn_len _ _ _ _ _ _ _ _ _ HS) as HlenK.
+      pose proof (stn_len _ _ _ _ _ _ _ _ _ _ HS) as HlenK.
       set (c := List.length (s_cells st)) in *.
       assert (HnK : ~ In (cn m) K) by (intro Hin; pose proof (sto_K_lt _ _ _ _ _ _ _ HS Hin); lia).
       assert (HnHL : ~ In (cn m) HL) by (intro Hin; pose proof (s2_hl_lt _ _ _ SK _ Hin); unfold cn in *; lia).
       assert (HK1 : exists e, (K ++ [cn m])%list = (K ++ e)%list) by eauto.
-      assert (HLR1 : LRBN (K ++ [cn m]) (CL ++ [cn m]) HL base (mkLocal (Some f) (Some d) false :: L) ((f, c) :: enb)).
+      assert (HLR1 : LRBN (K ++ [cn m]) (CL ++ [cn m]) HL base (mkLocal (Some f) (Some d) bb :: Lb0) ((f, c) :: enb)).
       { constructor.
         - apply LRBN_K with (K := K); [|exact HK1]. apply LRBN_CL with (CL := CL); [exact HLRB|intros i Hi; apply app_nth1; lia].
         - rewrite app_length. cbn. lia.
-        - unfold kc. rewrite <- HlenCL, nth_middle. rewrite <- HlenK, nth_middle. reflexivity.
+        - unfold kc. rewrite HlenLb0, HlenL0, <- HlenCL, nth_middle. rewrite <- HlenK, nth_middle. reflexivity.
         - unfold kc. rewrite <- HlenK, nth_middle. intro Hin. contradiction. }
-      destruct (closure_here (K ++ [cn m])%list CL HL base _ ((f, c) :: enb) U E fs ps b ci L1 U1 E1 fs1 Ufin Efin envs uvec m fn frs G O pre post lo
+      destruct (closure_here (K ++ [cn m])%list CL HL base (mkLocal (Some f) (Some d) false :: L) (mkLocal (Some f) (Some d) bb :: Lb0) ((f, c) :: enb)
+                  U E fs ps b ci (mkLocal (Some f) (Some d) bb :: L0) U1 E1 fs1 Ufin Efin envs uvec m fn frs G O pre post lo
                   Ef Hf Hsok Hfuns HU HF (cx_envs _ _ _ _ _ _ _ _ _ _ HC))
         as (m1 & HL1 & fnc & Uv & A1 & B1 & C1 & D1 & HX1 & Hmem & Rv & LR1 & HFl); auto.
       { eapply UR_mono; [apply (cx_ur _ _ _ _ _ _ _ _ _ _ HC)|exact HK1|exists []; now rewrite app_nil_r]. }
       { intros x0 c0 Hin. rewrite app_length. pose proof (cx_cells _ _ _ _ _ _ _ _ _ _ HC _ _ Hin). lia. }
       { rewrite app_length. cbn [List.length]. lia. }
       { apply FLO_snoc; [exact HFLO|lia]. }
-      inversion HFl as [|l0 l0' ? L0 (En0 & Ed0' & _) HFl']; subst. cbn in En0, Ed0'.
       exists 1, m1, (K ++ [cn m])%list, HL1, G, O.
       split; [now apply steps_one|].
       split.
@@ -1377,10 +2095,9 @@ Proof.
       split. { intros j Hj Hn. rewrite C1. apply upd_other. lia. }
       split; [lia|].
       exists (CL ++ [cn m])%list, ((f, c) :: enb). split; [reflexivity|]. split; [exact B1|]. split; [exact LR1|].
-      pose proof (flags_up_length _ _ HFl') as HlenL0.
       split; [rewrite app_length; cbn [List.length]; lia|]. split; [apply firstn_app_le; lia|].
       split; [apply FLO_snoc; [exact HFLO|lia]|].
-      split. { exists [l0'], [(f, c)], L0. repeat split; auto. constructor; [split; [congruence|congruence]|constructor]. }
+      split. { exists [mkLocal (Some f) (Some d) bb], [(f, c)], L0. repeat split; auto. constructor; [split; [reflexivity|discriminate]|constructor]. }
       intro Hd00. subst d. discriminate.
   - (* SLam *)
     apply andb_prop in Hf as [Hfb Hfm].
@@ -1390,9 +2107,17 @@ Proof.
       apply Nat.eqb_eq in Ed. destruct (Hd0 Ed) as [-> ->].
       destruct (nfunc cf ps b L U E fs) as [[[[[ci L1] U1] E1] fs1]|] eqn:Ef; [|discriminate]. inversion Hc; subst code L' U' E' fs'. clear Hc.
       inversion He; subst st' en' ctl. clear He Hg.
-      assert (HLRp : LRBN K (CL ++ [cn m]) HL base L []) by (apply LRBN_CL with (CL := CL); [exact HLRB|intros i Hi; apply app_nth1; lia]).
-      destruct (closure_here K CL HL base L [] U E fs ps b ci L1 U1 E1 fs1 Ufin Efin [] uvec m fn frs G O pre ([IDefineGlobal x] ++ post)%list lo
-                  Ef Hfb Hsok Hfuns HU HF (cx_envs _ _ _ _ _ _ _ _ _ _ HC) (cx_ur _ _ _ _ _ _ _ _ _ _ HC) (cx_cells _ _ _ _ _ _ _ _ _ _ HC) HLRp
+      destruct (nfunc_ok cf ps b (forallb_stmt6_stmt6u _ _ _ _ _ Hfb) _ _ _ _ _ _ _ _ _ Ef) as (_ & _ & HFl0).
+      pose proof (flags_up_length _ _ HFl0) as HlenL1.
+      rewrite (mrg_same_len L L1 Lm HlenL1). set (Lb' := orf L1 Lm).
+      assert (HFB' : flags_up L1 Lb') by (eapply flags_up_orf_l; eauto).
+      assert (HFBm : flags_up Lm Lb') by (apply flags_up_orf_r; rewrite HlenL1, <- (flags_up_length _ _ HFB); reflexivity).
+      apply (fun H => CTX_flags _ _ _ _ _ _ _ _ _ _ _ H HFBm) in HC.
+      pose proof (cx_lrb _ _ _ _ _ _ _ _ _ _ HC) as HLRB. pose proof (cx_len _ _ _ _ _ _ _ _ _ _ HC) as HlenC.
+      pose proof (flags_up_length _ _ HFB') as HlenLb.
+      assert (HLRp : LRBN K (CL ++ [cn m]) HL base Lb' []) by (apply LRBN_CL with (CL := CL); [exact HLRB|intros i Hi; apply app_nth1; lia]).
+      destruct (closure_here K CL HL base L Lb' [] U E fs ps b ci L1 U1 E1 fs1 Ufin Efin [] uvec m fn frs G O pre ([IDefineGlobal x] ++ post)%list lo
+                  Ef Hfb Hsok Hfuns HU HF (cx_envs _ _ _ _ _ _ _ _ _ _ HC) (cx_ur _ _ _ _ _ _ _ _ _ _ HC) (cx_cells _ _ _ _ _ _ _ _ _ _ HC) HFB' HLRp
                   ltac:(rewrite app_length; lia) HM Hcode ltac:(apply FLO_snoc; [exact HFLO|lia]))
         as (m1 & HL1 & fnc & Uv & A1 & B1 & C1 & D1 & HX1 & Hmem & Rv & LR1 & HFl).
       pose proof (m2_s _ _ _ _ _ _ _ _ _ _ HM) as SK.
@@ -1416,19 +2141,26 @@ Proof.
       split; [lia|].
       exists CL, []. split; [reflexivity|]. split.
       { replace (code_size pre + code_size [ci; IDefineGlobal x]) with (code_size pre + code_size [ci] + 3); [exact B2|]. cbn [code_size isize]. lia. }
-      pose proof (flags_up_length _ _ HFl) as HlenL1.
       split. { apply LRBN_CL with (CL := (CL ++ [cn m])%list); [exact LR1|]. intros i Hi. symmetry. apply app_nth1. lia. }
       split; [lia|]. split; [reflexivity|]. split; [exact HFLO|]. split; [now apply EXT2_flags|auto].
     + (* a local holding the closure *)
       cbn [orb] in Hfm. apply negb_true_iff in Hfm.
       destruct (dup_in_scope L x d); [discriminate|]. destruct (List.length L =? c_locals_max cf); [discriminate|].
       destruct (nfunc cf ps b (mkLocal (Some x) None false :: L) U E fs) as [[[[[ci L1] U1] E1] fs1]|] eqn:Ef0; [|discriminate].
-      destruct (nfunc_drop0 cf x ps b L U E fs ci L1 U1 E1 fs1 (forallb_stmt5_stmt5u _ _ _ Hfb) Hfm Ef0) as (L1' & -> & Ef).
+      destruct (nfunc_drop0 cf x ps b L U E fs ci L1 U1 E1 fs1 (forallb_stmt6_stmt6u _ _ _ _ _ Hfb) Hfm Ef0) as (L1' & -> & Ef).
       cbn [l_capt] in Hc. inversion Hc; subst code L' U' E' fs'. clear Hc.
       unfold new_cell in He. inversion He; subst st' en' ctl. clear He Hg.
-      assert (HLRp : LRBN K (CL ++ [cn m]) HL base L enb) by (apply LRBN_CL with (CL := CL); [exact HLRB|intros i Hi; apply app_nth1; lia]).
-      destruct (closure_here K CL HL base L enb U E fs ps b ci L1' U1 E1 fs1 Ufin Efin envs uvec m fn frs G O pre post lo
-                  Ef Hfb Hsok Hfuns HU HF (cx_envs _ _ _ _ _ _ _ _ _ _ HC) (cx_ur _ _ _ _ _ _ _ _ _ _ HC) (cx_cells _ _ _ _ _ _ _ _ _ _ HC) HLRp
+      destruct (nfunc_ok cf ps b (forallb_stmt6_stmt6u _ _ _ _ _ Hfb) _ _ _ _ _ _ _ _ _ Ef) as (_ & _ & HFl0).
+      pose proof (flags_up_length _ _ HFl0) as HlenL1.
+      rewrite (mrg_cons L _ L1' Lm HlenL1). set (Lb0 := orf L1' Lm).
+      assert (HFB0 : flags_up L1' Lb0) by (eapply flags_up_orf_l; eauto).
+      assert (HFBm : flags_up Lm Lb0) by (apply flags_up_orf_r; rewrite HlenL1, <- (flags_up_length _ _ HFB); reflexivity).
+      pose proof (flags_up_length _ _ HFB0) as HlenLb0.
+      apply (fun H => CTX_flags _ _ _ _ _ _ _ _ _ _ _ H HFBm) in HC.
+      pose proof (cx_lrb _ _ _ _ _ _ _ _ _ _ HC) as HLRB. pose proof (cx_len _ _ _ _ _ _ _ _ _ _ HC) as HlenC.
+      assert (HLRp : LRBN K (CL ++ [cn m]) HL base Lb0 enb) by (apply LRBN_CL with (CL := CL); [exact HLRB|intros i Hi; apply app_nth1; lia]).
+      destruct (closure_here K CL HL base L Lb0 enb U E fs ps b ci L1' U1 E1 fs1 Ufin Efin envs uvec m fn frs G O pre post lo
+                  Ef Hfb Hsok Hfuns HU HF (cx_envs _ _ _ _ _ _ _ _ _ _ HC) (cx_ur _ _ _ _ _ _ _ _ _ _ HC) (cx_cells _ _ _ _ _ _ _ _ _ _ HC) HFB0 HLRp
                   ltac:(rewrite app_length; lia) HM Hcode ltac:(apply FLO_snoc; [exact HFLO|lia]))
         as (m1 & HL1 & fnc & Uv & A1 & B1 & C1 & D1 & HX1 & Hmem & Rv & LR1 & HFl).
       pose proof (m2_s _ _ _ _ _ _ _ _ _ _ HM) as SK.
@@ -1437,8 +2169,7 @@ Proof.
         - pose proof (s2_hl_lt _ _ _ SK _ H1). unfold cn in *. lia.
         - rewrite app_nth1 in Es0 by lia. assert (Hin0 : In (cn m) CL) by (rewrite Es0; apply nth_In; lia).
           pose proof (s2_cl_lt _ _ _ SK _ Hin0). unfold cn in *. lia. }
-      pose proof (flags_up_length _ _ HFl) as HlenL1.
-      pose proof (stn_len _ _ _ _ _ _ _ _ _ HS) as HlenK.
+      pose proof (stn_len _ _ _ _ _ _ _ _ _ _ HS) as HlenK.
       assert (HnK : ~ In (cn m) K) by (intro Hin; pose proof (sto_K_lt _ _ _ _ _ _ _ HS Hin); lia).
       assert (HK1 : exists e, (K ++ [cn m])%list = (K ++ e)%list) by eauto.
       assert (ST1 : sto st K HL1 (cv m1) (cn m1) G O).
@@ -1446,8 +2177,8 @@ Proof.
         apply STON_temp with (cnx := cn m); [apply STON_HL with (HL := HL); [exact HS|eapply HEXT_ext; eauto]|exact HnK|lia]. }
       exists 1, m1, (K ++ [cn m])%list, HL1, G, O.
       split; [now apply steps_one|].
-      split. { apply (STON_new cf funs st K HL1 (cv m1) (cn m1) G O (cn m) _ ST1 HnK ltac:(lia)). rewrite C1, upd_same.
-               apply (vrelN_mono cf funs K HL1 (K ++ [cn m])%list HL1 _ _ Rv HK1). exists []. now rewrite app_nil_r. }
+      split. { apply (STON_new cf funs jumps st K HL1 (cv m1) (cn m1) G O (cn m) _ ST1 HnK ltac:(lia)). rewrite C1, upd_same.
+               apply (vrelN_mono cf funs jumps K HL1 (K ++ [cn m])%list HL1 _ _ Rv HK1). exists []. now rewrite app_nil_r. }
       split. { exists [cn m]. split; [reflexivity|]. intros k [<-|[]]. lia. }
       split; [exact HX1|].
       split. { intros j Hj Hn. rewrite C1. apply upd_other. lia. }
@@ -1457,22 +2188,448 @@ Proof.
       { constructor.
         - apply LRBN_K with (K := K); [exact LR1|exact HK1].
         - rewrite app_length. cbn. lia.
-        - rewrite HlenL1, <- HlenCL, nth_middle. unfold kc. rewrite <- HlenK, nth_middle. reflexivity.
+        - rewrite HlenLb0, HlenL1, <- HlenCL, nth_middle. unfold kc. rewrite <- HlenK, nth_middle. reflexivity.
         - unfold kc. rewrite <- HlenK, nth_middle. intro Hin. contradiction. }
       split; [rewrite app_length; cbn [List.length]; lia|]. split; [apply firstn_app_le; lia|].
       split; [apply FLO_snoc; [exact HFLO|lia]|].
       split. { exists [mkLocal (Some x) (Some d) false], [(x, List.length (s_cells st))], L1'. repeat split; auto.
                constructor; [split; [reflexivity|discriminate]|constructor]. }
       intro Hd00. subst d. discriminate.
+  - (* SLoop *)
+    rewrite exec_loop_eq in He. unfold new_cell in He.
+    set (c := List.length (s_cells st)) in *.
+    set (st1 := mkSst (s_cells st ++ [SVNil]) (s_globals st) (s_vecs st) (s_out st)) in *.
+    destruct (loop_iter fu b ((i, c) :: enb ++ List.concat envs)%list c n 0 st1) as [st3 c3] eqn:Eit.
+    inversion He; subst st' en' c3. clear He.
+    assert (Hg' : good ctl).
+    { destruct (loop_iter_res _ _ _ _ _ _ _ _ _ Eit) as [N1 N2]. destruct Hg as [Hg|[_ [Hg|Hg]]]; [exact Hg|congruence|congruence]. }
+    rewrite nstmt_loop in Hc.
+    destruct (dup_in_scope L i (S d)); [discriminate|]. destruct (List.length L =? c_locals_max cf); [discriminate|].
+    destruct (S (List.length L) =? c_locals_max cf); [discriminate|]. cbv zeta in Hc.
+    set (lv := List.length L) in *.
+    set (Lh := mkLocal None (Some (S d)) false :: mkLocal (Some i) (Some (S d)) false :: L) in *.
+    set (start := pos + code_size (loop_pre n)) in *.
+    destruct (nblk cf b (S d) Lh U E fs (start + code_size (loop_head lv 0)) (Some (mkLctx start (S d) 0))) as [[[[[c0 L00] U00] E00] fs00]|] eqn:Eb0; [|discriminate].
+    destruct (nblk cf b (S d) Lh U E fs (start + code_size (loop_head lv 0)) (Some (mkLctx start (S d) (start + code_size (loop_head lv 0) + code_size c0 + 3 + 1))))
+      as [[[[[cblock L1] U1] E1] fs1]|] eqn:Eb; [|discriminate].
+    inversion Hc; subst code L' U' E' fs'. clear Hc.
+    pose proof (forallb_stmt6_stmt6u _ _ _ _ _ Hf) as Hfu.
+    (* the size of the block does not depend on the break target *)
+    pose proof (nblk_lc_sz cf b Hfu Lh (S d) U E fs (start + code_size (loop_head lv 0)) (mkLctx start (S d) 0)
+                  (mkLctx start (S d) (start + code_size (loop_head lv 0) + code_size c0 + 3 + 1)) eq_refl) as Hsz.
+    rewrite Eb0, Eb in Hsz. cbn [nres_sz] in Hsz. destruct Hsz as (Hsz & _).
+    destruct (nblk_ok cf b Hfu _ _ _ _ _ _ _ _ _ _ _ _ Eb (loop_locals_depth d i L Hdl)) as (_ & _ & HFlh).
+    destruct (loop_scope_end d i L L1 Hdl HFlh) as (lh & li & L0 & -> & HFl0 & Hnh & Hdh & Hni & Hdi & Hops & Hsk).
+    rewrite Hsk in *. rewrite Hops in Hcode |- *.
+    pose proof (flags_up_length _ _ HFl0) as HlenL0.
+    rewrite (mrg_same_len L L0 Lm HlenL0). set (Lb' := orf L0 Lm).
+    assert (HFB' : flags_up L0 Lb') by (eapply flags_up_orf_l; eauto).
+    assert (HFBm : flags_up Lm Lb') by (apply flags_up_orf_r; rewrite HlenL0, <- (flags_up_length _ _ HFB); reflexivity).
+    pose proof (flags_up_length _ _ HFB') as HlenLb.
+    fold lv in HlenL0.
+    apply (fun H => CTX_flags _ _ _ _ _ _ _ _ _ _ _ H HFBm) in HC.
+    pose proof (cx_lrb _ _ _ _ _ _ _ _ _ _ HC) as HLRB. pose proof (cx_len _ _ _ _ _ _ _ _ _ _ HC) as HlenC.
+    assert (Elh : lh = mkLocal None (Some (S d)) (l_capt lh)) by (destruct lh as [nh dh bh]; cbn in *; congruence).
+    assert (Eli : li = mkLocal (Some i) (Some (S d)) (l_capt li)) by (destruct li as [ni di bi]; cbn in *; congruence).
+    set (X := 1 + code_size c0 + 3) in *. set (Y := code_size (loop_head lv 0) + code_size c0 + 3) in *.
+    set (oph := if l_capt lh then ICloseUpvalue else IPop) in *. set (opi := if l_capt li then ICloseUpvalue else IPop) in *.
+    assert (Hcode' : code_of funs fn = (pre ++ (loop_pre n ++ loop_head lv X ++ cblock ++ [ILoop Y; IPop] ++ [oph; opi]) ++ post)%list) by exact Hcode.
+    clear Hcode. rename Hcode' into Hcode.
+    set (pre1 := (pre ++ loop_pre n)%list).
+    assert (Hstart : start = code_size pre1) by (unfold start, pre1; rewrite Hpos, code_size_app; reflexivity).
+    (* the range, its iterator, the loop variable *)
+    assert (Hf1 : fetch (code_of funs fn) (code_size pre) = Some INil) by (rewrite Hcode; apply fetch_app).
+    destruct (step2_nil cf funs _ _ _ _ _ _ _ _ _ _ HM Hf1) as (m1 & A1 & B1 & C1 & D1).
+    assert (Hf2 : fetch (code_of funs fn) (code_size pre + 1) = Some (IConst 0)).
+    { replace (code_size pre + 1) with (code_size pre + code_size [INil]) by (cbn [code_size isize]; lia).
+      eapply fetch_mid with (c2 := ([IConst (N.of_nat n); IBuildRange; IInvoke MIter 0] ++ loop_head lv X ++ cblock ++ [ILoop Y; IPop] ++ [oph; opi])%list) (post := post). rewrite Hcode. reflexivity. }
+    destruct (step2_const cf funs _ _ _ _ _ _ _ _ _ _ _ B1 Hf2) as (m2 & A2 & B2 & C2 & D2).
+    assert (Hf3 : fetch (code_of funs fn) (code_size pre + 1 + 3) = Some (IConst (N.of_nat n))).
+    { replace (code_size pre + 1 + 3) with (code_size pre + code_size [INil; IConst 0]) by (cbn [code_size isize]; lia).
+      eapply fetch_mid with (c2 := ([IBuildRange; IInvoke MIter 0] ++ loop_head lv X ++ cblock ++ [ILoop Y; IPop] ++ [oph; opi])%list) (post := post). rewrite Hcode. reflexivity. }
+    destruct (step2_const cf funs _ _ _ _ _ _ _ _ _ _ _ B2 Hf3) as (m3 & A3 & B3 & C3 & D3).
+    assert (Hf4 : fetch (code_of funs fn) (code_size pre + 1 + 3 + 3) = Some IBuildRange).
+    { replace (code_size pre + 1 + 3 + 3) with (code_size pre + code_size [INil; IConst 0; IConst (N.of_nat n)]) by (cbn [code_size isize]; lia).
+      eapply fetch_mid with (c2 := ([IInvoke MIter 0] ++ loop_head lv X ++ cblock ++ [ILoop Y; IPop] ++ [oph; opi])%list) (post := post). rewrite Hcode. reflexivity. }
+    remember (cn m) as ci eqn:Eci in *.
+    assert (Ecn1 : cn m1 = S ci) by exact D1. assert (Ecn2 : cn m2 = S (S ci)) by (rewrite D2, D1; reflexivity).
+    assert (Ecn3 : cn m3 = S (S (S ci))) by (rewrite D3, D2, D1; reflexivity).
+    assert (B3' : MS2 m3 fn uvec (code_size pre + 1 + 3 + 3) base frs ((CL ++ [ci]) ++ [cn m1; cn m2]) HL G O).
+    { rewrite <- !app_assoc. cbn [app]. rewrite <- !app_assoc in B3. cbn [app] in B3. exact B3. }
+    assert (Hca : cv m3 (cn m1) = MInt 0) by (rewrite C3, upd_other by lia; rewrite C2; apply upd_same).
+    assert (Hcb : cv m3 (cn m2) = MInt (Z.of_nat n)) by (rewrite C3, upd_same, N_nat_Z; reflexivity).
+    assert (Hna : ~ In (cn m1) HL) by (apply (notin_HL_fresh _ _ _ _ _ _ _ _ _ _ (cn m1) HM); lia).
+    assert (Hnb : ~ In (cn m2) HL) by (apply (notin_HL_fresh _ _ _ _ _ _ _ _ _ _ (cn m2) HM); lia).
+    destruct (step2_buildrange cf funs _ _ _ _ _ _ _ _ _ _ _ _ _ _ B3' Hf4 Hca Hcb Hna Hnb) as (m4 & A4 & B4 & C4 & D4).
+    remember (cn m3) as ch eqn:Ech0 in *.
+    assert (Hf5 : fetch (code_of funs fn) (code_size pre + 1 + 3 + 3 + 1) = Some (IInvoke MIter 0)).
+    { replace (code_size pre + 1 + 3 + 3 + 1) with (code_size pre + code_size [INil; IConst 0; IConst (N.of_nat n); IBuildRange]) by (cbn [code_size isize]; lia).
+      eapply fetch_mid with (c2 := (loop_head lv X ++ cblock ++ [ILoop Y; IPop] ++ [oph; opi])%list) (post := post). rewrite Hcode. reflexivity. }
+    destruct (step2_iter cf funs _ _ _ _ _ _ _ _ _ _ _ _ _ _ B4 Hf5 ltac:(rewrite C4; apply upd_same)) as (m5 & A5 & B5 & C5 & D5).
+    assert (Ecn5 : cn m5 = S (S (S (S ci)))) by lia.
+    assert (Ech : ch = S (S (S ci))) by lia.
+    assert (Ecv5 : forall j, j < ci -> cv m5 j = cv m j).
+    { intros j Hj. rewrite C5, upd_other by lia. rewrite C4, upd_other by lia. rewrite C3, upd_other by lia. rewrite C2, upd_other by lia.
+      rewrite C1, upd_other by lia. reflexivity. }
+    assert (Ecvi : cv m5 ci = MNil).
+    { rewrite C5, upd_other by lia. rewrite C4, upd_other by lia. rewrite C3, upd_other by lia. rewrite C2, upd_other by lia. rewrite C1. apply upd_same. }
+    assert (Ecvh : cv m5 ch = MIterV (Z.of_nat 0) (Z.of_nat n)) by (rewrite C5; apply upd_same).
+    assert (B5' : MS2 m5 fn uvec (code_size pre1) base frs (CL ++ [ci; ch]) HL G O).
+    { unfold pre1. rewrite code_size_app. replace (code_size pre + code_size (loop_pre n)) with (code_size pre + 1 + 3 + 3 + 1 + 4) by (cbn; lia).
+      rewrite <- app_assoc in B5. exact B5. }
+    pose proof (stn_len _ _ _ _ _ _ _ _ _ _ HS) as HlenK.
+    assert (HnK : ~ In ci K) by (intro Hin; pose proof (stn_lt _ _ _ _ _ _ _ _ _ _ HS _ Hin); lia).
+    assert (HnHi : ~ In ci HL) by (apply (notin_HL_fresh _ _ _ _ _ _ _ _ _ _ ci HM); lia).
+    assert (HnHh : ~ In ch HL) by (apply (notin_HL_fresh _ _ _ _ _ _ _ _ _ _ ch HM); lia).
+    assert (HK1 : exists e, (K ++ [ci])%list = (K ++ e)%list) by eauto.
+    assert (ST5 : sto st1 (K ++ [ci]) HL (cv m5) (cn m5) G O).
+    { change st1 with (fst (new_cell st SVNil)). apply STON_new; [|exact HnK|lia|rewrite Ecvi; constructor].
+      destruct HS as [T1 T2 T3 T4 T5 T6]. constructor; auto.
+      - intros k0 Hin. pose proof (T3 _ Hin). lia.
+      - intros c1 Hc1. rewrite Ecv5; [apply T4; exact Hc1|]. assert (Hin : In (kc K c1) K) by (unfold kc; apply nth_In; lia). pose proof (T3 _ Hin). lia. }
+    assert (HLR5 : LRBN (K ++ [ci]) (CL ++ [ci; ch]) HL base (lh :: li :: Lb') ((i, c) :: enb)).
+    { rewrite Elh, Eli. constructor; [constructor|].
+      - apply LRBN_K with (K := K); [|exact HK1]. apply LRBN_CL with (CL := CL); [exact HLRB|intros j Hj; apply app_nth1; lia].
+      - rewrite app_length. cbn. lia.
+      - rewrite HlenLb, HlenL0, <- HlenCL. change [ci; ch] with ([ci] ++ [ch])%list. rewrite app_assoc, app_nth1, nth_middle by (rewrite app_length; cbn; lia).
+        unfold kc, c. rewrite <- HlenK, nth_middle. reflexivity.
+      - unfold kc, c. rewrite <- HlenK, nth_middle. intro Hin. contradiction.
+      - cbn [List.length]. rewrite HlenLb, HlenL0. replace (base + S lv) with (List.length (CL ++ [ci])) by (rewrite app_length; cbn [List.length]; lia).
+        change [ci; ch] with ([ci] ++ [ch])%list. rewrite app_assoc, nth_middle. intro Hin. contradiction. }
+    assert (HC5 : CTX (K ++ [ci]) (CL ++ [ci; ch]) HL base (lh :: li :: Lb') ((i, c) :: enb) Efin envs Ufin uvec).
+    { constructor.
+      - exact HLR5.
+      - rewrite app_length. cbn [List.length]. lia.
+      - apply (cx_envs _ _ _ _ _ _ _ _ _ _ HC).
+      - eapply UR_mono; [apply (cx_ur _ _ _ _ _ _ _ _ _ _ HC)|exact HK1|exists []; now rewrite app_nil_r].
+      - intros x0 c1 Hin. rewrite app_length. pose proof (cx_cells _ _ _ _ _ _ _ _ _ _ HC _ _ Hin). lia. }
+    assert (HFLO5 : FLO lo base (CL ++ [ci; ch])).
+    { change [ci; ch] with ([ci] ++ [ch])%list. rewrite app_assoc. apply FLO_snoc; [apply FLO_snoc; [exact HFLO|lia]|lia]. }
+    assert (HchK5 : ~ In ch (K ++ [ci])).
+    { intro Hin. apply in_app_or in Hin as [Hin|[Hin|[]]]; [pose proof (stn_lt _ _ _ _ _ _ _ _ _ _ HS _ Hin); lia|lia]. }
+    (* the iterations *)
+    destruct (loop_run fu IHL b infun i n d L U E fs U1 E1 fs1 cblock lh li L0 Lb' Ufin Efin uvec envs enb c base fn frs pre1 X Y ([oph; opi] ++ post)%list
+                start (start + code_size (loop_head lv 0) + code_size c0 + 3 + 1) lo ci Hf Eb Hdl Hsok Hfuns HFB' HU HF
+                ltac:(rewrite Hcode; unfold pre1; now rewrite <- !app_assoc) Hstart
+                ltac:(unfold X; rewrite Hsz; reflexivity) ltac:(unfold Y; rewrite Hsz; reflexivity)
+                ltac:(rewrite Hstart, !code_size_app, <- Hsz; unfold loop_head; cbn [code_size isize]; lia) Hfrs
+                n 0 st1 st3 ctl Eit Hg' ltac:(lia) (K ++ [ci])%list CL ci ch HL m5 G O ltac:(rewrite Hstart; exact B5') Ecvh ST5 HC5 HlenCL ltac:(lia) HFLO5
+                ltac:(lia) ltac:(lia) HchK5)
+      as (n8 & m8 & K8 & HL8 & G8 & O8 & S8 & ST8 & KX8 & HX8 & F8 & Hcn8 & Hres8).
+    assert (Hst05 : steps cf funs 5 m m5).
+    { exists m1. split; [exact A1|]. exists m2. split; [exact A2|]. exists m3. split; [exact A3|]. exists m4. split; [exact A4|]. now apply steps_one. }
+    assert (HKX : KEXT K K8 ci (cn m8)).
+    { destruct KX8 as (e8 & -> & He8). exists ([ci] ++ e8)%list. rewrite app_assoc. split; [reflexivity|].
+      intros k0 Hin. apply in_app_or in Hin as [[<-|[]]|Hin]; [lia|apply He8 in Hin; lia]. }
+    assert (HFR : forall j, j < ci -> ~ In j K -> cv m8 j = cv m j).
+    { intros j Hj Hn. rewrite F8; [apply Ecv5; exact Hj|exact Hj|]. intro Hin. apply in_app_or in Hin as [Hin|[Hin|[]]]; [contradiction|lia]. }
+    destruct ctl as [| | |w| | |]; try contradiction.
+    + destruct Hres8 as [M8 LR8].
+      (* the scope end of the loop: the hidden iterator, then the loop variable *)
+      set (exit := start + code_size (loop_head lv 0) + code_size c0 + 3 + 1) in *.
+      assert (Hexit : exit = code_size (pre1 ++ loop_head lv X ++ cblock ++ [ILoop Y; IPop])).
+      { unfold exit. rewrite Hstart, !code_size_app, <- Hsz. unfold loop_head. cbn [code_size isize]. lia. }
+      assert (Hf6 : fetch (code_of funs fn) exit = Some oph).
+      { rewrite Hexit. replace (code_size (pre1 ++ loop_head lv X ++ cblock ++ [ILoop Y; IPop])) with (code_size pre + code_size (loop_pre n ++ loop_head lv X ++ cblock ++ [ILoop Y; IPop])).
+        - eapply fetch_mid with (c2 := [opi]) (post := post). rewrite Hcode. now rewrite <- !app_assoc.
+        - symmetry. unfold pre1. rewrite <- app_assoc. apply code_size_app. }
+      assert (M8' : MS2 m8 fn uvec exit base frs ((CL ++ [ci]) ++ [ch]) HL8 G8 O8) by (rewrite <- app_assoc; exact M8).
+      assert (LR8' : LRBN K8 ((CL ++ [ci]) ++ [ch]) HL8 base (lh :: li :: Lb') ((i, c) :: enb)) by (rewrite <- app_assoc; exact LR8).
+      destruct (scope_pop1 K8 (CL ++ [ci]) ch HL8 base lh (li :: Lb') _ m8 fn uvec exit frs G8 O8 LR8'
+                  ltac:(rewrite app_length; cbn [List.length]; lia) Hf6 M8') as (m9 & A9 & B9 & C9 & D9 & LR9).
+      rewrite Hnh in LR9.
+      assert (Hf7 : fetch (code_of funs fn) (exit + 1) = Some opi).
+      { rewrite Hexit. replace (code_size (pre1 ++ loop_head lv X ++ cblock ++ [ILoop Y; IPop]) + 1) with (code_size pre + code_size (loop_pre n ++ loop_head lv X ++ cblock ++ [ILoop Y; IPop] ++ [oph])).
+        - eapply fetch_mid with (c2 := []) (post := post). rewrite Hcode. now rewrite <- !app_assoc.
+        - unfold pre1. rewrite <- !app_assoc, !code_size_app. cbn [code_size]. replace (isize oph) with 1 by (unfold oph; destruct (l_capt lh); reflexivity). lia. }
+      destruct (scope_pop1 K8 CL ci HL8 base li Lb' _ m9 fn uvec (exit + 1) frs G8 O8 LR9 ltac:(lia) Hf7 B9) as (m10 & A10 & B10 & C10 & D10 & LR10).
+      rewrite Hni in LR10. cbn [tl] in LR10.
+      exists (5 + n8 + 2), m10, K8, HL8, G8, O8.
+      split. { eapply steps_trans; [eapply steps_trans; [exact Hst05|exact S8]|]. exists m9. split; [exact A9|now apply steps_one]. }
+      split; [rewrite C10, D10, C9, D9; exact ST8|]. split; [rewrite D10, D9; exact HKX|]. split; [exact HX8|].
+      split. { intros j Hj Hn. rewrite C10, C9. apply HFR; [rewrite Eci; exact Hj|exact Hn]. }
+      split. { rewrite D10, D9. lia. }
+      exists CL, enb. split; [reflexivity|]. split.
+      { assert (Hfin : forall c00, c00 = (loop_pre n ++ loop_head lv X ++ cblock ++ [ILoop Y; IPop] ++ [oph; opi])%list -> code_size pre + code_size c00 = exit + 1 + 1).
+        { intros c00 ->. rewrite Hexit. unfold pre1. rewrite <- !app_assoc, !code_size_app. cbn [code_size].
+          replace (isize oph) with 1 by (unfold oph; destruct (l_capt lh); reflexivity). replace (isize opi) with 1 by (unfold opi; destruct (l_capt li); reflexivity). lia. }
+        match goal with |- context [code_size pre + code_size ?c00] => rewrite (Hfin c00 eq_refl) end. exact B10. }
+      split; [exact LR10|]. split; [lia|]. split; [reflexivity|]. split; [exact HFLO|]. split; [now apply EXT2_flags|auto].
+    + destruct Hres8 as (fn0 & ups0 & pc0 & base0 & frs' & cres & Q0 & Q1 & Q2 & Q3 & Q4 & Q5).
+      exists (5 + n8), m8, K8, HL8, G8, O8.
+      split; [eapply steps_trans; eauto|]. split; [exact ST8|]. split; [exact HKX|]. split; [exact HX8|].
+      split. { intros j Hj Hn. apply HFR; [rewrite Eci; exact Hj|exact Hn]. }
+      split; [lia|].
+      exists fn0, ups0, pc0, base0, frs', cres. repeat (split; [assumption|]). split; [lia|]. split; assumption.
+  - (* SIf *)
+    apply andb_prop in Hf as [Hf Hfe]. apply andb_prop in Hf as [Hf Hft]. apply andb_prop in Hf as [Hfa Hfc].
+    cbn [exec_stmt] in He.
+    destruct (eval_expr fu a (enb ++ List.concat envs)%list st) as [st1 ra] eqn:Ea.
+    destruct ra as [va| | |]; try (inversion He; subst; destruct Hg as [[Hg|[? Hg]]|[_ [Hg|Hg]]]; discriminate).
+    destruct (eval_expr fu c (enb ++ List.concat envs)%list st1) as [st2 rc] eqn:Ecx.
+    destruct rc as [vc| | |]; try (inversion He; subst; destruct Hg as [[Hg|[? Hg]]|[_ [Hg|Hg]]]; discriminate).
+    destruct va as [x| | | | |]; try (inversion He; subst; destruct Hg as [[Hg|[? Hg]]|[_ [Hg|Hg]]]; discriminate).
+    destruct vc as [y| | | | |]; try (inversion He; subst; destruct Hg as [[Hg|[? Hg]]|[_ [Hg|Hg]]]; discriminate).
+    destruct (exec_list fu (if (x <? y)%Z then t else e) (enb ++ List.concat envs)%list false st2) as [[st3 en3] c3] eqn:Eb.
+    inversion He; subst st' en' c3. clear He.
+    rewrite nstmt_if in Hc.
+    destruct (nexpr cf L a U E) as [[[ca U1] E1]|] eqn:Eca; [|discriminate].
+    destruct (nexpr cf L c U1 E1) as [[[cc U2] E2]|] eqn:Ecc; [|discriminate]. cbv zeta in Hc.
+    destruct (nblk cf t d L U2 E2 fs _ lc) as [[[[[ct L1] U3] E3] fs1]|] eqn:Et; [|discriminate].
+    destruct (nblk cf e d L1 U3 E3 fs1 _ lc) as [[[[[cel L2] U4] E4] fs2]|] eqn:Ee; [|discriminate].
+    inversion Hc; subst code L' U' E' fs'. clear Hc.
+    assert (Hcode' : code_of funs fn = (pre ++ (ca ++ cc ++ [ILess; IJumpIfFalse (1 + code_size ct + 3); IPop] ++ ct ++ [IJump (1 + code_size cel); IPop] ++ cel) ++ post)%list) by exact Hcode.
+    clear Hcode. rename Hcode' into Hcode.
+    pose proof (forallb_stmt6_stmt6u _ _ _ _ _ Hft) as Hftu. pose proof (forallb_stmt6_stmt6u _ _ _ _ _ Hfe) as Hfeu.
+    destruct (nexpr_ok cf a Hfa _ _ _ _ _ _ Eca) as [[xa ->] HFa].
+    destruct (nexpr_ok cf c Hfc _ _ _ _ _ _ Ecc) as [[xc ->] HFc].
+    destruct (nblk_ok cf t Hftu _ _ _ _ _ _ _ _ _ _ _ _ Et Hdl) as ([[xt ->] HFt] & [ft ->] & HFlt).
+    pose proof (flags_up_depth_le _ _ _ HFlt Hdl) as Hdl1.
+    destruct (nblk_ok cf e Hfeu _ _ _ _ _ _ _ _ _ _ _ _ Ee Hdl1) as ([[xe ->] HFe] & [fe ->] & HFle).
+    pose proof (flags_up_length _ _ HFlt) as HlenL1. pose proof (flags_up_length _ _ HFle) as HlenL2.
+    pose proof (flags_up_length _ _ HFB) as HlenLm.
+    rewrite (mrg_same_len L L2 Lm ltac:(now rewrite HlenL2, HlenL1)).
+    assert (HFl02 : flags_up L L2) by exact (flags_up_trans _ _ _ HFlt HFle).
+    pose proof (cx_lrb _ _ _ _ _ _ _ _ _ _ HC) as HLRB. pose proof (cx_len _ _ _ _ _ _ _ _ _ _ HC) as HlenC.
+    pose proof (nexpr_stack_ok cf a Hfa _ _ _ _ _ _ Eca Hsok) as Hsok1.
+    pose proof (nexpr_stack_ok cf c Hfc _ _ _ _ _ _ Ecc Hsok1) as Hsok2.
+    pose proof (nblk_sok_aux cf t (nlist_stack_ok cf t Hftu) _ _ _ _ _ _ _ _ _ _ _ _ Et Hsok2) as Hsok3.
+    destruct HU as [ext ->].
+    set (Ufin := (((((U ++ xa) ++ xc) ++ xt) ++ xe) ++ ext)%list) in *.
+    assert (HE4 : levs_up E4 Efin) by exact HF.
+    assert (HE3 : levs_up E3 Efin) by (eapply levs_up_trans; eauto).
+    assert (HE2 : levs_up E2 Efin) by (eapply levs_up_trans; eauto).
+    assert (HE1 : levs_up E1 Efin) by (eapply levs_up_trans; eauto).
+    (* a *)
+    destruct (IHE a enb envs st st1 (SVInt x) Ea Hfa L U E ca (U ++ xa)%list E1 Eca Lm Ufin Efin uvec K CL HL base HFB
+                ltac:(exists (((xc ++ xt) ++ xe) ++ ext)%list; unfold Ufin; now rewrite <- !app_assoc) HE1 HC
+                m fn frs G O pre ((cc ++ [ILess; IJumpIfFalse (1 + code_size ct + 3); IPop] ++ ct ++ [IJump (1 + code_size cel); IPop] ++ cel) ++ post)%list)
+      as (n1 & m1 & K1 & HL1 & c1 & G1 & O1 & S1 & M1 & ST1 & KX1 & HX1 & R1 & B1 & N1 & NH1 & F1).
+    { rewrite Hcode. now rewrite <- !app_assoc. }
+    { exact HM. }
+    { exact HS. }
+    inversion R1 as [z Hz1 Hz2| | |]; subst z.
+    assert (HC1 : CTX K1 (CL ++ [c1]) HL1 base Lm enb Efin envs Ufin uvec) by (eapply CTX_after; eauto).
+    (* c *)
+    destruct (IHE c enb envs st1 st2 (SVInt y) Ecx Hfc L (U ++ xa)%list E1 cc ((U ++ xa) ++ xc)%list E2 Ecc Lm Ufin Efin uvec K1 (CL ++ [c1])%list HL1 base HFB
+                ltac:(exists ((xt ++ xe) ++ ext)%list; unfold Ufin; now rewrite <- !app_assoc) HE2 HC1
+                m1 fn frs G1 O1 (pre ++ ca)%list (([ILess; IJumpIfFalse (1 + code_size ct + 3); IPop] ++ ct ++ [IJump (1 + code_size cel); IPop] ++ cel) ++ post)%list)
+      as (n2 & m2 & K2 & HL2 & c2 & G2 & O2 & S2 & M2 & ST2 & KX2 & HX2 & R2 & B2 & N2 & NH2 & F2).
+    { rewrite Hcode. now rewrite <- !app_assoc. }
+    { rewrite code_size_app. exact M1. }
+    { exact ST1. }
+    inversion R2 as [z Hz3 Hz4| | |]; subst z.
+    rewrite <- app_assoc in M2. cbn [app] in M2.
+    (* Less *)
+    set (pre2 := ((pre ++ ca) ++ cc)%list).
+    assert (Hcode2 : code_of funs fn = (pre2 ++ [ILess; IJumpIfFalse (1 + code_size ct + 3); IPop] ++ ct ++ [IJump (1 + code_size cel); IPop] ++ cel ++ post)%list).
+    { rewrite Hcode. unfold pre2. now rewrite <- !app_assoc. }
+    assert (Hpc2 : code_size (pre ++ ca) + code_size cc = code_size pre2) by (unfold pre2; now rewrite !code_size_app).
+    rewrite Hpc2 in M2.
+    assert (Hfe1 : fetch (code_of funs fn) (code_size pre2) = Some ILess) by (rewrite Hcode2; apply fetch_app).
+    assert (Hc1v : cv m2 c1 = MInt x) by (rewrite F2; [congruence|lia|exact N1]).
+    assert (Hh1 : ~ In c1 HL2) by (apply (notin_HEXT HL1 HL2 (cn m1) c1 NH1 HX2); lia).
+    destruct (step2_less cf funs _ _ _ _ _ _ _ _ _ _ _ _ _ _ M2 Hfe1 Hc1v (eq_sym Hz4) Hh1 NH2) as (m3 & A3 & B3 & C3 & D3).
+    destruct (sto_push _ _ _ _ _ _ _ _ ST2 C3 D3) as (S31 & S32 & S33).
+    assert (HnH3 : ~ In (cn m2) HL2) by (apply (notin_HL_fresh _ _ _ _ _ _ _ _ _ _ (cn m2) M2); lia).
+    (* JumpIfFalse *)
+    assert (Hfe2 : fetch (code_of funs fn) (code_size pre2 + 1) = Some (IJumpIfFalse (1 + code_size ct + 3))).
+    { replace (code_size pre2 + 1) with (code_size pre2 + code_size [ILess]) by reflexivity.
+      eapply fetch_mid with (c2 := (IPop :: ct ++ [IJump (1 + code_size cel); IPop] ++ cel)%list) (post := post).
+      rewrite Hcode2. cbn. now rewrite <- !app_assoc. }
+    assert (Hbv : cv m3 (cn m2) = MBool (x <? y)%Z) by (rewrite C3; apply upd_same).
+    destruct (step2_jumpiffalse cf funs _ _ _ _ _ _ _ _ _ _ _ _ _ B3 Hfe2 Hbv) as (m4 & A4 & B4 & C4 & D4).
+    (* common bookkeeping *)
+    assert (Hcn12 : cn m <= cn m1 /\ cn m1 <= cn m2) by lia.
+    assert (HKX2 : KEXT K K2 (cn m) (cn m2)) by (apply (KEXT_trans K K1 K2 (cn m) (cn m1) (cn m2)); auto; lia).
+    assert (HHX2 : HEXT HL HL2 (cn m)) by (eapply HEXT_trans; eauto; lia).
+    assert (ST4 : sto st2 K2 HL2 (cv m4) (cn m4) G2 O2) by (rewrite C4, D4; exact S31).
+    assert (HnK3 : ~ In (cn m2) K2) by exact S32.
+    assert (HC2 : CTX K2 CL HL2 base Lm enb Efin envs Ufin uvec).
+    { rewrite <- (app_nil_r CL). eapply CTX_after; eauto. }
+    assert (HF04 : FRAMEC m m4 K).
+    { intros j Hj Hn. rewrite C4, C3, upd_other by lia. rewrite F2; [apply F1; auto|lia|].
+      intro Hin. destruct (KEXT_in _ _ _ _ _ KX1 Hin) as [Hi|Hi]; [contradiction|lia]. }
+    assert (Hsz3 : code_size [ILess; IJumpIfFalse (1 + code_size ct + 3); IPop] = 5) by reflexivity.
+    assert (Hpost : pos + code_size ca + code_size cc + code_size [ILess; IJumpIfFalse 0; IPop] = code_size (pre2 ++ [ILess; IJumpIfFalse (1 + code_size ct + 3); IPop])).
+    { rewrite Hpos. unfold pre2. rewrite !code_size_app. cbn [code_size isize]. lia. }
+    assert (Hfin : forall c0, c0 = (ca ++ cc ++ [ILess; IJumpIfFalse (1 + code_size ct + 3); IPop] ++ ct ++ [IJump (1 + code_size cel); IPop] ++ cel)%list ->
+                   code_size pre + code_size c0 = code_size pre2 + 5 + code_size ct + 4 + code_size cel).
+    { intros c0 ->. unfold pre2. rewrite !code_size_app. cbn [code_size isize]. lia. }
+    assert (Hlcf : forall l, lc = Some l -> lc_depth l < d /\ lc_start l <= code_size pre /\ code_size pre2 + 5 + code_size ct + 4 + code_size cel <= lc_exit l /\ TIGHT (lc_depth l) L Lm).
+    { intros l El0. destruct (Hlc l El0) as (W1 & W2 & W3 & W4). match type of W3 with code_size pre + code_size ?c0 <= _ => rewrite (Hfin c0 eq_refl) in W3 end. auto. }
+    match goal with |- context [code_size pre + code_size ?c0] => rewrite (Hfin c0 eq_refl) end.
+    assert (Hpre2 : code_size pre <= code_size pre2) by (unfold pre2; rewrite !code_size_app; lia).
+    (* the flags: the final ones dominate what either branch produces *)
+    set (Lb' := orf L2 Lm).
+    assert (Hup1 : flags_up (orf L1 Lm) Lb') by (apply orf_mono; exact HFle).
+    destruct (x <? y)%Z eqn:Exy.
+    + (* then *)
+      assert (Hfe3 : fetch (code_of funs fn) (code_size pre2 + 1 + 3) = Some IPop).
+      { replace (code_size pre2 + 1 + 3) with (code_size pre2 + code_size [ILess; IJumpIfFalse (1 + code_size ct + 3)]) by (cbn; lia).
+        eapply fetch_mid with (c2 := (ct ++ [IJump (1 + code_size cel); IPop] ++ cel)%list) (post := post).
+        rewrite Hcode2. cbn. now rewrite <- !app_assoc. }
+      destruct (step2_pop cf funs _ _ _ _ _ _ _ _ _ _ _ B4 Hfe3 HnH3) as (m5 & A5 & B5 & C5 & D5).
+      assert (ST5 : sto st2 K2 HL2 (cv m5) (cn m5) G2 O2) by (rewrite C5, D5; exact ST4).
+      assert (HM5 : MS2 m5 fn uvec (code_size (pre2 ++ [ILess; IJumpIfFalse (1 + code_size ct + 3); IPop])) base frs CL HL2 G2 O2).
+      { rewrite code_size_app, Hsz3. replace (code_size pre2 + 5) with (code_size pre2 + 1 + 3 + 1) by lia. exact B5. }
+      assert (Hlct : LCOK lc (S d) L Lm (code_size (pre2 ++ [ILess; IJumpIfFalse (1 + code_size ct + 3); IPop]))
+                       (code_size (pre2 ++ [ILess; IJumpIfFalse (1 + code_size ct + 3); IPop]) + code_size ct)).
+      { intros l El0. destruct (Hlcf l El0) as (W1 & W2 & W3 & W4). rewrite code_size_app, Hsz3. repeat split; auto; lia. }
+      destruct (block_run fu IHL t infun inloop enb envs st2 st3 en3 ctl Eb Hft L d _ E2 fs _ lc ct L1 _ E3 _ Et Hg Hdl Hsok2
+                  ltac:(destruct Hfuns as [e0 ->]; exists (fe ++ e0)%list; now rewrite <- app_assoc)
+                  Lm Ufin Efin uvec K2 CL HL2 base HFB ltac:(exists (xe ++ ext)%list; unfold Ufin; now rewrite <- !app_assoc) HE3 HC2 HlenCL
+                  m5 fn frs G2 O2 (pre2 ++ [ILess; IJumpIfFalse (1 + code_size ct + 3); IPop])%list (([IJump (1 + code_size cel); IPop] ++ cel) ++ post)%list lo)
+        as (n6 & m6 & K6 & HL6 & G6 & O6 & S6 & ST6 & KX6 & HX6 & F6 & Hcn6 & Hres6); auto.
+      { rewrite Hcode2. now rewrite <- !app_assoc. }
+      { rewrite D5, D4, D3. lia. }
+      rewrite (mrg_same_len L L1 Lm HlenL1) in Hres6.
+      assert (Hst05 : steps cf funs (n1 + (n2 + 3)) m m5).
+      { apply (steps_trans cf funs n1 _ m m1 m5 S1). apply (steps_trans cf funs n2 3 m1 m2 m5 S2).
+        exists m3. split; [exact A3|]. exists m4. split; [exact A4|]. now apply steps_one. }
+      assert (Hcn5 : cn m5 = S (cn m2)) by (rewrite D5, D4, D3; reflexivity).
+      assert (HF05 : FRAMEC m m5 K) by (intros j Hj Hn; rewrite C5; apply HF04; auto).
+      assert (HKX6 : KEXT K K6 (cn m) (cn m6)).
+      { apply (KEXT_trans K K2 K6 (cn m) (cn m5) (cn m6)); [eapply KEXT_widen; [exact HKX2|lia|lia]|exact KX6|lia|lia]. }
+      assert (HHX6 : HEXT HL HL6 lo) by (eapply HEXT_trans; [eapply HEXT_widen; [exact HHX2|exact Hlo]|exact HX6|lia]).
+      assert (HF06 : FRAMEC m m6 K).
+      { apply (FRAMEC_trans m m5 m6 K K2 HF05 F6); [lia|]. intros j Hin. exact (KEXT_in _ _ _ _ _ HKX2 Hin). }
+      destruct ctl as [| | |w| | |]; try (destruct Hg as [[Hg|[? Hg]]|[_ [Hg|Hg]]]; discriminate).
+      * destruct Hres6 as (CL6 & enb6 & Een & M6 & LR6 & Len6 & Hfirst6 & HFLO6 & X6 & Y6).
+        (* the jump over the else branch *)
+        assert (Hfe7 : fetch (code_of funs fn) (code_size (pre2 ++ [ILess; IJumpIfFalse (1 + code_size ct + 3); IPop]) + code_size ct) = Some (IJump (1 + code_size cel))).
+        { eapply fetch_mid with (c2 := (IPop :: cel)%list) (post := post). rewrite Hcode2. now rewrite <- !app_assoc. }
+        destruct (step2_jump cf funs _ _ _ _ _ _ _ _ _ _ _ M6 Hfe7) as (m7 & A7 & B7 & C7 & D7).
+        exists (n1 + (n2 + 3) + n6 + 1), m7, K6, HL6, G6, O6.
+        split. { eapply steps_trans; [eapply steps_trans; eauto|now apply steps_one]. }
+        split; [rewrite C7, D7; exact ST6|]. split; [rewrite D7; exact HKX6|]. split; [exact HHX6|].
+        split; [intros j Hj Hn; rewrite C7; apply HF06; auto|]. split; [lia|].
+        exists CL6, enb6. split; [exact Een|]. split.
+        { replace (code_size pre2 + 5 + code_size ct + 4 + code_size cel)
+            with (code_size (pre2 ++ [ILess; IJumpIfFalse (1 + code_size ct + 3); IPop]) + code_size ct + 3 + (1 + code_size cel)); [exact B7|].
+          rewrite code_size_app, Hsz3. lia. }
+        split; [eapply LRBN_flags; [exact LR6|exact Hup1]|]. split; [rewrite Len6; lia|]. split; [exact Hfirst6|]. split; [exact HFLO6|].
+        split; [|exact Y6].
+        destruct X6 as (N6 & Ne6 & L06 & EN6 & HFl6 & -> & HNlen6 & HN6).
+        destruct N6 as [|l6 N6].
+        -- destruct Ne6; [|discriminate]. cbn [app] in *. apply EXT2_flags. exact HFl02.
+        -- exfalso. apply (f_equal (@List.length local)) in EN6. rewrite app_length, (flags_up_length _ _ HFl6) in EN6. cbn in EN6. lia.
+      * destruct Hres6 as (l & El0 & Q1 & Q2).
+        exists (n1 + (n2 + 3) + n6), m6, K6, HL6, G6, O6. split; [eapply steps_trans; eauto|]. split; [exact ST6|]. split; [exact HKX6|].
+        split; [exact HHX6|]. split; [exact HF06|]. split; [lia|].
+        exists l. split; [exact El0|]. split; [exact Q1|]. eapply LRBN_flags; [exact Q2|]. apply cutL_flags. exact Hup1.
+      * destruct Hres6 as (l & El0 & Q1 & Q2).
+        exists (n1 + (n2 + 3) + n6), m6, K6, HL6, G6, O6. split; [eapply steps_trans; eauto|]. split; [exact ST6|]. split; [exact HKX6|].
+        split; [exact HHX6|]. split; [exact HF06|]. split; [lia|].
+        exists l. split; [exact El0|]. split; [exact Q1|]. eapply LRBN_flags; [exact Q2|]. apply cutL_flags. exact Hup1.
+      * exists (n1 + (n2 + 3) + n6), m6, K6, HL6, G6, O6. split; [eapply steps_trans; eauto|]. split; [exact ST6|]. split; [exact HKX6|].
+        split; [exact HHX6|]. split; [exact HF06|]. split; [lia|].
+        destruct Hres6 as (fn0 & ups0 & pc0 & base0 & frs' & cres & Q0 & Q1 & Q2 & Q3 & Q4 & Q5).
+        exists fn0, ups0, pc0, base0, frs', cres. repeat (split; [assumption|]). split; [lia|]. split; assumption.
+    + (* else *)
+      assert (Hfe3 : fetch (code_of funs fn) (code_size pre2 + 1 + 3 + (1 + code_size ct + 3)) = Some IPop).
+      { replace (code_size pre2 + 1 + 3 + (1 + code_size ct + 3))
+          with (code_size pre2 + code_size ([ILess; IJumpIfFalse (1 + code_size ct + 3); IPop] ++ ct ++ [IJump (1 + code_size cel)])).
+        - eapply fetch_mid with (c2 := cel) (post := post). rewrite Hcode2. now rewrite <- !app_assoc.
+        - rewrite !code_size_app. cbn [code_size isize]. lia. }
+      destruct (step2_pop cf funs _ _ _ _ _ _ _ _ _ _ _ B4 Hfe3 HnH3) as (m5 & A5 & B5 & C5 & D5).
+      assert (ST5 : sto st2 K2 HL2 (cv m5) (cn m5) G2 O2) by (rewrite C5, D5; exact ST4).
+      set (pre3 := (pre2 ++ [ILess; IJumpIfFalse (1 + code_size ct + 3); IPop] ++ ct ++ [IJump (1 + code_size cel); IPop])%list).
+      assert (Hsz3' : code_size pre3 = code_size pre2 + 5 + code_size ct + 4) by (unfold pre3; rewrite !code_size_app; cbn [code_size isize]; lia).
+      assert (HM5 : MS2 m5 fn uvec (code_size pre3) base frs CL HL2 G2 O2).
+      { rewrite Hsz3'. replace (code_size pre2 + 5 + code_size ct + 4) with (code_size pre2 + 1 + 3 + (1 + code_size ct + 3) + 1) by lia. exact B5. }
+      (* the static locals of the else block carry the flags raised by compiling the then block *)
+      set (Lm1 := orf L1 Lm).
+      assert (HFB1 : flags_up L1 Lm1) by (eapply flags_up_orf_l; eauto).
+      assert (HFBm1 : flags_up Lm Lm1) by (apply flags_up_orf_r; rewrite HlenL1, HlenLm; reflexivity).
+      pose proof (CTX_flags _ _ _ _ _ _ _ _ _ _ _ HC2 HFBm1) as HC2'.
+      assert (Hlce : LCOK lc (S d) L1 Lm1 (code_size pre3) (code_size pre3 + code_size cel)).
+      { intros l El0. destruct (Hlcf l El0) as (W1 & W2 & W3 & W4). rewrite Hsz3'. split; [lia|]. split; [lia|]. split; [lia|].
+        exact (TIGHT_orf _ _ _ _ W4 HFlt HFB). }
+      destruct (block_run fu IHL e infun inloop enb envs st2 st3 en3 ctl Eb Hfe L1 d _ E3 _ _ lc cel L2 _ E4 _ Ee Hg Hdl1 Hsok3 Hfuns
+                  Lm1 Ufin Efin uvec K2 CL HL2 base HFB1 ltac:(exists ext; reflexivity) HE4 HC2' ltac:(rewrite HlenL1; exact HlenCL)
+                  m5 fn frs G2 O2 pre3 post lo)
+        as (n6 & m6 & K6 & HL6 & G6 & O6 & S6 & ST6 & KX6 & HX6 & F6 & Hcn6 & Hres6); auto.
+      { rewrite Hcode2. unfold pre3. now rewrite <- !app_assoc. }
+      { rewrite Hsz3', Hpost, code_size_app, Hsz3. cbn [code_size isize]. lia. }
+      { rewrite D5, D4, D3. lia. }
+      rewrite (mrg_same_len L1 L2 Lm1 HlenL2) in Hres6. unfold Lm1 in Hres6. rewrite (orf_orf _ _ Lm HFle) in Hres6. fold Lb' in Hres6.
+      assert (Hst05 : steps cf funs (n1 + (n2 + 3)) m m5).
+      { apply (steps_trans cf funs n1 _ m m1 m5 S1). apply (steps_trans cf funs n2 3 m1 m2 m5 S2).
+        exists m3. split; [exact A3|]. exists m4. split; [exact A4|]. now apply steps_one. }
+      assert (Hcn5 : cn m5 = S (cn m2)) by (rewrite D5, D4, D3; reflexivity).
+      assert (HF05 : FRAMEC m m5 K) by (intros j Hj Hn; rewrite C5; apply HF04; auto).
+      assert (HKX6 : KEXT K K6 (cn m) (cn m6)).
+      { apply (KEXT_trans K K2 K6 (cn m) (cn m5) (cn m6)); [eapply KEXT_widen; [exact HKX2|lia|lia]|exact KX6|lia|lia]. }
+      assert (HHX6 : HEXT HL HL6 lo) by (eapply HEXT_trans; [eapply HEXT_widen; [exact HHX2|exact Hlo]|exact HX6|lia]).
+      assert (HF06 : FRAMEC m m6 K).
+      { apply (FRAMEC_trans m m5 m6 K K2 HF05 F6); [lia|]. intros j Hin. exact (KEXT_in _ _ _ _ _ HKX2 Hin). }
+      exists (n1 + (n2 + 3) + n6), m6, K6, HL6, G6, O6.
+      split; [eapply steps_trans; eauto|]. split; [exact ST6|]. split; [exact HKX6|].
+      split; [exact HHX6|]. split; [exact HF06|]. split; [lia|].
+      destruct ctl as [| | |w| | |]; try (destruct Hg as [[Hg|[? Hg]]|[_ [Hg|Hg]]]; discriminate).
+      * destruct Hres6 as (CL6 & enb6 & Een & M6 & LR6 & Len6 & Hfirst6 & HFLO6 & X6 & Y6).
+        exists CL6, enb6. split; [exact Een|]. split.
+        { rewrite Hsz3' in M6. exact M6. }
+        split; [exact LR6|]. split; [exact Len6|]. split; [rewrite <- HlenL1; exact Hfirst6|]. split; [exact HFLO6|].
+        split; [|exact Y6].
+        destruct X6 as (N6 & Ne6 & L06 & EN6 & HFl6 & -> & HNlen6 & HN6).
+        destruct N6 as [|l6 N6].
+        -- destruct Ne6; [|discriminate]. cbn [app] in *. apply EXT2_flags. exact HFl02.
+        -- exfalso. apply (f_equal (@List.length local)) in EN6. rewrite app_length, (flags_up_length _ _ HFl6) in EN6. cbn in EN6. lia.
+      * destruct Hres6 as (l & El0 & Q1 & Q2). exists l. split; [exact El0|].
+        rewrite (cutL_length_flags (lc_depth l) _ _ HFlt) in Q1, Q2. rewrite <- (cutE_flags (lc_depth l) _ _ enb HFlt) in Q2. split; [exact Q1|exact Q2].
+      * destruct Hres6 as (l & El0 & Q1 & Q2). exists l. split; [exact El0|].
+        rewrite (cutL_length_flags (lc_depth l) _ _ HFlt) in Q1, Q2. rewrite <- (cutE_flags (lc_depth l) _ _ enb HFlt) in Q2. split; [exact Q1|exact Q2].
+      * destruct Hres6 as (fn0 & ups0 & pc0 & base0 & frs' & cres & Q0 & Q1 & Q2 & Q3 & Q4 & Q5).
+        exists fn0, ups0, pc0, base0, frs', cres. repeat (split; [assumption|]). split; [lia|]. split; assumption.
+  - (* SBreak *)
+    cbn [exec_stmt] in He. inversion He; subst st' en' ctl. clear He.
+    cbn [nstmt] in Hc. destruct lc as [l|]; [|discriminate]. cbv zeta in Hc. inversion Hc; subst code L' U' E' fs'. clear Hc.
+    rewrite (mrg_same L Lm HFB).
+    destruct (Hlc l eq_refl) as (W1 & W2 & W3 & W4).
+    pose proof (cx_lrb _ _ _ _ _ _ _ _ _ _ HC) as HLRB.
+    set (ops := scope_end_ops L (lc_depth l)) in *. set (o := lc_exit l - (pos + code_size ops + 3)) in *.
+    destruct (scope_cut_run (lc_depth l) L K CL HL base Lm enb m fn uvec frs pre ([IJump o] ++ post)%list G O HLRB HFB W4 HlenCL
+                ltac:(fold ops; rewrite Hcode; now rewrite <- app_assoc) HM) as (m1 & S1 & M1 & C1 & D1 & LR1).
+    fold ops in S1, M1.
+    assert (Hfe : fetch (code_of funs fn) (code_size pre + code_size ops) = Some (IJump o)).
+    { eapply fetch_mid with (c2 := []) (post := post). exact Hcode. }
+    destruct (step2_jump cf funs _ _ _ _ _ _ _ _ _ _ _ M1 Hfe) as (m2 & A2 & B2 & C2 & D2).
+    rewrite code_size_app in W3. cbn [code_size isize] in W3.
+    replace (code_size pre + code_size ops + 3 + o) with (lc_exit l) in B2 by (unfold o; rewrite Hpos; lia).
+    exists (List.length ops + 1), m2, K, HL, G, O.
+    split; [eapply steps_trans; [exact S1|now apply steps_one]|]. split; [rewrite C2, D2, C1, D1; exact HS|].
+    split; [rewrite D2, D1; apply KEXT_refl|]. split; [apply HEXT_refl|]. split; [intros j Hj Hn; rewrite C2, C1; reflexivity|]. split; [lia|].
+    exists l. split; [reflexivity|]. split; [exact B2|exact LR1].
+  - (* SContinue *)
+    cbn [exec_stmt] in He. inversion He; subst st' en' ctl. clear He.
+    cbn [nstmt] in Hc. destruct lc as [l|]; [|discriminate]. cbv zeta in Hc. inversion Hc; subst code L' U' E' fs'. clear Hc.
+    rewrite (mrg_same L Lm HFB).
+    destruct (Hlc l eq_refl) as (W1 & W2 & W3 & W4).
+    pose proof (cx_lrb _ _ _ _ _ _ _ _ _ _ HC) as HLRB.
+    set (ops := scope_end_ops L (lc_depth l)) in *. set (o := pos + code_size ops + 3 - lc_start l) in *.
+    destruct (scope_cut_run (lc_depth l) L K CL HL base Lm enb m fn uvec frs pre ([ILoop o] ++ post)%list G O HLRB HFB W4 HlenCL
+                ltac:(fold ops; rewrite Hcode; now rewrite <- app_assoc) HM) as (m1 & S1 & M1 & C1 & D1 & LR1).
+    fold ops in S1, M1.
+    assert (Hfe : fetch (code_of funs fn) (code_size pre + code_size ops) = Some (ILoop o)).
+    { eapply fetch_mid with (c2 := []) (post := post). exact Hcode. }
+    destruct (step2_loop cf funs _ _ _ _ _ _ _ _ _ _ _ M1 Hfe) as (m2 & A2 & B2 & C2 & D2).
+    replace (code_size pre + code_size ops + 3 - o) with (lc_start l) in B2 by (unfold o; rewrite Hpos; lia).
+    exists (List.length ops + 1), m2, K, HL, G, O.
+    split; [eapply steps_trans; [exact S1|now apply steps_one]|]. split; [rewrite C2, D2, C1, D1; exact HS|].
+    split; [rewrite D2, D1; apply KEXT_refl|]. split; [apply HEXT_refl|]. split; [intros j Hj Hn; rewrite C2, C1; reflexivity|]. split; [lia|].
+    exists l. split; [reflexivity|]. split; [exact B2|exact LR1].
   - (* SReturn *)
     apply andb_prop in Hf as [Hfi Hf]. subst infun.
     destruct frs as [|[fn0 ups0 pc0 base0] frs']; [exfalso; now apply (Hfrs eq_refl)|].
     cbn [exec_stmt] in He. destruct (eval_expr fu e (enb ++ List.concat envs)%list st) as [st1 rr] eqn:Ee.
-    destruct rr as [v| | |]; try (inversion He; subst; destruct Hg as [Hg|[? Hg]]; discriminate).
+    destruct rr as [v| | |]; try (inversion He; subst; destruct Hg as [[Hg|[? Hg]]|[_ [Hg|Hg]]]; discriminate).
     inversion He; subst st' en' ctl. clear He Hg.
     cbn [nstmt] in Hc. destruct (nexpr cf L e U E) as [[[ce U1] E1]|] eqn:Ec; [|discriminate].
-    inversion Hc; subst code L' U' E' fs'. clear Hc.
-    destruct (IHE e enb envs st st1 v Ee Hf L U E ce U1 E1 Ec Ufin Efin uvec K CL HL base HU HF HC m fn (mkFrame fn0 ups0 pc0 base0 :: frs') G O pre ([IReturn] ++ post)%list)
+    inversion Hc; subst code L' U' E' fs'. clear Hc. rewrite ?(mrg_same L Lm HFB).
+      pose proof (cx_lrb _ _ _ _ _ _ _ _ _ _ HC) as HLRB. pose proof (cx_len _ _ _ _ _ _ _ _ _ _ HC) as HlenC.
+    destruct (IHE e enb envs st st1 v Ee Hf L U E ce U1 E1 Ec Lm Ufin Efin uvec K CL HL base HFB HU HF HC m fn (mkFrame fn0 ups0 pc0 base0 :: frs') G O pre ([IReturn] ++ post)%list)
       as (n1 & m1 & K1 & HL1 & c1 & G1 & O1 & S1 & M1 & ST1 & KX1 & HX1 & R1 & B1 & N1 & NH1 & F1).
     { rewrite Hcode. now rewrite <- !app_assoc. }
     { exact HM. }
@@ -1493,45 +2650,77 @@ Proof.
 Qed.
 
 
+Lemma cutL_mrg_up : forall dl d L1 L2 Lm1, lext d L1 L2 -> dl < d -> flags_up L1 Lm1 ->
+  flags_up (cutL dl Lm1) (cutL dl (mrg L1 L2 Lm1)).
+Proof.
+  intros dl d L1 L2 Lm1 (N & L0 & -> & F & D) Hd HF. rewrite (mrg_lext L1 N L0 Lm1 (flags_up_length _ _ F)).
+  rewrite (cutL_app_deeper dl N _ (Forall_deeper_d dl d N Hd D)). apply cutL_flags. apply flags_up_orf_r.
+  rewrite (flags_up_length _ _ F), <- (flags_up_length _ _ HF). reflexivity.
+Qed.
+
+Lemma cut_ext2 : forall dl d L enb L1 enb1, EXT2 d L enb L1 enb1 -> dl < d ->
+  List.length (cutL dl L1) = List.length (cutL dl L) /\ cutE dl L1 enb1 = cutE dl L enb.
+Proof.
+  intros dl d L enb L1 enb1 (N & Ne & L0 & -> & F & -> & Hl & D) Hd.
+  assert (HD : Forall (deeper dl) N) by (revert D; apply Forall_impl; intros l [E _]; unfold deeper; rewrite E; exact Hd).
+  assert (HD2 : Forall (fun l => deeper dl l /\ l_name l <> None) N) by (revert D; apply Forall_impl; intros l [E En]; split; [unfold deeper; rewrite E; exact Hd|exact En]).
+  rewrite (cutL_app_deeper dl N L0 HD), (cutE_app_deeper dl N Ne L0 enb HD2 Hl). split; [exact (cutL_length_flags dl _ _ F)|].
+  symmetry. apply cutE_flags. exact F.
+Qed.
+
 Lemma L_step : forall fu, S_goal fu -> L_goal fu -> L_goal (S fu).
 Proof.
-  intros fu IHS IHL ss infun top enb envs st st' en' ctl He Hg Hf L d U E fs code L' U' E' fs' Hc Ht Hdl Hd0 Hsok Hfuns
-         Ufin Efin uvec K CL HL base HU HF HC HlenCL m fn frs G O pre post lo Hcode Hfrs Hlo HFLO HM HS.
+  intros fu IHS IHL ss infun top inloop enb envs st st' en' ctl He Hf L d U E fs pos lc code L' U' E' fs' Hc Hg Ht Hdl Hd0 Hsok Hfuns
+         Lm Ufin Efin uvec K CL HL base HFB HU HF HC HlenCL m fn frs G O pre post lo Hcode Hpos Hlc Hfrs Hlo HFLO HM HS.
   unfold RES. destruct ss as [|s r].
-  - cbn in He, Hc. inversion He; inversion Hc; subst. exists 0, m, K, HL, G, O.
+  - cbn in He, Hc. inversion He; inversion Hc; subst. rewrite (mrg_same L' Lm HFB). exists 0, m, K, HL, G, O.
     split; [reflexivity|]. split; [exact HS|]. split; [apply KEXT_refl|]. split; [apply HEXT_refl|]. split; [apply FRAMEC_refl|]. split; [lia|].
     exists CL, enb. split; [reflexivity|]. cbn [code_size]. rewrite Nat.add_0_r. split; [exact HM|].
     split; [apply (cx_lrb _ _ _ _ _ _ _ _ _ _ HC)|]. split; [exact HlenCL|]. split; [reflexivity|]. split; [exact HFLO|].
     split; [apply EXT2_flags, flags_up_refl|auto].
   - cbn in Hf. apply andb_prop in Hf as [Hf1 Hf2]. cbn [exec_list] in He. cbn [nlist] in Hc.
-    destruct (nstmt cf s L d U E fs) as [[[[[ca L1] U1] E1] fs1]|] eqn:C1; [|discriminate].
-    destruct (nlist cf r d L1 U1 E1 fs1) as [[[[[cr L2] U2] E2] fs2]|] eqn:C2; [|discriminate]. inversion Hc; subst code L' U' E' fs'. clear Hc.
-    destruct (nstmt_ok cf s (stmt5_stmt5u _ _ _ Hf1) _ _ _ _ _ _ _ _ _ _ C1 Hdl) as (_ & _ & HLx1).
+    destruct (nstmt cf s L d U E fs pos lc) as [[[[[ca L1] U1] E1] fs1]|] eqn:C1; [|discriminate].
+    destruct (nlist cf r d L1 U1 E1 fs1 (pos + code_size ca) lc) as [[[[[cr L2] U2] E2] fs2]|] eqn:C2; [|discriminate]. inversion Hc; subst code L' U' E' fs'. clear Hc.
+    destruct (nstmt_ok cf s (stmt6_stmt6u _ _ _ _ _ Hf1) _ _ _ _ _ _ _ _ _ _ _ _ C1 Hdl) as (_ & _ & HLx1).
     pose proof (lext_depth_le _ _ _ Hdl HLx1) as Hdl1.
-    destruct (nlist_ok cf r (forallb_stmt5_stmt5u _ _ _ Hf2) _ _ _ _ _ _ _ _ _ _ C2 Hdl1) as ([[ext2 ->] HF2] & [fe2 ->] & _).
-    pose proof (nstmt_stack_ok cf s (stmt5_stmt5u _ _ _ Hf1) _ _ _ _ _ _ _ _ _ _ C1 Hsok) as Hsok1.
+    destruct (nlist_ok cf r (forallb_stmt6_stmt6u _ _ _ _ _ Hf2) _ _ _ _ _ _ _ _ _ _ _ _ C2 Hdl1) as ([[ext2 ->] HF2] & [fe2 ->] & HLx2).
+    pose proof (nstmt_stack_ok cf s (stmt6_stmt6u _ _ _ _ _ Hf1) _ _ _ _ _ _ _ _ _ _ _ _ C1 Hsok) as Hsok1.
+    (* the flags after the first statement *)
+    set (Lm1 := mrg L L1 Lm).
+    pose proof (mrg_flags _ _ _ _ HLx1 HFB) as HFB1. fold Lm1 in HFB1.
+    assert (Emrg : mrg L1 L2 Lm1 = mrg L L2 Lm) by (unfold Lm1; eapply mrg_trans; eauto).
+    rewrite <- Emrg.
     destruct (exec_stmt fu s (enb ++ List.concat envs)%list top st) as [[st1 en1] c1] eqn:E1'.
-    assert (Hg1 : good c1).
-    { destruct c1; try (left; reflexivity); try (right; eexists; reflexivity); inversion He; subst; exact Hg. }
+    assert (Hg1 : goodl lc c1).
+    { destruct c1; try (left; left; reflexivity); inversion He; subst; exact Hg. }
     destruct HU as [ext ->].
     assert (Hfuns1 : exists e0, funs = (fs1 ++ e0)%list).
     { destruct Hfuns as [e0 ->]. exists (fe2 ++ e0)%list. now rewrite <- app_assoc. }
-    destruct (IHS s infun top enb envs st st1 en1 c1 E1' Hg1 Hf1 L d U E fs ca L1 U1 E1 fs1 C1 Ht Hdl Hd0 Hsok Hfuns1
-                ((U1 ++ ext2) ++ ext)%list Efin uvec K CL HL base ltac:(exists (ext2 ++ ext)%list; now rewrite app_assoc)
+    assert (Hlc1 : LCOK lc d L Lm (code_size pre) (code_size pre + code_size ca)).
+    { intros l El0. destruct (Hlc l El0) as (W1 & W2 & W3 & W4). rewrite code_size_app in W3. repeat split; auto; lia. }
+    destruct (IHS s infun top inloop enb envs st st1 en1 c1 E1' Hf1 L d U E fs pos lc ca L1 U1 E1 fs1 C1 Hg1 Ht Hdl Hd0 Hsok Hfuns1
+                Lm ((U1 ++ ext2) ++ ext)%list Efin uvec K CL HL base HFB ltac:(exists (ext2 ++ ext)%list; now rewrite app_assoc)
                 ltac:(eapply levs_up_trans; eauto) HC HlenCL m fn frs G O pre (cr ++ post)%list lo)
       as (n1 & m1 & K1 & HL1 & G1 & O1 & S1 & ST1 & KX1 & HX1 & F1 & Hcn1 & Hres1); auto.
     { rewrite Hcode. now rewrite <- !app_assoc. }
-    destruct c1 as [| | |w| | |]; try contradiction.
+    fold Lm1 in Hres1.
+    assert (Hjmp1 : forall l, lc = Some l -> flags_up (cutL (lc_depth l) Lm1) (cutL (lc_depth l) (mrg L1 L2 Lm1))).
+    { intros l El0. destruct (Hlc l El0) as (W1 & _). eapply cutL_mrg_up; eauto. }
+    destruct c1 as [| | |w| | |]; try (destruct Hg1 as [[Hg1|[? Hg1]]|[_ [Hg1|Hg1]]]; discriminate).
     + destruct Hres1 as (CL1 & enb1 & -> & M1 & LR1 & Len1 & Hfirst1 & HFLO1 & X1 & Y1).
-      assert (HC1 : CTX K1 CL1 HL1 base L1 enb1 Efin envs ((U1 ++ ext2) ++ ext)%list uvec).
-      { eapply CTX_next; eauto; [eapply KEXT_ext; eauto|eapply HEXT_ext; eauto]. }
+      assert (HC1 : CTX K1 CL1 HL1 base Lm1 enb1 Efin envs ((U1 ++ ext2) ++ ext)%list uvec).
+      { eapply CTX_next; [exact HC|exact LR1|rewrite (flags_up_length _ _ HFB1); exact Len1|eapply KEXT_ext; eauto|eapply HEXT_ext; eauto]. }
       assert (Hd01 : d = 0 -> enb1 = [] /\ envs = []).
       { intro Hd00. destruct (Hd0 Hd00) as [A B]. rewrite (Y1 Hd00). auto. }
-      destruct (IHL r infun top enb1 envs st1 st' en' ctl He Hg Hf2 L1 d U1 E1 fs1 cr L2 (U1 ++ ext2)%list E2 (fs1 ++ fe2)%list C2 Ht
-                  (EXT2_depth_le _ _ _ _ _ Hdl X1) Hd01 Hsok1 Hfuns ((U1 ++ ext2) ++ ext)%list Efin uvec K1 CL1 HL1 base
-                  ltac:(eauto) HF HC1 Len1 m1 fn frs G1 O1 (pre ++ ca)%list post lo)
+      assert (Hlc2 : LCOK lc d L1 Lm1 (code_size (pre ++ ca)) (code_size (pre ++ ca) + code_size cr)).
+      { intros l El0. destruct (Hlc l El0) as (W1 & W2 & W3 & W4). rewrite !code_size_app in *. split; [exact W1|]. split; [lia|]. split; [lia|].
+        unfold Lm1. eapply TIGHT_mrg; eauto. }
+      destruct (IHL r infun top inloop enb1 envs st1 st' en' ctl He Hf2 L1 d U1 E1 fs1 (pos + code_size ca) lc cr L2 (U1 ++ ext2)%list E2 (fs1 ++ fe2)%list C2 Hg Ht
+                  (EXT2_depth_le _ _ _ _ _ Hdl X1) Hd01 Hsok1 Hfuns Lm1 ((U1 ++ ext2) ++ ext)%list Efin uvec K1 CL1 HL1 base
+                  HFB1 ltac:(eauto) HF HC1 Len1 m1 fn frs G1 O1 (pre ++ ca)%list post lo)
         as (n2 & m2 & K2 & HL2 & G2 & O2 & S2 & ST2 & KX2 & HX2 & F2 & Hcn2 & Hres2); auto.
       { rewrite Hcode. now rewrite <- !app_assoc. }
+      { rewrite code_size_app. lia. }
       { lia. }
       { rewrite code_size_app. exact M1. }
       exists (n1 + n2), m2, K2, HL2, G2, O2.
@@ -1543,7 +2732,13 @@ Proof.
       pose proof (EXT2_len _ _ _ _ _ X1) as HlenL1.
       assert (Hfb : firstn base CL1 = firstn base CL).
       { rewrite <- (firstn_firstn_le _ CL1 base (base + List.length L)) by lia. rewrite Hfirst1. apply firstn_firstn_le. lia. }
-      destruct ctl; try contradiction.
+      assert (Hcut : forall l, lc = Some l ->
+                firstn (base + List.length (cutL (lc_depth l) L1)) CL1 = firstn (base + List.length (cutL (lc_depth l) L)) CL /\
+                List.length (cutL (lc_depth l) L1) = List.length (cutL (lc_depth l) L) /\ cutE (lc_depth l) L1 enb1 = cutE (lc_depth l) L enb).
+      { intros l El0. destruct (Hlc l El0) as (W1 & _). destruct (cut_ext2 _ _ _ _ _ _ X1 W1) as [Q1 Q2]. rewrite Q1. split; [|auto].
+        assert (Hk : List.length (cutL (lc_depth l) L) <= List.length L) by (rewrite cutL_skipn, skipn_length; lia).
+        rewrite <- (firstn_firstn_le _ CL1 _ (base + List.length L)) by lia. rewrite Hfirst1. apply firstn_firstn_le. lia. }
+      destruct ctl as [| | |w| | |]; try (destruct Hg as [[Hg|[? Hg]]|[_ [Hg|Hg]]]; discriminate).
       * destruct Hres2 as (CL2 & enb2 & -> & M2 & LR2 & Len2 & Hfirst2 & HFLO2 & X2 & Y2).
         exists CL2, enb2. split; [reflexivity|]. split; [rewrite !code_size_app in *; rewrite Nat.add_assoc; exact M2|].
         split; [exact LR2|]. split; [exact Len2|].
@@ -1551,9 +2746,22 @@ Proof.
                  rewrite firstn_firstn_le by lia. exact Hfirst1. }
         split; [exact HFLO2|]. split; [eapply EXT2_trans; eauto|].
         intro Hd00. rewrite (Y2 Hd00). auto.
+      * destruct Hres2 as (l & El0 & Q1 & Q2). destruct (Hcut l El0) as (Z1 & Z2 & Z3). exists l. split; [exact El0|].
+        rewrite Z1, Z3 in *. split; [exact Q1|exact Q2].
+      * destruct Hres2 as (l & El0 & Q1 & Q2). destruct (Hcut l El0) as (Z1 & Z2 & Z3). exists l. split; [exact El0|].
+        rewrite Z1, Z3 in *. split; [exact Q1|exact Q2].
       * destruct Hres2 as (fn0 & ups0 & pc0 & base0 & frs' & cres & Efr & Q1 & Q2 & Q3 & Q4 & Q5).
         exists fn0, ups0, pc0, base0, frs', cres. rewrite <- Hfb. split; [exact Efr|]. split; [exact Q1|]. split; [exact Q2|]. split; [lia|].
         split; assumption.
+    + (* the first statement breaks *)
+      inversion He; subst st' en' ctl.
+      exists n1, m1, K1, HL1, G1, O1. split; [exact S1|]. split; [exact ST1|]. split; [exact KX1|]. split; [exact HX1|]. split; [exact F1|].
+      split; [lia|]. destruct Hres1 as (l & El0 & Q1 & Q2). exists l. split; [exact El0|]. split; [exact Q1|].
+      eapply LRBN_flags; [exact Q2|exact (Hjmp1 l El0)].
+    + inversion He; subst st' en' ctl.
+      exists n1, m1, K1, HL1, G1, O1. split; [exact S1|]. split; [exact ST1|]. split; [exact KX1|]. split; [exact HX1|]. split; [exact F1|].
+      split; [lia|]. destruct Hres1 as (l & El0 & Q1 & Q2). exists l. split; [exact El0|]. split; [exact Q1|].
+      eapply LRBN_flags; [exact Q2|exact (Hjmp1 l El0)].
     + inversion He; subst st' en' ctl.
       exists n1, m1, K1, HL1, G1, O1. split; [exact S1|]. split; [exact ST1|]. split; [exact KX1|]. split; [exact HX1|]. split; [exact F1|].
       split; [lia|exact Hres1].
@@ -1569,8 +2777,10 @@ Proof.
   induction fu as [|fu (IE & IS & IL)].
   - split; [|split].
     + unfold E_goal. intros ? ? ? ? ? ? He; discriminate.
-    + unfold S_goal. intros ? ? ? ? ? ? ? ? ? He Hg. cbn in He. inversion He; subst. destruct (not_good_stuck _ Hg).
-    + unfold L_goal. intros ? ? ? ? ? ? ? ? ? He Hg. cbn in He. inversion He; subst. destruct (not_good_stuck _ Hg).
+    + unfold S_goal. intros s infun top inloop enb envs st st' en' ctl He Hf L d U E fs pos lc code L' U' E' fs' Hc Hg. cbn in He. inversion He; subst.
+      destruct Hg as [Hg|[_ [Hg|Hg]]]; [destruct (not_good_stuck _ Hg)|discriminate|discriminate].
+    + unfold L_goal. intros ss infun top inloop enb envs st st' en' ctl He Hf L d U E fs pos lc code L' U' E' fs' Hc Hg. cbn in He. inversion He; subst.
+      destruct Hg as [Hg|[_ [Hg|Hg]]]; [destruct (not_good_stuck _ Hg)|discriminate|discriminate].
   - split; [|split].
     + now apply E_step.
     + now apply S_step.
